@@ -16,866 +16,713 @@ Definition terms (ts : list tok) (t : pt) : string :=
   digest (show_toks (Some ts)) ++ " " ++ digest (show_pt (Some t)) ++ " " ++ digest (show_pt (parse ts)).
 Definition terms_full (ts : list tok) (t : pt) : string :=
   show_toks (Some ts) ++ nl ++ show_pt (Some t) ++ nl ++ show_pt (parse ts).
-Eval vm_compute in ("<<<M0>>>" ++ check (runes_of_ascii "
-packet /// triple
-uint8x	{@calculatedFrom(
-""a	b"" )
+Eval vm_compute in ("<<<M0>>>" ++ check (runes_of_ascii "packet uint8x {	@calculatedFrom(""a	b""
+) i32
 //
 // " ++ [128512]%N ++ runes_of_ascii " emoji
-i32 charz
-    ,
-match //x
-x	as
-x {""a	b""  :
-lengthOf,} , leftPad
-    `{ , }` , } //x")).
-Eval vm_compute in ("<<<M10>>>" ++ check (runes_of_ascii "
-options{
-crc
-// " ++ [128512]%N ++ runes_of_ascii " emoji
-// trailing space 
-= uint8} packet len {uint8x @calculatedFrom( ""x y"" ), @lengthOf(
-    rootA  )
-    @lengthOf( body
-// `tick` ""quote"" 'q'
-// `tick` ""quote"" 'q'
-)@calculatedFrom(  ""x y""
-) Packet  @calculatedFrom(// `tick` ""quote"" 'q'
-""\n"" )
-`
-`
-, Packet ,  repeat
-    // trailing space 
-    i8	Z9_ , @tag(255 )
-falsey `
-` ,	i64 int `line1
-line2` ,@calculatedFrom(
-    ""\n""
-// packet A { u8 x, }
-/// triple
-) @leftPad()
-@calculatedFrom(//	t
-""abc"" )// packet A { u8 x, }
-BodyLength ,uint8 u , @calculatedFrom(
-    ""a\""b""
-) @lengthOf( metadata ) @rightPad (' ') // packet A { u8 x, }
-char[10] f32a , }  packet repeatCount { }options  {
-string_ =  i32 ;
-o =	""a	b"" ;
-    i8i8	=
-    ""a\""b"" ; uint8x =
-uint16
-    // " ++ [128512]%N ++ runes_of_ascii " emoji
-    ;
-}")).
-Eval vm_compute in ("<<<M20>>>" ++ check (runes_of_ascii "packet
-int // " ++ [27880; 37322]%N ++ runes_of_ascii "
-{ repeat // @lengthOf(
-MetaDataX // a // b
-{ //	t
-pack
-    { repeat Pad	{ i8 MetaDataX
-, repeat pack	trueish ,
-u
-    // trailing space 
-    charz	`" ++ [233]%N ++ runes_of_ascii "` ,string
-int
-, }	, f64 Z9_
-    ,
-} ,
-} // c
-,	} packet trueish {
-@lengthOf(
-    u)uint8 metadata
-    `" ++ [28040; 24687; 31867; 22411]%N ++ runes_of_ascii "` , match	uint8x
-as roots
-{ """ ++ [233]%N ++ runes_of_ascii "t" ++ [233]%N ++ runes_of_ascii """:
-    Pad 0123456789
-: msg_type// " ++ [27880; 37322]%N ++ runes_of_ascii "
-[ ""1"" ,	0 ,10] //	t
-:
-pack,
-[ ""it's"" ,  ""\" ++ [233]%N ++ runes_of_ascii """ ] :u8x
-, [// " ++ [128512]%N ++ runes_of_ascii " emoji
-0123456789 ] :
-MetaDataX
-    // packet A { u8 x, }
-    , },zchar[	00 ] pack @lengthOf( string_ ),// packet A { u8 x, }
-@tag( 4294967296 )
-x_y_z string_ ,
-    } options {A
-    =true float  =	""" ++ [28040; 24687]%N ++ runes_of_ascii """ ; }
-MetaData Header { zchar[//
-7 // `tick` ""quote"" 'q'
-]u128
-, char[]
-/// triple
-// trailing space 
-u , string_ metadata	,
-uint32 f32a `u8 x,` , } options{// trailing space 
-roots
-    =
-    true;
-int =false ; string_=
-"""" }")).
-Eval vm_compute in ("<<<T20>>>" ++ terms [mkTok 35 "packet" 1 0 false; mkTok 42 "int" 2 0 false; mkTok 44 (string_of_bytes [47; 47; 32; 230; 179; 168; 233; 135; 138]%N) 2 4 true; mkTok 2 "{" 3 0 false; mkTok 36 "repeat" 3 2 false; mkTok 44 "// @lengthOf(" 3 9 true; mkTok 42 "MetaDataX" 4 0 false; mkTok 44 "// a // b" 4 10 true; mkTok 2 "{" 5 0 false; mkTok 44 (string_of_bytes [47; 47; 9; 116]%N) 5 2 true; mkTok 42 "pack" 6 0 false; mkTok 2 "{" 7 4 false; mkTok 36 "repeat" 7 6 false; mkTok 42 "Pad" 7 13 false; mkTok 2 "{" 7 17 false; mkTok 24 "i8" 7 19 false; mkTok 42 "MetaDataX" 7 22 false; mkTok 40 "," 8 0 false; mkTok 36 "repeat" 8 2 false; mkTok 42 "pack" 8 9 false; mkTok 42 "trueish" 8 14 false; mkTok 40 "," 8 22 false; mkTok 42 "u" 9 0 false; mkTok 44 "// trailing space " 10 4 true; mkTok 42 "charz" 11 4 false; mkTok 43 (string_of_bytes [96; 195; 169; 96]%N) 11 10 false; mkTok 40 "," 11 14 false; mkTok 15 "string" 11 15 false; mkTok 42 "int" 12 0 false; mkTok 40 "," 13 0 false; mkTok 3 "}" 13 2 false; mkTok 40 "," 13 4 false; mkTok 29 "f64" 13 6 false; mkTok 42 "Z9_" 13 10 false; mkTok 40 "," 14 4 false; mkTok 3 "}" 15 0 false; mkTok 40 "," 15 2 false; mkTok 3 "}" 16 0 false; mkTok 44 "// c" 16 2 true; mkTok 40 "," 17 0 false; mkTok 3 "}" 17 2 false; mkTok 35 "packet" 17 4 false; mkTok 42 "trueish" 17 11 false; mkTok 2 "{" 17 19 false; mkTok 7 "@lengthOf(" 18 0 false; mkTok 42 "u" 19 4 false; mkTok 6 ")" 19 5 false; mkTok 20 "uint8" 19 6 false; mkTok 42 "metadata" 19 12 false; mkTok 43 (string_of_bytes [96; 230; 182; 136; 230; 129; 175; 231; 177; 187; 229; 158; 139; 96]%N) 20 4 false; mkTok 40 "," 20 11 false; mkTok 38 "match" 20 13 false; mkTok 42 "uint8x" 20 19 false; mkTok 17 "as" 21 0 false; mkTok 42 "roots" 21 3 false; mkTok 2 "{" 22 0 false; mkTok 31 (string_of_bytes [34; 195; 169; 116; 195; 169; 34]%N) 22 2 false; mkTok 39 ":" 22 7 false; mkTok 42 "Pad" 23 4 false; mkTok 30 "0123456789" 23 8 false; mkTok 39 ":" 24 0 false; mkTok 42 "msg_type" 24 2 false; mkTok 44 (string_of_bytes [47; 47; 32; 230; 179; 168; 233; 135; 138]%N) 24 10 true; mkTok 18 "[" 25 0 false; mkTok 31 """1""" 25 2 false; mkTok 40 "," 25 6 false; mkTok 30 "0" 25 8 false; mkTok 40 "," 25 10 false; mkTok 30 "10" 25 11 false; mkTok 13 "]" 25 13 false; mkTok 44 (string_of_bytes [47; 47; 9; 116]%N) 25 15 true; mkTok 39 ":" 26 0 false; mkTok 42 "pack" 27 0 false; mkTok 40 "," 27 4 false; mkTok 18 "[" 28 0 false; mkTok 31 """it's""" 28 2 false; mkTok 40 "," 28 9 false; mkTok 31 (string_of_bytes [34; 92; 195; 169; 34]%N) 28 12 false; mkTok 13 "]" 28 17 false; mkTok 39 ":" 28 19 false; mkTok 42 "u8x" 28 20 false; mkTok 40 "," 29 0 false; mkTok 18 "[" 29 2 false; mkTok 44 (string_of_bytes [47; 47; 32; 240; 159; 152; 128; 32; 101; 109; 111; 106; 105]%N) 29 3 true; mkTok 30 "0123456789" 30 0 false; mkTok 13 "]" 30 11 false; mkTok 39 ":" 30 13 false; mkTok 42 "MetaDataX" 31 0 false; mkTok 44 "// packet A { u8 x, }" 32 4 true; mkTok 40 "," 33 4 false; mkTok 3 "}" 33 6 false; mkTok 40 "," 33 7 false; mkTok 14 "zchar[" 33 8 false; mkTok 30 "00" 33 15 false; mkTok 13 "]" 33 18 false; mkTok 42 "pack" 33 20 false; mkTok 7 "@lengthOf(" 33 25 false; mkTok 42 "string_" 33 36 false; mkTok 6 ")" 33 44 false; mkTok 40 "," 33 45 false; mkTok 44 "// packet A { u8 x, }" 33 46 true; mkTok 9 "@tag(" 34 0 false; mkTok 30 "4294967296" 34 6 false; mkTok 6 ")" 34 17 false; mkTok 42 "x_y_z" 35 0 false; mkTok 42 "string_" 35 6 false; mkTok 40 "," 35 14 false; mkTok 3 "}" 36 4 false; mkTok 1 "options" 36 6 false; mkTok 2 "{" 36 14 false; mkTok 42 "A" 36 15 false; mkTok 4 "=" 37 4 false; mkTok 10 "true" 37 5 false; mkTok 42 "float" 37 10 false; mkTok 4 "=" 37 17 false; mkTok 31 (string_of_bytes [34; 230; 182; 136; 230; 129; 175; 34]%N) 37 19 false; mkTok 41 ";" 37 24 false; mkTok 3 "}" 37 26 false; mkTok 37 "MetaData" 38 0 false; mkTok 42 "Header" 38 9 false; mkTok 2 "{" 38 16 false; mkTok 14 "zchar[" 38 18 false; mkTok 44 "//" 38 24 true; mkTok 30 "7" 39 0 false; mkTok 44 "// `tick` ""quote"" 'q'" 39 2 true; mkTok 13 "]" 40 0 false; mkTok 42 "u128" 40 1 false; mkTok 40 "," 41 0 false; mkTok 16 "char[]" 41 2 false; mkTok 44 "/// triple" 42 0 true; mkTok 44 "// trailing space " 43 0 true; mkTok 42 "u" 44 0 false; mkTok 40 "," 44 2 false; mkTok 42 "string_" 44 4 false; mkTok 42 "metadata" 44 12 false; mkTok 40 "," 44 21 false; mkTok 22 "uint32" 45 0 false; mkTok 42 "f32a" 45 7 false; mkTok 43 "`u8 x,`" 45 12 false; mkTok 40 "," 45 20 false; mkTok 3 "}" 45 22 false; mkTok 1 "options" 45 24 false; mkTok 2 "{" 45 31 false; mkTok 44 "// trailing space " 45 32 true; mkTok 42 "roots" 46 0 false; mkTok 4 "=" 47 4 false; mkTok 10 "true" 48 4 false; mkTok 41 ";" 48 8 false; mkTok 42 "int" 49 0 false; mkTok 4 "=" 49 4 false; mkTok 11 "false" 49 5 false; mkTok 41 ";" 49 11 false; mkTok 42 "string_" 49 13 false; mkTok 4 "=" 49 20 false; mkTok 31 """""" 50 0 false; mkTok 3 "}" 50 3 false; mkTok 0 "<EOF>" 50 4 false] (mkPacket (mkPtok 35 "packet" 1 0 0) (Some (mkPtok 3 "}" 50 3 155)) [(DPacket (mkPacketDef (mkSpan (mkPtok 35 "packet" 1 0 0) (mkPtok 3 "}" 17 2 40)) None (mkPtok 35 "packet" 1 0 0) (mkPtok 42 "int" 2 0 1) (mkPtok 2 "{" 3 0 3) [(mkFieldWithAttr (mkSpan (mkPtok 36 "repeat" 3 2 4) (mkPtok 40 "," 17 0 39)) [] (InerObjectField (mkSpan (mkPtok 36 "repeat" 3 2 4) (mkPtok 40 "," 17 0 39)) (Some (mkPtok 36 "repeat" 3 2 4)) (InerObjectDecl (mkSpan (mkPtok 42 "MetaDataX" 4 0 6) (mkPtok 3 "}" 16 0 37)) (mkPtok 42 "MetaDataX" 4 0 6) (mkPtok 2 "{" 5 0 8) [(InerObjectField (mkSpan (mkPtok 42 "pack" 6 0 10) (mkPtok 40 "," 15 2 36)) None (InerObjectDecl (mkSpan (mkPtok 42 "pack" 6 0 10) (mkPtok 3 "}" 15 0 35)) (mkPtok 42 "pack" 6 0 10) (mkPtok 2 "{" 7 4 11) [(InerObjectField (mkSpan (mkPtok 36 "repeat" 7 6 12) (mkPtok 40 "," 13 4 31)) (Some (mkPtok 36 "repeat" 7 6 12)) (InerObjectDecl (mkSpan (mkPtok 42 "Pad" 7 13 13) (mkPtok 3 "}" 13 2 30)) (mkPtok 42 "Pad" 7 13 13) (mkPtok 2 "{" 7 17 14) [(MetaField (mkSpan (mkPtok 24 "i8" 7 19 15) (mkPtok 40 "," 8 0 17)) None (mkMetaDecl (mkSpan (mkPtok 24 "i8" 7 19 15) (mkPtok 40 "," 8 0 17)) (TyBasic (mkSpan (mkPtok 24 "i8" 7 19 15) (mkPtok 24 "i8" 7 19 15)) (mkBasicType (mkSpan (mkPtok 24 "i8" 7 19 15) (mkPtok 24 "i8" 7 19 15)) (mkPtok 24 "i8" 7 19 15))) (mkPtok 42 "MetaDataX" 7 22 16) None (mkPtok 40 "," 8 0 17))); (ObjectField (mkSpan (mkPtok 36 "repeat" 8 2 18) (mkPtok 40 "," 8 22 21)) (Some (mkPtok 36 "repeat" 8 2 18)) (mkPtok 42 "pack" 8 9 19) (Some (mkPtok 42 "trueish" 8 14 20)) None (mkPtok 40 "," 8 22 21)); (ObjectField (mkSpan (mkPtok 42 "u" 9 0 22) (mkPtok 40 "," 11 14 26)) None (mkPtok 42 "u" 9 0 22) (Some (mkPtok 42 "charz" 11 4 24)) (Some (mkPtok 43 (string_of_bytes [96; 195; 169; 96]%N) 11 10 25)) (mkPtok 40 "," 11 14 26)); (MetaField (mkSpan (mkPtok 15 "string" 11 15 27) (mkPtok 40 "," 13 0 29)) None (mkMetaDecl (mkSpan (mkPtok 15 "string" 11 15 27) (mkPtok 40 "," 13 0 29)) (TyDynamic (mkSpan (mkPtok 15 "string" 11 15 27) (mkPtok 15 "string" 11 15 27)) (mkDynamicString (mkSpan (mkPtok 15 "string" 11 15 27) (mkPtok 15 "string" 11 15 27)) (mkPtok 15 "string" 11 15 27))) (mkPtok 42 "int" 12 0 28) None (mkPtok 40 "," 13 0 29)))] (mkPtok 3 "}" 13 2 30)) (mkPtok 40 "," 13 4 31)); (MetaField (mkSpan (mkPtok 29 "f64" 13 6 32) (mkPtok 40 "," 14 4 34)) None (mkMetaDecl (mkSpan (mkPtok 29 "f64" 13 6 32) (mkPtok 40 "," 14 4 34)) (TyBasic (mkSpan (mkPtok 29 "f64" 13 6 32) (mkPtok 29 "f64" 13 6 32)) (mkBasicType (mkSpan (mkPtok 29 "f64" 13 6 32) (mkPtok 29 "f64" 13 6 32)) (mkPtok 29 "f64" 13 6 32))) (mkPtok 42 "Z9_" 13 10 33) None (mkPtok 40 "," 14 4 34)))] (mkPtok 3 "}" 15 0 35)) (mkPtok 40 "," 15 2 36))] (mkPtok 3 "}" 16 0 37)) (mkPtok 40 "," 17 0 39)))] (mkPtok 3 "}" 17 2 40))); (DPacket (mkPacketDef (mkSpan (mkPtok 35 "packet" 17 4 41) (mkPtok 3 "}" 36 4 107)) None (mkPtok 35 "packet" 17 4 41) (mkPtok 42 "trueish" 17 11 42) (mkPtok 2 "{" 17 19 43) [(mkFieldWithAttr (mkSpan (mkPtok 7 "@lengthOf(" 18 0 44) (mkPtok 40 "," 20 11 50)) [(FALengthOf (mkSpan (mkPtok 7 "@lengthOf(" 18 0 44) (mkPtok 6 ")" 19 5 46)) (mkLengthOf (mkSpan (mkPtok 7 "@lengthOf(" 18 0 44) (mkPtok 6 ")" 19 5 46)) (mkPtok 7 "@lengthOf(" 18 0 44) (mkPtok 42 "u" 19 4 45) (mkPtok 6 ")" 19 5 46)))] (MetaField (mkSpan (mkPtok 20 "uint8" 19 6 47) (mkPtok 40 "," 20 11 50)) None (mkMetaDecl (mkSpan (mkPtok 20 "uint8" 19 6 47) (mkPtok 40 "," 20 11 50)) (TyBasic (mkSpan (mkPtok 20 "uint8" 19 6 47) (mkPtok 20 "uint8" 19 6 47)) (mkBasicType (mkSpan (mkPtok 20 "uint8" 19 6 47) (mkPtok 20 "uint8" 19 6 47)) (mkPtok 20 "uint8" 19 6 47))) (mkPtok 42 "metadata" 19 12 48) (Some (mkPtok 43 (string_of_bytes [96; 230; 182; 136; 230; 129; 175; 231; 177; 187; 229; 158; 139; 96]%N) 20 4 49)) (mkPtok 40 "," 20 11 50)))); (mkFieldWithAttr (mkSpan (mkPtok 38 "match" 20 13 51) (mkPtok 40 "," 33 7 91)) [] (MatchField (mkSpan (mkPtok 38 "match" 20 13 51) (mkPtok 40 "," 33 7 91)) (mkMatchFieldDecl (mkSpan (mkPtok 38 "match" 20 13 51) (mkPtok 3 "}" 33 6 90)) (mkPtok 38 "match" 20 13 51) (mkPtok 42 "uint8x" 20 19 52) (mkPtok 17 "as" 21 0 53) (mkPtok 42 "roots" 21 3 54) (mkPtok 2 "{" 22 0 55) [(mkMatchPair (mkSpan (mkPtok 31 (string_of_bytes [34; 195; 169; 116; 195; 169; 34]%N) 22 2 56) (mkPtok 42 "Pad" 23 4 58)) (MKString (mkPtok 31 (string_of_bytes [34; 195; 169; 116; 195; 169; 34]%N) 22 2 56)) (mkPtok 39 ":" 22 7 57) (mkPtok 42 "Pad" 23 4 58) None); (mkMatchPair (mkSpan (mkPtok 30 "0123456789" 23 8 59) (mkPtok 42 "msg_type" 24 2 61)) (MKDigits (mkPtok 30 "0123456789" 23 8 59)) (mkPtok 39 ":" 24 0 60) (mkPtok 42 "msg_type" 24 2 61) None); (mkMatchPair (mkSpan (mkPtok 18 "[" 25 0 63) (mkPtok 40 "," 27 4 73)) (MKList (mkKeyList (mkSpan (mkPtok 18 "[" 25 0 63) (mkPtok 13 "]" 25 13 69)) (mkPtok 18 "[" 25 0 63) (mkPtok 31 """1""" 25 2 64) [((mkPtok 40 "," 25 6 65), (mkPtok 30 "0" 25 8 66)); ((mkPtok 40 "," 25 10 67), (mkPtok 30 "10" 25 11 68))] (mkPtok 13 "]" 25 13 69))) (mkPtok 39 ":" 26 0 71) (mkPtok 42 "pack" 27 0 72) (Some (mkPtok 40 "," 27 4 73))); (mkMatchPair (mkSpan (mkPtok 18 "[" 28 0 74) (mkPtok 40 "," 29 0 81)) (MKList (mkKeyList (mkSpan (mkPtok 18 "[" 28 0 74) (mkPtok 13 "]" 28 17 78)) (mkPtok 18 "[" 28 0 74) (mkPtok 31 """it's""" 28 2 75) [((mkPtok 40 "," 28 9 76), (mkPtok 31 (string_of_bytes [34; 92; 195; 169; 34]%N) 28 12 77))] (mkPtok 13 "]" 28 17 78))) (mkPtok 39 ":" 28 19 79) (mkPtok 42 "u8x" 28 20 80) (Some (mkPtok 40 "," 29 0 81))); (mkMatchPair (mkSpan (mkPtok 18 "[" 29 2 82) (mkPtok 40 "," 33 4 89)) (MKList (mkKeyList (mkSpan (mkPtok 18 "[" 29 2 82) (mkPtok 13 "]" 30 11 85)) (mkPtok 18 "[" 29 2 82) (mkPtok 30 "0123456789" 30 0 84) [] (mkPtok 13 "]" 30 11 85))) (mkPtok 39 ":" 30 13 86) (mkPtok 42 "MetaDataX" 31 0 87) (Some (mkPtok 40 "," 33 4 89)))] (mkPtok 3 "}" 33 6 90)) (mkPtok 40 "," 33 7 91))); (mkFieldWithAttr (mkSpan (mkPtok 14 "zchar[" 33 8 92) (mkPtok 40 "," 33 45 99)) [] (LengthField (mkSpan (mkPtok 14 "zchar[" 33 8 92) (mkPtok 40 "," 33 45 99)) (mkLengthFieldDecl (mkSpan (mkPtok 14 "zchar[" 33 8 92) (mkPtok 40 "," 33 45 99)) (Some (TyFixed (mkSpan (mkPtok 14 "zchar[" 33 8 92) (mkPtok 13 "]" 33 18 94)) (mkFixedString (mkSpan (mkPtok 14 "zchar[" 33 8 92) (mkPtok 13 "]" 33 18 94)) (mkPtok 14 "zchar[" 33 8 92) (mkPtok 30 "00" 33 15 93) (mkPtok 13 "]" 33 18 94)))) (mkPtok 42 "pack" 33 20 95) (mkLengthOf (mkSpan (mkPtok 7 "@lengthOf(" 33 25 96) (mkPtok 6 ")" 33 44 98)) (mkPtok 7 "@lengthOf(" 33 25 96) (mkPtok 42 "string_" 33 36 97) (mkPtok 6 ")" 33 44 98)) None (mkPtok 40 "," 33 45 99)))); (mkFieldWithAttr (mkSpan (mkPtok 9 "@tag(" 34 0 101) (mkPtok 40 "," 35 14 106)) [(FATag (mkSpan (mkPtok 9 "@tag(" 34 0 101) (mkPtok 6 ")" 34 17 103)) (mkTagAttr (mkSpan (mkPtok 9 "@tag(" 34 0 101) (mkPtok 6 ")" 34 17 103)) (mkPtok 9 "@tag(" 34 0 101) (mkPtok 30 "4294967296" 34 6 102) (mkPtok 6 ")" 34 17 103)))] (ObjectField (mkSpan (mkPtok 42 "x_y_z" 35 0 104) (mkPtok 40 "," 35 14 106)) None (mkPtok 42 "x_y_z" 35 0 104) (Some (mkPtok 42 "string_" 35 6 105)) None (mkPtok 40 "," 35 14 106)))] (mkPtok 3 "}" 36 4 107))); (DOption (mkOptionDef (mkSpan (mkPtok 1 "options" 36 6 108) (mkPtok 3 "}" 37 26 117)) (mkPtok 1 "options" 36 6 108) (mkPtok 2 "{" 36 14 109) [(mkOptionDecl (mkSpan (mkPtok 42 "A" 36 15 110) (mkPtok 10 "true" 37 5 112)) (mkPtok 42 "A" 36 15 110) (mkPtok 4 "=" 37 4 111) (VTrue (mkSpan (mkPtok 10 "true" 37 5 112) (mkPtok 10 "true" 37 5 112)) (mkPtok 10 "true" 37 5 112)) None); (mkOptionDecl (mkSpan (mkPtok 42 "float" 37 10 113) (mkPtok 41 ";" 37 24 116)) (mkPtok 42 "float" 37 10 113) (mkPtok 4 "=" 37 17 114) (VString (mkSpan (mkPtok 31 (string_of_bytes [34; 230; 182; 136; 230; 129; 175; 34]%N) 37 19 115) (mkPtok 31 (string_of_bytes [34; 230; 182; 136; 230; 129; 175; 34]%N) 37 19 115)) (mkPtok 31 (string_of_bytes [34; 230; 182; 136; 230; 129; 175; 34]%N) 37 19 115)) (Some (mkPtok 41 ";" 37 24 116)))] (mkPtok 3 "}" 37 26 117))); (DMeta (mkMetaDef (mkSpan (mkPtok 37 "MetaData" 38 0 118) (mkPtok 3 "}" 45 22 140)) (mkPtok 37 "MetaData" 38 0 118) (mkPtok 42 "Header" 38 9 119) (mkPtok 2 "{" 38 16 120) [(MIDecl (mkMetaDecl (mkSpan (mkPtok 14 "zchar[" 38 18 121) (mkPtok 40 "," 41 0 127)) (TyFixed (mkSpan (mkPtok 14 "zchar[" 38 18 121) (mkPtok 13 "]" 40 0 125)) (mkFixedString (mkSpan (mkPtok 14 "zchar[" 38 18 121) (mkPtok 13 "]" 40 0 125)) (mkPtok 14 "zchar[" 38 18 121) (mkPtok 30 "7" 39 0 123) (mkPtok 13 "]" 40 0 125))) (mkPtok 42 "u128" 40 1 126) None (mkPtok 40 "," 41 0 127))); (MIDecl (mkMetaDecl (mkSpan (mkPtok 16 "char[]" 41 2 128) (mkPtok 40 "," 44 2 132)) (TyDynamic (mkSpan (mkPtok 16 "char[]" 41 2 128) (mkPtok 16 "char[]" 41 2 128)) (mkDynamicString (mkSpan (mkPtok 16 "char[]" 41 2 128) (mkPtok 16 "char[]" 41 2 128)) (mkPtok 16 "char[]" 41 2 128))) (mkPtok 42 "u" 44 0 131) None (mkPtok 40 "," 44 2 132))); (MIRef (mkRefMetaDecl (mkSpan (mkPtok 42 "string_" 44 4 133) (mkPtok 40 "," 44 21 135)) (mkPtok 42 "string_" 44 4 133) (mkPtok 42 "metadata" 44 12 134) None (mkPtok 40 "," 44 21 135))); (MIDecl (mkMetaDecl (mkSpan (mkPtok 22 "uint32" 45 0 136) (mkPtok 40 "," 45 20 139)) (TyBasic (mkSpan (mkPtok 22 "uint32" 45 0 136) (mkPtok 22 "uint32" 45 0 136)) (mkBasicType (mkSpan (mkPtok 22 "uint32" 45 0 136) (mkPtok 22 "uint32" 45 0 136)) (mkPtok 22 "uint32" 45 0 136))) (mkPtok 42 "f32a" 45 7 137) (Some (mkPtok 43 "`u8 x,`" 45 12 138)) (mkPtok 40 "," 45 20 139)))] (mkPtok 3 "}" 45 22 140))); (DOption (mkOptionDef (mkSpan (mkPtok 1 "options" 45 24 141) (mkPtok 3 "}" 50 3 155)) (mkPtok 1 "options" 45 24 141) (mkPtok 2 "{" 45 31 142) [(mkOptionDecl (mkSpan (mkPtok 42 "roots" 46 0 144) (mkPtok 41 ";" 48 8 147)) (mkPtok 42 "roots" 46 0 144) (mkPtok 4 "=" 47 4 145) (VTrue (mkSpan (mkPtok 10 "true" 48 4 146) (mkPtok 10 "true" 48 4 146)) (mkPtok 10 "true" 48 4 146)) (Some (mkPtok 41 ";" 48 8 147))); (mkOptionDecl (mkSpan (mkPtok 42 "int" 49 0 148) (mkPtok 41 ";" 49 11 151)) (mkPtok 42 "int" 49 0 148) (mkPtok 4 "=" 49 4 149) (VFalse (mkSpan (mkPtok 11 "false" 49 5 150) (mkPtok 11 "false" 49 5 150)) (mkPtok 11 "false" 49 5 150)) (Some (mkPtok 41 ";" 49 11 151))); (mkOptionDecl (mkSpan (mkPtok 42 "string_" 49 13 152) (mkPtok 31 """""" 50 0 154)) (mkPtok 42 "string_" 49 13 152) (mkPtok 4 "=" 49 20 153) (VString (mkSpan (mkPtok 31 """""" 50 0 154) (mkPtok 31 """""" 50 0 154)) (mkPtok 31 """""" 50 0 154)) None)] (mkPtok 3 "}" 50 3 155)))])).
-Eval vm_compute in ("<<<M30>>>" ++ check (runes_of_ascii "// `tick` ""quote"" 'q'
-MetaData
-    pack {
-string MetaDataX , //
-zchar[ 65535
-] i8i8, pack rootA	`say ""hi""` ,
-    string_ Header `crlf
-line` ,
-int64
-string_ ,
-/// triple
-//	t
-char[]
-packetx
-,	} options
-    { trueish
-= ' '
-; i64_ =
-i16 pack = u16
-;
-len =false }	MetaData i64_{ }")).
-Eval vm_compute in ("<<<M40>>>" ++ check (runes_of_ascii "packet As
-{//
-@lengthOf(trueish ) uint8
-    repeatCount	,
-} options// c
-{As =	""1""matchKey
-=""x y"" ;
-Packet = ' '  }MetaData repeatCount { string BodyLength `{ , }` , char[
-    0123456789 ]//	t
-trueish
-    ,
-uint16 A, u32 falsey `two words`
-, } packet
-float{// c
-}
-
-")).
-Eval vm_compute in ("<<<M50>>>" ++ check (runes_of_ascii "  options { zchar =  007
-Header =
-char[// c
-007 ] ;
-    lengthOf= char[
-7 ]; chars =//
-"""" // a // b
-;
-}
-")).
-Eval vm_compute in ("<<<M60>>>" ++ check (runes_of_ascii "root packet chars { /// triple
-int16 trueish	@lengthOf( MetaDataX)
-`tab	here`,} MetaData
-T
-// a // b
-// c
-{
-    int64 packetx `doc`
-    // @lengthOf(
-    ,}")).
-Eval vm_compute in ("<<<M70>>>" ++ check (runes_of_ascii "MetaData
-len { i8 BodyLength , u32
-    u `tab	here`,
-    // `tick` ""quote"" 'q'
-    calculatedFrom	asx `" ++ [28040; 24687; 31867; 22411]%N ++ runes_of_ascii "` /// triple
-,
-Logon Packet `// not a comment`
-    ,
-    } //
-root packet string_ { zchar[ 00
-]
-options1	, match
-x_y_z as msg_type{	""it's""
-    // c
-    :  T 0123456789: a1 10 :
-trueish
-, } ,} packet
-len { int64 crc ,  body {
-f64 leftPad , a1, }
-    , repeat uint8x {repeat f32
-string_`" ++ [28040; 24687; 31867; 22411]%N ++ runes_of_ascii "`
-    , int8 T @calculatedFrom( """"
-    ) `line1
-line2` ,
-uint8 repeatCount	,
-} , u64 Foo `line1
-line2`	, @tag(1 ) repeat
-matchKey
-{ i8	x_y_z @lengthOf(Z9_ )// packet A { u8 x, }
-`tab	here` , calculatedFrom
-trueish// trailing space 
-, uint16 charz
-    // packet A { u8 x, }
-    @calculatedFrom(
-    ""{,}"" )`line1
-line2`	, } ,
-// @lengthOf(
-//
-uint32
-    metadata, @lengthOf( msg_type )repeat Packet { zchar[
-255
-]u8x @calculatedFrom( ""x y"")
-//
-// packet A { u8 x, }
-`crlf
-line`	, repeat
-// `tick` ""quote"" 'q'
-//
-u128 ,// packet A { u8 x, }
-float64 int ,
-    repeat Header	{ char[ 42 ]roots
-    @calculatedFrom(
-    //	t
-    ""CRC32"") `two words`,
-roots @calculatedFrom( ""a	b"" ) `two words`
-// packet A { u8 x, }
-// c
-, u32
-    // c
-    packetx
-@lengthOf( roots
-) , repeat float	BodyLength	`" ++ [233]%N ++ runes_of_ascii "` , } , }	,match
-float
-as A
-{	[ 7 , ""a	b"" ]
-:	Header ,[
-007	, ""1""
-    ]
-// @lengthOf(
-// @lengthOf(
-: charz
-    , ""\" ++ [233]%N ++ runes_of_ascii """ : i8i8 00 :	charz // packet A { u8 x, }
-42	:i64_
-, } , match
-// `tick` ""quote"" 'q'
-//
-uint8x as u8x{ 255 :
-    int } ,	}
-")).
-Eval vm_compute in ("<<<M80>>>" ++ check (runes_of_ascii "packet stringy
-{  @calculatedFrom(""a	b""
-)uint8x,}
-// @lengthOf(
-// @lengthOf(
-root packet  i8i8
-{ @lengthOf( options1
-) @tag( 0 )
-    repeat
-metadata _x `" ++ [233]%N ++ runes_of_ascii "`	, repeat
-i8i8`
-` // a // b
-,
-repeat  char[ //x
-3 ]o , // " ++ [128512]%N ++ runes_of_ascii " emoji
-@calculatedFrom(""a	b""
-) repeat
-    u16 x `doc`
-,string_
-`tab	here`  , @calculatedFrom(
-    """ ++ [233]%N ++ runes_of_ascii "t" ++ [233]%N ++ runes_of_ascii """)@tag(	4294967296)
-repeat Logon stringy , } root
-    packet
-    tag { }")).
-Eval vm_compute in ("<<<M90>>>" ++ check (runes_of_ascii "
-// c
-")).
-Eval vm_compute in ("<<<T90>>>" ++ terms [mkTok 44 "// c" 2 0 true; mkTok 0 "<EOF>" 3 0 false] (mkPacket (mkPtok 0 "<EOF>" 3 0 1) None [])).
-Eval vm_compute in ("<<<M100>>>" ++ check (runes_of_ascii "root packet Logon {
-    zchar[ 65535
-]
-uint8x ,@leftPad ()repeat f32
-    Packet , @leftPad ( ' '
-//x
-//	t
-) match i8i8 as  body// a // b
-{ 65535 : MetaDataX ,
-    007
-    : Packet
-}
-,  @calculatedFrom(""packet"")uint8x ,Foo@lengthOf( asx
-    //	t
-    )
-, i64 int , //
-@leftPad ( ' ' ) repeat rootA {
-int32 zchar
-,match stringy  as MetaDataX
-    { [ """ ++ [28040; 24687]%N ++ runes_of_ascii """  , 10 ,42 , ""a\""b"" ,	42 ,7]: msg_type ,[
-    42 ]	:stringy , ""a\\"" :
-Header  255 : calculatedFrom
-    //	t
-    ,
-// a // b
-/// triple
-[ 007// " ++ [27880; 37322]%N ++ runes_of_ascii "
-]
-    :
-/// triple
-//x
-MetaDataX , ""a\""b""
-    //	t
-    ://
-stringy // " ++ [128512]%N ++ runes_of_ascii " emoji
-, } , char[ 007  ] int @lengthOf(
-    o
-    )`" ++ [233]%N ++ runes_of_ascii "` // `tick` ""quote"" 'q'
-,
-// trailing space 
-//x
-}	, @leftPad (
-//
-// @lengthOf(
-)@lengthOf(
-    metadata )match
-asx
-as leftPad { ""x y""
-:
-matchKey // packet A { u8 x, }
-} // " ++ [27880; 37322]%N ++ runes_of_ascii "
-,
-    repeat  leftPad `say ""hi""` ,char[//	t
-65535// c
-] // a // b
-Packet , } root packet // a // b
-x_y_z { match uint8x as As
-    { [0123456789 ] : T
-    65535
-    :	x_y_z ""\n""
-    //
-    : u,
-    4294967296 :  Packet	[ 65535  ]: T ,
-    255 : uint8x },int32 Packet  `tab	here` , @calculatedFrom( """"
-) @calculatedFrom(
-    ""a\\"" ) u64 repeatCount
-    @calculatedFrom( """" ) , Header
-zchar
-`doc` ,
-match
-_x as	metadata // " ++ [128512]%N ++ runes_of_ascii " emoji
-{ [ 255 ,""1""	] : Logon [
-""" ++ [233]%N ++ runes_of_ascii "t" ++ [233]%N ++ runes_of_ascii """ ,00, 65535
-    ,	7 , 42	, 00	]
-:
-packetx , 4294967296 : stringy
-    //	t
-    ,}, char[00
-    ] tag `doc` ,@lengthOf(
-int )
-string u
-    ,  @tag( 007 ) int16 stringy , float64
-    crc, @calculatedFrom( ""x y""  ) repeat u16 f32a ,}options  {	u128= ""CRC32"" options1 = // packet A { u8 x, }
-false u8x= ""`tick`"";}")).
-Eval vm_compute in ("<<<M110>>>" ++ check (runes_of_ascii "packet  matchKey
-{
-    } options{ int = ""a\\""
-; lengthOf //	t
-= ""it's"" } MetaData lengthOf { Pad  tag
-    , } root packet
-    x {int @lengthOf(	pack )
-`a\` //
-, string matchKey
-@lengthOf( chars
-    )  `" ++ [233]%N ++ runes_of_ascii "` , repeat repeatCount
-//x
-//
-{
-    // packet A { u8 x, }
-    match x_y_z as A
-    {""1"": o	,
-// packet A { u8 x, }
-// `tick` ""quote"" 'q'
-7 :uint8x
-// `tick` ""quote"" 'q'
-//	t
-, [
-// `tick` ""quote"" 'q'
-// " ++ [128512]%N ++ runes_of_ascii " emoji
-65535 , """"
-] ://
-Header """ ++ [233]%N ++ runes_of_ascii "t" ++ [233]%N ++ runes_of_ascii """ :  u8x
-    """ ++ [28040; 24687]%N ++ runes_of_ascii """ : charz 65535 :
-stringy }// " ++ [128512]%N ++ runes_of_ascii " emoji
-,	zchar[007]	uint8x ,f32 repeatCount @lengthOf( // c
-float) `two words` , f64 A  `u8 x,`	,
-}, }
-    packet Header{ }
-")).
-Eval vm_compute in ("<<<M120>>>" ++ check (runes_of_ascii "
-MetaData stringy
-{
-    i16
-    f32a , string  crc `crlf
-line`
-, f32 o `doc` , float64
-calculatedFrom , }	packet o
-{ @leftPad // `tick` ""quote"" 'q'
-( )string_
-    @lengthOf(packetx // `tick` ""quote"" 'q'
-), }
-")).
-Eval vm_compute in ("<<<M130>>>" ++ check (runes_of_ascii "options {
-// a // b
-// trailing space 
-Pad
-    =
-// " ++ [128512]%N ++ runes_of_ascii " emoji
-// " ++ [128512]%N ++ runes_of_ascii " emoji
-false Logon = uint32 ; // " ++ [128512]%N ++ runes_of_ascii " emoji
-x_y_z =
-    1 }
-    MetaData
-// `tick` ""quote"" 'q'
-//	t
-_x
-    {
-    uint32
-stringy ,
-zchar[ 42
-    ] A,
-} packet A {
-    match As as string_/// triple
-{ 0 :
-/// triple
-// `tick` ""quote"" 'q'
-Z9_ ,}
-,  @lengthOf(
-    Z9_ )@lengthOf( x_y_z )As
-    @lengthOf( As )
-`doc` ,
-u64 calculatedFrom	@calculatedFrom(
-""abc"")
-`// not a comment` , // c
-Packet //	t
-string_ ,
-    // trailing space 
-    @lengthOf(  Z9_
-    ) Z9_ @lengthOf( body)// trailing space 
-,
-calculatedFrom
-BodyLength , @lengthOf( msg_type
-)repeat
-char tag `it's` ,
-}
-    packet zchar { @leftPad (
-//x
-//
-)
-    repeat zchar[ 3 ]Z9_
-, } // `tick` ""quote"" 'q'
-packet chars { @lengthOf( Z9_ ) repeat string crc , string MetaDataX ,@calculatedFrom( """"
-    )
-x
-    ,
-u8x//
-, @tag(10 ) match
-    falsey as	tag {""CRC32""	: x
-    , /// triple
-} //	t
-,
-x_y_z`tab	here`
-,
-@rightPad(
-'0'
-)int16
-Logon
-    ,trueish
-, @rightPad
-( )
-_x @calculatedFrom(
-""packet""// c
-), } // @lengthOf(")).
-Eval vm_compute in ("<<<M140>>>" ++ check (runes_of_ascii "packet As { options1
-    { i16 o , } , i64 roots ,repeat char[] o
-    `a\` , @calculatedFrom( ""1""//x
-)  repeatCount	@lengthOf(/// triple
-falsey /// triple
-)
-// packet A { u8 x, }
-// " ++ [128512]%N ++ runes_of_ascii " emoji
-`a\` ,
-@lengthOf( stringy ) char[]	As
-`" ++ [233]%N ++ runes_of_ascii "` ,
-asx {match msg_type as
-chars { //	t
-00: metadata
-    // `tick` ""quote"" 'q'
+charz ,
+    match
+x //x
+as	x
+{ ""a	b"":  lengthOf
+,}, leftPad `// not a comment`
     , }
-    , i8 pack// c
-@calculatedFrom(
-    /// triple
-    ""x y"" )
-// trailing space 
-// a // b
-,//	t
-match u8x as	rootA{
-""1"": a1
-, [
-    // packet A { u8 x, }
-    4294967296 ]
-:msg_type
-//
-//x
-,
-}
-, } // a // b
-, @calculatedFrom(
-""" ++ [233]%N ++ runes_of_ascii "t" ++ [233]%N ++ runes_of_ascii """ ) int16 roots ,
-    @tag(1 )	@leftPad ( '0' ) @rightPad // " ++ [27880; 37322]%N ++ runes_of_ascii "
-( '\x00'
-)i32 asx `tab	here`	,char Logon `u8 x,` // trailing space 
-,  }
-root	packet string_ {// @lengthOf(
-}packet Z9_ { int8 _x
-, repeat u8 uint8x `" ++ [233]%N ++ runes_of_ascii "`
-,
-float64 x_y_z @calculatedFrom(	""x y"" )
-    , @calculatedFrom(	""a\""b"" ) @calculatedFrom( ""a\""b"" )
-    int
-{zchar[255
-] //
-msg_type,  i64_
-    // trailing space 
-    {
-    stringy @lengthOf(x_y_z )
-    , u
-    options1
-    //
-    `tab	here` ,
-char[0123456789 ] msg_type ,float32
-    Foo `{ , }`
-    , } , } ,  @tag(	0
-)
-    @calculatedFrom( ""CRC32"" ) charz , @tag(
-    // @lengthOf(
-    4294967296 )
-i64 packetx ,  } //	t")).
-Eval vm_compute in ("<<<M150>>>" ++ check (runes_of_ascii "MetaData Pad{	x_y_z
-    // packet A { u8 x, }
-    T ,
-    }
 ")).
-Eval vm_compute in ("<<<M160>>>" ++ check (runes_of_ascii "options
-// packet A { u8 x, }
-/// triple
-{	}MetaData	zchar// @lengthOf(
+Eval vm_compute in ("<<<M10>>>" ++ check (runes_of_ascii "
+packet As {
+// " ++ [27880; 37322]%N ++ runes_of_ascii "
+// " ++ [27880; 37322]%N ++ runes_of_ascii "
+Foo , @lengthOf( f32a ) float32 a1 ,	string pack @lengthOf( i64_
+)`crlf
+line`, @rightPad () @leftPad
+    ( '\x00'
+    ) @calculatedFrom(
+""// no comment"") repeat Header charz , }
+")).
+Eval vm_compute in ("<<<M20>>>" ++ check (runes_of_ascii "packet // " ++ [27880; 37322]%N ++ runes_of_ascii "
+MetaDataX /// triple
+{char[ 1 ]T  ,
+char[] Foo @calculatedFrom(
+""{,}"" )
+, a1
+    // " ++ [27880; 37322]%N ++ runes_of_ascii "
+    ,@lengthOf( roots) falsey int `u8 x,` , char[
+    0123456789 ] a1 `
+`,  string
+Z9_ @calculatedFrom( ""`tick`"" ) , zchar[
+00 ] Logon
+    @lengthOf(u128 // " ++ [128512]%N ++ runes_of_ascii " emoji
+)  `tab	here`
+    ,@calculatedFrom( ""a	b""
+) Z9_ { repeat stringy
+    { int16  string_ ,
+    string //x
+tag @lengthOf(// `tick` ""quote"" 'q'
+a1)// 50% %s
+, } ,
+    }
+, repeat charz
+    {lengthOf f32a , } ,char[ 65535] crc`" ++ [28040; 24687; 31867; 22411]%N ++ runes_of_ascii "` ,} packet len
 {
-    A i64_
-`crlf
-line` , char[]string_ `
-` , Packet
-stringy `a\` , // `tick` ""quote"" 'q'
-char[ 1] i8i8 // @lengthOf(
-,float32
-options1 `{ , }` ,} packet
-    a1{@lengthOf( o ) //x
-o { calculatedFrom @calculatedFrom(
-    //x
-    ""a\\""
-) , } , @lengthOf(
-a1) repeat i8i8
-    stringy ,int8	pack , @lengthOf( u8x
-    ) string
-packetx @calculatedFrom( ""`tick`"" ) `` , @lengthOf( Header ) @tag( 0123456789 ) @calculatedFrom(
-""CRC32"" ) repeat BodyLength `two words` , @lengthOf( T)  zchar[ 1//
-] repeatCount@lengthOf( o	) ,
-    match // " ++ [128512]%N ++ runes_of_ascii " emoji
-As as options1 { ""1"":
-    o, ""a\\"": crc
-,[ 0123456789, ""a	b"" // `tick` ""quote"" 'q'
-, """ ++ [128512]%N ++ runes_of_ascii """ ,	65535
-, """ ++ [128512]%N ++ runes_of_ascii """
-    // `tick` ""quote"" 'q'
-    ,  ""1""	,
-00 ] : x , [ ""abc""	,
-""\n""
-, 4294967296 ,
-10 ,
-    //x
-    0123456789
-,	42 , """ ++ [128512]%N ++ runes_of_ascii """, 3 ] :
-    // " ++ [128512]%N ++ runes_of_ascii " emoji
-    msg_type } , match
-u8x as
-lengthOf
-    { [""x y"" , ""{,}""// a // b
-] :	asx // `tick` ""quote"" 'q'
-4294967296  : chars,
-    ""CRC32"" : a1 ""a	b"" :metadata ,  7 : zchar  , }
-, }")).
-Eval vm_compute in ("<<<T160>>>" ++ terms [mkTok 1 "options" 1 0 false; mkTok 44 "// packet A { u8 x, }" 2 0 true; mkTok 44 "/// triple" 3 0 true; mkTok 2 "{" 4 0 false; mkTok 3 "}" 4 2 false; mkTok 37 "MetaData" 4 3 false; mkTok 42 "zchar" 4 12 false; mkTok 44 "// @lengthOf(" 4 17 true; mkTok 2 "{" 5 0 false; mkTok 42 "A" 6 4 false; mkTok 42 "i64_" 6 6 false; mkTok 43 (string_of_bytes [96; 99; 114; 108; 102; 13; 10; 108; 105; 110; 101; 96]%N) 7 0 false; mkTok 40 "," 8 6 false; mkTok 16 "char[]" 8 8 false; mkTok 42 "string_" 8 14 false; mkTok 43 (string_of_bytes [96; 10; 96]%N) 8 22 false; mkTok 40 "," 9 2 false; mkTok 42 "Packet" 9 4 false; mkTok 42 "stringy" 10 0 false; mkTok 43 "`a\`" 10 8 false; mkTok 40 "," 10 13 false; mkTok 44 "// `tick` ""quote"" 'q'" 10 15 true; mkTok 12 "char[" 11 0 false; mkTok 30 "1" 11 6 false; mkTok 13 "]" 11 7 false; mkTok 42 "i8i8" 11 9 false; mkTok 44 "// @lengthOf(" 11 14 true; mkTok 40 "," 12 0 false; mkTok 28 "float32" 12 1 false; mkTok 42 "options1" 13 0 false; mkTok 43 "`{ , }`" 13 9 false; mkTok 40 "," 13 17 false; mkTok 3 "}" 13 18 false; mkTok 35 "packet" 13 20 false; mkTok 42 "a1" 14 4 false; mkTok 2 "{" 14 6 false; mkTok 7 "@lengthOf(" 14 7 false; mkTok 42 "o" 14 18 false; mkTok 6 ")" 14 20 false; mkTok 44 "//x" 14 22 true; mkTok 42 "o" 15 0 false; mkTok 2 "{" 15 2 false; mkTok 42 "calculatedFrom" 15 4 false; mkTok 5 "@calculatedFrom(" 15 19 false; mkTok 44 "//x" 16 4 true; mkTok 31 """a\\""" 17 4 false; mkTok 6 ")" 18 0 false; mkTok 40 "," 18 2 false; mkTok 3 "}" 18 4 false; mkTok 40 "," 18 6 false; mkTok 7 "@lengthOf(" 18 8 false; mkTok 42 "a1" 19 0 false; mkTok 6 ")" 19 2 false; mkTok 36 "repeat" 19 4 false; mkTok 42 "i8i8" 19 11 false; mkTok 42 "stringy" 20 4 false; mkTok 40 "," 20 12 false; mkTok 24 "int8" 20 13 false; mkTok 42 "pack" 20 18 false; mkTok 40 "," 20 23 false; mkTok 7 "@lengthOf(" 20 25 false; mkTok 42 "u8x" 20 36 false; mkTok 6 ")" 21 4 false; mkTok 15 "string" 21 6 false; mkTok 42 "packetx" 22 0 false; mkTok 5 "@calculatedFrom(" 22 8 false; mkTok 31 """`tick`""" 22 25 false; mkTok 6 ")" 22 34 false; mkTok 43 "``" 22 36 false; mkTok 40 "," 22 39 false; mkTok 7 "@lengthOf(" 22 41 false; mkTok 42 "Header" 22 52 false; mkTok 6 ")" 22 59 false; mkTok 9 "@tag(" 22 61 false; mkTok 30 "0123456789" 22 67 false; mkTok 6 ")" 22 78 false; mkTok 5 "@calculatedFrom(" 22 80 false; mkTok 31 """CRC32""" 23 0 false; mkTok 6 ")" 23 8 false; mkTok 36 "repeat" 23 10 false; mkTok 42 "BodyLength" 23 17 false; mkTok 43 "`two words`" 23 28 false; mkTok 40 "," 23 40 false; mkTok 7 "@lengthOf(" 23 42 false; mkTok 42 "T" 23 53 false; mkTok 6 ")" 23 54 false; mkTok 14 "zchar[" 23 57 false; mkTok 30 "1" 23 64 false; mkTok 44 "//" 23 65 true; mkTok 13 "]" 24 0 false; mkTok 42 "repeatCount" 24 2 false; mkTok 7 "@lengthOf(" 24 13 false; mkTok 42 "o" 24 24 false; mkTok 6 ")" 24 26 false; mkTok 40 "," 24 28 false; mkTok 38 "match" 25 4 false; mkTok 44 (string_of_bytes [47; 47; 32; 240; 159; 152; 128; 32; 101; 109; 111; 106; 105]%N) 25 10 true; mkTok 42 "As" 26 0 false; mkTok 17 "as" 26 3 false; mkTok 42 "options1" 26 6 false; mkTok 2 "{" 26 15 false; mkTok 31 """1""" 26 17 false; mkTok 39 ":" 26 20 false; mkTok 42 "o" 27 4 false; mkTok 40 "," 27 5 false; mkTok 31 """a\\""" 27 7 false; mkTok 39 ":" 27 12 false; mkTok 42 "crc" 27 14 false; mkTok 40 "," 28 0 false; mkTok 18 "[" 28 1 false; mkTok 30 "0123456789" 28 3 false; mkTok 40 "," 28 13 false; mkTok 31 (string_of_bytes [34; 97; 9; 98; 34]%N) 28 15 false; mkTok 44 "// `tick` ""quote"" 'q'" 28 21 true; mkTok 40 "," 29 0 false; mkTok 31 (string_of_bytes [34; 240; 159; 152; 128; 34]%N) 29 2 false; mkTok 40 "," 29 6 false; mkTok 30 "65535" 29 8 false; mkTok 40 "," 30 0 false; mkTok 31 (string_of_bytes [34; 240; 159; 152; 128; 34]%N) 30 2 false; mkTok 44 "// `tick` ""quote"" 'q'" 31 4 true; mkTok 40 "," 32 4 false; mkTok 31 """1""" 32 7 false; mkTok 40 "," 32 11 false; mkTok 30 "00" 33 0 false; mkTok 13 "]" 33 3 false; mkTok 39 ":" 33 5 false; mkTok 42 "x" 33 7 false; mkTok 40 "," 33 9 false; mkTok 18 "[" 33 11 false; mkTok 31 """abc""" 33 13 false; mkTok 40 "," 33 19 false; mkTok 31 """\n""" 34 0 false; mkTok 40 "," 35 0 false; mkTok 30 "4294967296" 35 2 false; mkTok 40 "," 35 13 false; mkTok 30 "10" 36 0 false; mkTok 40 "," 36 3 false; mkTok 44 "//x" 37 4 true; mkTok 30 "0123456789" 38 4 false; mkTok 40 "," 39 0 false; mkTok 30 "42" 39 2 false; mkTok 40 "," 39 5 false; mkTok 31 (string_of_bytes [34; 240; 159; 152; 128; 34]%N) 39 7 false; mkTok 40 "," 39 10 false; mkTok 30 "3" 39 12 false; mkTok 13 "]" 39 14 false; mkTok 39 ":" 39 16 false; mkTok 44 (string_of_bytes [47; 47; 32; 240; 159; 152; 128; 32; 101; 109; 111; 106; 105]%N) 40 4 true; mkTok 42 "msg_type" 41 4 false; mkTok 3 "}" 41 13 false; mkTok 40 "," 41 15 false; mkTok 38 "match" 41 17 false; mkTok 42 "u8x" 42 0 false; mkTok 17 "as" 42 4 false; mkTok 42 "lengthOf" 43 0 false; mkTok 2 "{" 44 4 false; mkTok 18 "[" 44 6 false; mkTok 31 """x y""" 44 7 false; mkTok 40 "," 44 13 false; mkTok 31 """{,}""" 44 15 false; mkTok 44 "// a // b" 44 20 true; mkTok 13 "]" 45 0 false; mkTok 39 ":" 45 2 false; mkTok 42 "asx" 45 4 false; mkTok 44 "// `tick` ""quote"" 'q'" 45 8 true; mkTok 30 "4294967296" 46 0 false; mkTok 39 ":" 46 12 false; mkTok 42 "chars" 46 14 false; mkTok 40 "," 46 19 false; mkTok 31 """CRC32""" 47 4 false; mkTok 39 ":" 47 12 false; mkTok 42 "a1" 47 14 false; mkTok 31 (string_of_bytes [34; 97; 9; 98; 34]%N) 47 17 false; mkTok 39 ":" 47 23 false; mkTok 42 "metadata" 47 24 false; mkTok 40 "," 47 33 false; mkTok 30 "7" 47 36 false; mkTok 39 ":" 47 38 false; mkTok 42 "zchar" 47 40 false; mkTok 40 "," 47 47 false; mkTok 3 "}" 47 49 false; mkTok 40 "," 48 0 false; mkTok 3 "}" 48 2 false; mkTok 0 "<EOF>" 48 3 false] (mkPacket (mkPtok 1 "options" 1 0 0) (Some (mkPtok 3 "}" 48 2 183)) [(DOption (mkOptionDef (mkSpan (mkPtok 1 "options" 1 0 0) (mkPtok 3 "}" 4 2 4)) (mkPtok 1 "options" 1 0 0) (mkPtok 2 "{" 4 0 3) [] (mkPtok 3 "}" 4 2 4))); (DMeta (mkMetaDef (mkSpan (mkPtok 37 "MetaData" 4 3 5) (mkPtok 3 "}" 13 18 32)) (mkPtok 37 "MetaData" 4 3 5) (mkPtok 42 "zchar" 4 12 6) (mkPtok 2 "{" 5 0 8) [(MIRef (mkRefMetaDecl (mkSpan (mkPtok 42 "A" 6 4 9) (mkPtok 40 "," 8 6 12)) (mkPtok 42 "A" 6 4 9) (mkPtok 42 "i64_" 6 6 10) (Some (mkPtok 43 (string_of_bytes [96; 99; 114; 108; 102; 13; 10; 108; 105; 110; 101; 96]%N) 7 0 11)) (mkPtok 40 "," 8 6 12))); (MIDecl (mkMetaDecl (mkSpan (mkPtok 16 "char[]" 8 8 13) (mkPtok 40 "," 9 2 16)) (TyDynamic (mkSpan (mkPtok 16 "char[]" 8 8 13) (mkPtok 16 "char[]" 8 8 13)) (mkDynamicString (mkSpan (mkPtok 16 "char[]" 8 8 13) (mkPtok 16 "char[]" 8 8 13)) (mkPtok 16 "char[]" 8 8 13))) (mkPtok 42 "string_" 8 14 14) (Some (mkPtok 43 (string_of_bytes [96; 10; 96]%N) 8 22 15)) (mkPtok 40 "," 9 2 16))); (MIRef (mkRefMetaDecl (mkSpan (mkPtok 42 "Packet" 9 4 17) (mkPtok 40 "," 10 13 20)) (mkPtok 42 "Packet" 9 4 17) (mkPtok 42 "stringy" 10 0 18) (Some (mkPtok 43 "`a\`" 10 8 19)) (mkPtok 40 "," 10 13 20))); (MIDecl (mkMetaDecl (mkSpan (mkPtok 12 "char[" 11 0 22) (mkPtok 40 "," 12 0 27)) (TyFixed (mkSpan (mkPtok 12 "char[" 11 0 22) (mkPtok 13 "]" 11 7 24)) (mkFixedString (mkSpan (mkPtok 12 "char[" 11 0 22) (mkPtok 13 "]" 11 7 24)) (mkPtok 12 "char[" 11 0 22) (mkPtok 30 "1" 11 6 23) (mkPtok 13 "]" 11 7 24))) (mkPtok 42 "i8i8" 11 9 25) None (mkPtok 40 "," 12 0 27))); (MIDecl (mkMetaDecl (mkSpan (mkPtok 28 "float32" 12 1 28) (mkPtok 40 "," 13 17 31)) (TyBasic (mkSpan (mkPtok 28 "float32" 12 1 28) (mkPtok 28 "float32" 12 1 28)) (mkBasicType (mkSpan (mkPtok 28 "float32" 12 1 28) (mkPtok 28 "float32" 12 1 28)) (mkPtok 28 "float32" 12 1 28))) (mkPtok 42 "options1" 13 0 29) (Some (mkPtok 43 "`{ , }`" 13 9 30)) (mkPtok 40 "," 13 17 31)))] (mkPtok 3 "}" 13 18 32))); (DPacket (mkPacketDef (mkSpan (mkPtok 35 "packet" 13 20 33) (mkPtok 3 "}" 48 2 183)) None (mkPtok 35 "packet" 13 20 33) (mkPtok 42 "a1" 14 4 34) (mkPtok 2 "{" 14 6 35) [(mkFieldWithAttr (mkSpan (mkPtok 7 "@lengthOf(" 14 7 36) (mkPtok 40 "," 18 6 49)) [(FALengthOf (mkSpan (mkPtok 7 "@lengthOf(" 14 7 36) (mkPtok 6 ")" 14 20 38)) (mkLengthOf (mkSpan (mkPtok 7 "@lengthOf(" 14 7 36) (mkPtok 6 ")" 14 20 38)) (mkPtok 7 "@lengthOf(" 14 7 36) (mkPtok 42 "o" 14 18 37) (mkPtok 6 ")" 14 20 38)))] (InerObjectField (mkSpan (mkPtok 42 "o" 15 0 40) (mkPtok 40 "," 18 6 49)) None (InerObjectDecl (mkSpan (mkPtok 42 "o" 15 0 40) (mkPtok 3 "}" 18 4 48)) (mkPtok 42 "o" 15 0 40) (mkPtok 2 "{" 15 2 41) [(CheckSumField (mkSpan (mkPtok 42 "calculatedFrom" 15 4 42) (mkPtok 40 "," 18 2 47)) (mkChecksumFieldDecl (mkSpan (mkPtok 42 "calculatedFrom" 15 4 42) (mkPtok 40 "," 18 2 47)) None (mkPtok 42 "calculatedFrom" 15 4 42) (mkCalculatedFrom (mkSpan (mkPtok 5 "@calculatedFrom(" 15 19 43) (mkPtok 6 ")" 18 0 46)) (mkPtok 5 "@calculatedFrom(" 15 19 43) (mkPtok 31 """a\\""" 17 4 45) (mkPtok 6 ")" 18 0 46)) None (mkPtok 40 "," 18 2 47)))] (mkPtok 3 "}" 18 4 48)) (mkPtok 40 "," 18 6 49))); (mkFieldWithAttr (mkSpan (mkPtok 7 "@lengthOf(" 18 8 50) (mkPtok 40 "," 20 12 56)) [(FALengthOf (mkSpan (mkPtok 7 "@lengthOf(" 18 8 50) (mkPtok 6 ")" 19 2 52)) (mkLengthOf (mkSpan (mkPtok 7 "@lengthOf(" 18 8 50) (mkPtok 6 ")" 19 2 52)) (mkPtok 7 "@lengthOf(" 18 8 50) (mkPtok 42 "a1" 19 0 51) (mkPtok 6 ")" 19 2 52)))] (ObjectField (mkSpan (mkPtok 36 "repeat" 19 4 53) (mkPtok 40 "," 20 12 56)) (Some (mkPtok 36 "repeat" 19 4 53)) (mkPtok 42 "i8i8" 19 11 54) (Some (mkPtok 42 "stringy" 20 4 55)) None (mkPtok 40 "," 20 12 56))); (mkFieldWithAttr (mkSpan (mkPtok 24 "int8" 20 13 57) (mkPtok 40 "," 20 23 59)) [] (MetaField (mkSpan (mkPtok 24 "int8" 20 13 57) (mkPtok 40 "," 20 23 59)) None (mkMetaDecl (mkSpan (mkPtok 24 "int8" 20 13 57) (mkPtok 40 "," 20 23 59)) (TyBasic (mkSpan (mkPtok 24 "int8" 20 13 57) (mkPtok 24 "int8" 20 13 57)) (mkBasicType (mkSpan (mkPtok 24 "int8" 20 13 57) (mkPtok 24 "int8" 20 13 57)) (mkPtok 24 "int8" 20 13 57))) (mkPtok 42 "pack" 20 18 58) None (mkPtok 40 "," 20 23 59)))); (mkFieldWithAttr (mkSpan (mkPtok 7 "@lengthOf(" 20 25 60) (mkPtok 40 "," 22 39 69)) [(FALengthOf (mkSpan (mkPtok 7 "@lengthOf(" 20 25 60) (mkPtok 6 ")" 21 4 62)) (mkLengthOf (mkSpan (mkPtok 7 "@lengthOf(" 20 25 60) (mkPtok 6 ")" 21 4 62)) (mkPtok 7 "@lengthOf(" 20 25 60) (mkPtok 42 "u8x" 20 36 61) (mkPtok 6 ")" 21 4 62)))] (CheckSumField (mkSpan (mkPtok 15 "string" 21 6 63) (mkPtok 40 "," 22 39 69)) (mkChecksumFieldDecl (mkSpan (mkPtok 15 "string" 21 6 63) (mkPtok 40 "," 22 39 69)) (Some (TyDynamic (mkSpan (mkPtok 15 "string" 21 6 63) (mkPtok 15 "string" 21 6 63)) (mkDynamicString (mkSpan (mkPtok 15 "string" 21 6 63) (mkPtok 15 "string" 21 6 63)) (mkPtok 15 "string" 21 6 63)))) (mkPtok 42 "packetx" 22 0 64) (mkCalculatedFrom (mkSpan (mkPtok 5 "@calculatedFrom(" 22 8 65) (mkPtok 6 ")" 22 34 67)) (mkPtok 5 "@calculatedFrom(" 22 8 65) (mkPtok 31 """`tick`""" 22 25 66) (mkPtok 6 ")" 22 34 67)) (Some (mkPtok 43 "``" 22 36 68)) (mkPtok 40 "," 22 39 69)))); (mkFieldWithAttr (mkSpan (mkPtok 7 "@lengthOf(" 22 41 70) (mkPtok 40 "," 23 40 82)) [(FALengthOf (mkSpan (mkPtok 7 "@lengthOf(" 22 41 70) (mkPtok 6 ")" 22 59 72)) (mkLengthOf (mkSpan (mkPtok 7 "@lengthOf(" 22 41 70) (mkPtok 6 ")" 22 59 72)) (mkPtok 7 "@lengthOf(" 22 41 70) (mkPtok 42 "Header" 22 52 71) (mkPtok 6 ")" 22 59 72))); (FATag (mkSpan (mkPtok 9 "@tag(" 22 61 73) (mkPtok 6 ")" 22 78 75)) (mkTagAttr (mkSpan (mkPtok 9 "@tag(" 22 61 73) (mkPtok 6 ")" 22 78 75)) (mkPtok 9 "@tag(" 22 61 73) (mkPtok 30 "0123456789" 22 67 74) (mkPtok 6 ")" 22 78 75))); (FACalculatedFrom (mkSpan (mkPtok 5 "@calculatedFrom(" 22 80 76) (mkPtok 6 ")" 23 8 78)) (mkCalculatedFrom (mkSpan (mkPtok 5 "@calculatedFrom(" 22 80 76) (mkPtok 6 ")" 23 8 78)) (mkPtok 5 "@calculatedFrom(" 22 80 76) (mkPtok 31 """CRC32""" 23 0 77) (mkPtok 6 ")" 23 8 78)))] (ObjectField (mkSpan (mkPtok 36 "repeat" 23 10 79) (mkPtok 40 "," 23 40 82)) (Some (mkPtok 36 "repeat" 23 10 79)) (mkPtok 42 "BodyLength" 23 17 80) None (Some (mkPtok 43 "`two words`" 23 28 81)) (mkPtok 40 "," 23 40 82))); (mkFieldWithAttr (mkSpan (mkPtok 7 "@lengthOf(" 23 42 83) (mkPtok 40 "," 24 28 94)) [(FALengthOf (mkSpan (mkPtok 7 "@lengthOf(" 23 42 83) (mkPtok 6 ")" 23 54 85)) (mkLengthOf (mkSpan (mkPtok 7 "@lengthOf(" 23 42 83) (mkPtok 6 ")" 23 54 85)) (mkPtok 7 "@lengthOf(" 23 42 83) (mkPtok 42 "T" 23 53 84) (mkPtok 6 ")" 23 54 85)))] (LengthField (mkSpan (mkPtok 14 "zchar[" 23 57 86) (mkPtok 40 "," 24 28 94)) (mkLengthFieldDecl (mkSpan (mkPtok 14 "zchar[" 23 57 86) (mkPtok 40 "," 24 28 94)) (Some (TyFixed (mkSpan (mkPtok 14 "zchar[" 23 57 86) (mkPtok 13 "]" 24 0 89)) (mkFixedString (mkSpan (mkPtok 14 "zchar[" 23 57 86) (mkPtok 13 "]" 24 0 89)) (mkPtok 14 "zchar[" 23 57 86) (mkPtok 30 "1" 23 64 87) (mkPtok 13 "]" 24 0 89)))) (mkPtok 42 "repeatCount" 24 2 90) (mkLengthOf (mkSpan (mkPtok 7 "@lengthOf(" 24 13 91) (mkPtok 6 ")" 24 26 93)) (mkPtok 7 "@lengthOf(" 24 13 91) (mkPtok 42 "o" 24 24 92) (mkPtok 6 ")" 24 26 93)) None (mkPtok 40 "," 24 28 94)))); (mkFieldWithAttr (mkSpan (mkPtok 38 "match" 25 4 95) (mkPtok 40 "," 41 15 151)) [] (MatchField (mkSpan (mkPtok 38 "match" 25 4 95) (mkPtok 40 "," 41 15 151)) (mkMatchFieldDecl (mkSpan (mkPtok 38 "match" 25 4 95) (mkPtok 3 "}" 41 13 150)) (mkPtok 38 "match" 25 4 95) (mkPtok 42 "As" 26 0 97) (mkPtok 17 "as" 26 3 98) (mkPtok 42 "options1" 26 6 99) (mkPtok 2 "{" 26 15 100) [(mkMatchPair (mkSpan (mkPtok 31 """1""" 26 17 101) (mkPtok 40 "," 27 5 104)) (MKString (mkPtok 31 """1""" 26 17 101)) (mkPtok 39 ":" 26 20 102) (mkPtok 42 "o" 27 4 103) (Some (mkPtok 40 "," 27 5 104))); (mkMatchPair (mkSpan (mkPtok 31 """a\\""" 27 7 105) (mkPtok 40 "," 28 0 108)) (MKString (mkPtok 31 """a\\""" 27 7 105)) (mkPtok 39 ":" 27 12 106) (mkPtok 42 "crc" 27 14 107) (Some (mkPtok 40 "," 28 0 108))); (mkMatchPair (mkSpan (mkPtok 18 "[" 28 1 109) (mkPtok 40 "," 33 9 128)) (MKList (mkKeyList (mkSpan (mkPtok 18 "[" 28 1 109) (mkPtok 13 "]" 33 3 125)) (mkPtok 18 "[" 28 1 109) (mkPtok 30 "0123456789" 28 3 110) [((mkPtok 40 "," 28 13 111), (mkPtok 31 (string_of_bytes [34; 97; 9; 98; 34]%N) 28 15 112)); ((mkPtok 40 "," 29 0 114), (mkPtok 31 (string_of_bytes [34; 240; 159; 152; 128; 34]%N) 29 2 115)); ((mkPtok 40 "," 29 6 116), (mkPtok 30 "65535" 29 8 117)); ((mkPtok 40 "," 30 0 118), (mkPtok 31 (string_of_bytes [34; 240; 159; 152; 128; 34]%N) 30 2 119)); ((mkPtok 40 "," 32 4 121), (mkPtok 31 """1""" 32 7 122)); ((mkPtok 40 "," 32 11 123), (mkPtok 30 "00" 33 0 124))] (mkPtok 13 "]" 33 3 125))) (mkPtok 39 ":" 33 5 126) (mkPtok 42 "x" 33 7 127) (Some (mkPtok 40 "," 33 9 128))); (mkMatchPair (mkSpan (mkPtok 18 "[" 33 11 129) (mkPtok 42 "msg_type" 41 4 149)) (MKList (mkKeyList (mkSpan (mkPtok 18 "[" 33 11 129) (mkPtok 13 "]" 39 14 146)) (mkPtok 18 "[" 33 11 129) (mkPtok 31 """abc""" 33 13 130) [((mkPtok 40 "," 33 19 131), (mkPtok 31 """\n""" 34 0 132)); ((mkPtok 40 "," 35 0 133), (mkPtok 30 "4294967296" 35 2 134)); ((mkPtok 40 "," 35 13 135), (mkPtok 30 "10" 36 0 136)); ((mkPtok 40 "," 36 3 137), (mkPtok 30 "0123456789" 38 4 139)); ((mkPtok 40 "," 39 0 140), (mkPtok 30 "42" 39 2 141)); ((mkPtok 40 "," 39 5 142), (mkPtok 31 (string_of_bytes [34; 240; 159; 152; 128; 34]%N) 39 7 143)); ((mkPtok 40 "," 39 10 144), (mkPtok 30 "3" 39 12 145))] (mkPtok 13 "]" 39 14 146))) (mkPtok 39 ":" 39 16 147) (mkPtok 42 "msg_type" 41 4 149) None)] (mkPtok 3 "}" 41 13 150)) (mkPtok 40 "," 41 15 151))); (mkFieldWithAttr (mkSpan (mkPtok 38 "match" 41 17 152) (mkPtok 40 "," 48 0 182)) [] (MatchField (mkSpan (mkPtok 38 "match" 41 17 152) (mkPtok 40 "," 48 0 182)) (mkMatchFieldDecl (mkSpan (mkPtok 38 "match" 41 17 152) (mkPtok 3 "}" 47 49 181)) (mkPtok 38 "match" 41 17 152) (mkPtok 42 "u8x" 42 0 153) (mkPtok 17 "as" 42 4 154) (mkPtok 42 "lengthOf" 43 0 155) (mkPtok 2 "{" 44 4 156) [(mkMatchPair (mkSpan (mkPtok 18 "[" 44 6 157) (mkPtok 42 "asx" 45 4 164)) (MKList (mkKeyList (mkSpan (mkPtok 18 "[" 44 6 157) (mkPtok 13 "]" 45 0 162)) (mkPtok 18 "[" 44 6 157) (mkPtok 31 """x y""" 44 7 158) [((mkPtok 40 "," 44 13 159), (mkPtok 31 """{,}""" 44 15 160))] (mkPtok 13 "]" 45 0 162))) (mkPtok 39 ":" 45 2 163) (mkPtok 42 "asx" 45 4 164) None); (mkMatchPair (mkSpan (mkPtok 30 "4294967296" 46 0 166) (mkPtok 40 "," 46 19 169)) (MKDigits (mkPtok 30 "4294967296" 46 0 166)) (mkPtok 39 ":" 46 12 167) (mkPtok 42 "chars" 46 14 168) (Some (mkPtok 40 "," 46 19 169))); (mkMatchPair (mkSpan (mkPtok 31 """CRC32""" 47 4 170) (mkPtok 42 "a1" 47 14 172)) (MKString (mkPtok 31 """CRC32""" 47 4 170)) (mkPtok 39 ":" 47 12 171) (mkPtok 42 "a1" 47 14 172) None); (mkMatchPair (mkSpan (mkPtok 31 (string_of_bytes [34; 97; 9; 98; 34]%N) 47 17 173) (mkPtok 40 "," 47 33 176)) (MKString (mkPtok 31 (string_of_bytes [34; 97; 9; 98; 34]%N) 47 17 173)) (mkPtok 39 ":" 47 23 174) (mkPtok 42 "metadata" 47 24 175) (Some (mkPtok 40 "," 47 33 176))); (mkMatchPair (mkSpan (mkPtok 30 "7" 47 36 177) (mkPtok 40 "," 47 47 180)) (MKDigits (mkPtok 30 "7" 47 36 177)) (mkPtok 39 ":" 47 38 178) (mkPtok 42 "zchar" 47 40 179) (Some (mkPtok 40 "," 47 47 180)))] (mkPtok 3 "}" 47 49 181)) (mkPtok 40 "," 48 0 182)))] (mkPtok 3 "}" 48 2 183)))])).
-Eval vm_compute in ("<<<M170>>>" ++ check (runes_of_ascii "packet
-    // `tick` ""quote"" 'q'
-    u8x {} packet calculatedFrom
-    {
-    i8i8
-len
+    rootA // c
+{ repeat string string_ ,
+string pack
 ,
-    match lengthOf as leftPad
-{ 007
-    : crc
-, ""abc"": o 10 : falsey
-    } , repeat  i8
-metadata  , @calculatedFrom(""" ++ [28040; 24687]%N ++ runes_of_ascii """ ) repeat int16
-leftPad
-    // trailing space 
-    ``
-    ,BodyLength
-    @calculatedFrom(  ""a\\""
-    ) ,
-char[] f32a,
-    tag// packet A { u8 x, }
-rootA
-, @rightPad (
-    // " ++ [27880; 37322]%N ++ runes_of_ascii "
-    ' ' ) @tag( 007 ) match o as
-    // " ++ [27880; 37322]%N ++ runes_of_ascii "
-    _x { [ 1
-    // " ++ [27880; 37322]%N ++ runes_of_ascii "
-    ,
-""a	b""
-, ""1"" ,
-00 ,7
-// " ++ [128512]%N ++ runes_of_ascii " emoji
-//x
-,""" ++ [233]%N ++ runes_of_ascii "t" ++ [233]%N ++ runes_of_ascii """
-    ,
-    // c
-    7 ,00
-    ]
-    : Foo ,
-    // " ++ [27880; 37322]%N ++ runes_of_ascii "
-    ""\" ++ [233]%N ++ runes_of_ascii """// @lengthOf(
-:  matchKey
-    ,},//x
-@rightPad (	'\x00' )string msg_type	, }
-packet  trueish {u8x
-``
-, @lengthOf( Header
-    )
-    repeat int64 int	`` ,
-} MetaData matchKey	{ string msg_type	, zchar[
-    //	t
-    4294967296
+char[]
+roots,
+}
+, } //")).
+Eval vm_compute in ("<<<T20>>>" ++ terms [mkTok 35 "packet" 1 0 false; mkTok 44 (string_of_bytes [47; 47; 32; 230; 179; 168; 233; 135; 138]%N) 1 7 true; mkTok 42 "MetaDataX" 2 0 false; mkTok 44 "/// triple" 2 10 true; mkTok 2 "{" 3 0 false; mkTok 12 "char[" 3 1 false; mkTok 30 "1" 3 7 false; mkTok 13 "]" 3 9 false; mkTok 42 "T" 3 10 false; mkTok 40 "," 3 13 false; mkTok 16 "char[]" 4 0 false; mkTok 42 "Foo" 4 7 false; mkTok 5 "@calculatedFrom(" 4 11 false; mkTok 31 """{,}""" 5 0 false; mkTok 6 ")" 5 6 false; mkTok 40 "," 6 0 false; mkTok 42 "a1" 6 2 false; mkTok 44 (string_of_bytes [47; 47; 32; 230; 179; 168; 233; 135; 138]%N) 7 4 true; mkTok 40 "," 8 4 false; mkTok 7 "@lengthOf(" 8 5 false; mkTok 42 "roots" 8 16 false; mkTok 6 ")" 8 21 false; mkTok 42 "falsey" 8 23 false; mkTok 42 "int" 8 30 false; mkTok 43 "`u8 x,`" 8 34 false; mkTok 40 "," 8 42 false; mkTok 12 "char[" 8 44 false; mkTok 30 "0123456789" 9 4 false; mkTok 13 "]" 9 15 false; mkTok 42 "a1" 9 17 false; mkTok 43 (string_of_bytes [96; 10; 96]%N) 9 20 false; mkTok 40 "," 10 1 false; mkTok 15 "string" 10 4 false; mkTok 42 "Z9_" 11 0 false; mkTok 5 "@calculatedFrom(" 11 4 false; mkTok 31 """`tick`""" 11 21 false; mkTok 6 ")" 11 30 false; mkTok 40 "," 11 32 false; mkTok 14 "zchar[" 11 34 false; mkTok 30 "00" 12 0 false; mkTok 13 "]" 12 3 false; mkTok 42 "Logon" 12 5 false; mkTok 7 "@lengthOf(" 13 4 false; mkTok 42 "u128" 13 14 false; mkTok 44 (string_of_bytes [47; 47; 32; 240; 159; 152; 128; 32; 101; 109; 111; 106; 105]%N) 13 19 true; mkTok 6 ")" 14 0 false; mkTok 43 (string_of_bytes [96; 116; 97; 98; 9; 104; 101; 114; 101; 96]%N) 14 3 false; mkTok 40 "," 15 4 false; mkTok 5 "@calculatedFrom(" 15 5 false; mkTok 31 (string_of_bytes [34; 97; 9; 98; 34]%N) 15 22 false; mkTok 6 ")" 16 0 false; mkTok 42 "Z9_" 16 2 false; mkTok 2 "{" 16 6 false; mkTok 36 "repeat" 16 8 false; mkTok 42 "stringy" 16 15 false; mkTok 2 "{" 17 4 false; mkTok 25 "int16" 17 6 false; mkTok 42 "string_" 17 13 false; mkTok 40 "," 17 21 false; mkTok 15 "string" 18 4 false; mkTok 44 "//x" 18 11 true; mkTok 42 "tag" 19 0 false; mkTok 7 "@lengthOf(" 19 4 false; mkTok 44 "// `tick` ""quote"" 'q'" 19 14 true; mkTok 42 "a1" 20 0 false; mkTok 6 ")" 20 2 false; mkTok 44 "// 50% %s" 20 3 true; mkTok 40 "," 21 0 false; mkTok 3 "}" 21 2 false; mkTok 40 "," 21 4 false; mkTok 3 "}" 22 4 false; mkTok 40 "," 23 0 false; mkTok 36 "repeat" 23 2 false; mkTok 42 "charz" 23 9 false; mkTok 2 "{" 24 4 false; mkTok 42 "lengthOf" 24 5 false; mkTok 42 "f32a" 24 14 false; mkTok 40 "," 24 19 false; mkTok 3 "}" 24 21 false; mkTok 40 "," 24 23 false; mkTok 12 "char[" 24 24 false; mkTok 30 "65535" 24 30 false; mkTok 13 "]" 24 35 false; mkTok 42 "crc" 24 37 false; mkTok 43 (string_of_bytes [96; 230; 182; 136; 230; 129; 175; 231; 177; 187; 229; 158; 139; 96]%N) 24 40 false; mkTok 40 "," 24 47 false; mkTok 3 "}" 24 48 false; mkTok 35 "packet" 24 50 false; mkTok 42 "len" 24 57 false; mkTok 2 "{" 25 0 false; mkTok 42 "rootA" 26 4 false; mkTok 44 "// c" 26 10 true; mkTok 2 "{" 27 0 false; mkTok 36 "repeat" 27 2 false; mkTok 15 "string" 27 9 false; mkTok 42 "string_" 27 16 false; mkTok 40 "," 27 24 false; mkTok 15 "string" 28 0 false; mkTok 42 "pack" 28 7 false; mkTok 40 "," 29 0 false; mkTok 16 "char[]" 30 0 false; mkTok 42 "roots" 31 0 false; mkTok 40 "," 31 5 false; mkTok 3 "}" 32 0 false; mkTok 40 "," 33 0 false; mkTok 3 "}" 33 2 false; mkTok 44 "//" 33 4 true; mkTok 0 "<EOF>" 33 6 false] (mkPacket (mkPtok 35 "packet" 1 0 0) (Some (mkPtok 3 "}" 33 2 105)) [(DPacket (mkPacketDef (mkSpan (mkPtok 35 "packet" 1 0 0) (mkPtok 3 "}" 24 48 86)) None (mkPtok 35 "packet" 1 0 0) (mkPtok 42 "MetaDataX" 2 0 2) (mkPtok 2 "{" 3 0 4) [(mkFieldWithAttr (mkSpan (mkPtok 12 "char[" 3 1 5) (mkPtok 40 "," 3 13 9)) [] (MetaField (mkSpan (mkPtok 12 "char[" 3 1 5) (mkPtok 40 "," 3 13 9)) None (mkMetaDecl (mkSpan (mkPtok 12 "char[" 3 1 5) (mkPtok 40 "," 3 13 9)) (TyFixed (mkSpan (mkPtok 12 "char[" 3 1 5) (mkPtok 13 "]" 3 9 7)) (mkFixedString (mkSpan (mkPtok 12 "char[" 3 1 5) (mkPtok 13 "]" 3 9 7)) (mkPtok 12 "char[" 3 1 5) (mkPtok 30 "1" 3 7 6) (mkPtok 13 "]" 3 9 7))) (mkPtok 42 "T" 3 10 8) None (mkPtok 40 "," 3 13 9)))); (mkFieldWithAttr (mkSpan (mkPtok 16 "char[]" 4 0 10) (mkPtok 40 "," 6 0 15)) [] (CheckSumField (mkSpan (mkPtok 16 "char[]" 4 0 10) (mkPtok 40 "," 6 0 15)) (mkChecksumFieldDecl (mkSpan (mkPtok 16 "char[]" 4 0 10) (mkPtok 40 "," 6 0 15)) (Some (TyDynamic (mkSpan (mkPtok 16 "char[]" 4 0 10) (mkPtok 16 "char[]" 4 0 10)) (mkDynamicString (mkSpan (mkPtok 16 "char[]" 4 0 10) (mkPtok 16 "char[]" 4 0 10)) (mkPtok 16 "char[]" 4 0 10)))) (mkPtok 42 "Foo" 4 7 11) (mkCalculatedFrom (mkSpan (mkPtok 5 "@calculatedFrom(" 4 11 12) (mkPtok 6 ")" 5 6 14)) (mkPtok 5 "@calculatedFrom(" 4 11 12) (mkPtok 31 """{,}""" 5 0 13) (mkPtok 6 ")" 5 6 14)) None (mkPtok 40 "," 6 0 15)))); (mkFieldWithAttr (mkSpan (mkPtok 42 "a1" 6 2 16) (mkPtok 40 "," 8 4 18)) [] (ObjectField (mkSpan (mkPtok 42 "a1" 6 2 16) (mkPtok 40 "," 8 4 18)) None (mkPtok 42 "a1" 6 2 16) None None (mkPtok 40 "," 8 4 18))); (mkFieldWithAttr (mkSpan (mkPtok 7 "@lengthOf(" 8 5 19) (mkPtok 40 "," 8 42 25)) [(FALengthOf (mkSpan (mkPtok 7 "@lengthOf(" 8 5 19) (mkPtok 6 ")" 8 21 21)) (mkLengthOf (mkSpan (mkPtok 7 "@lengthOf(" 8 5 19) (mkPtok 6 ")" 8 21 21)) (mkPtok 7 "@lengthOf(" 8 5 19) (mkPtok 42 "roots" 8 16 20) (mkPtok 6 ")" 8 21 21)))] (ObjectField (mkSpan (mkPtok 42 "falsey" 8 23 22) (mkPtok 40 "," 8 42 25)) None (mkPtok 42 "falsey" 8 23 22) (Some (mkPtok 42 "int" 8 30 23)) (Some (mkPtok 43 "`u8 x,`" 8 34 24)) (mkPtok 40 "," 8 42 25))); (mkFieldWithAttr (mkSpan (mkPtok 12 "char[" 8 44 26) (mkPtok 40 "," 10 1 31)) [] (MetaField (mkSpan (mkPtok 12 "char[" 8 44 26) (mkPtok 40 "," 10 1 31)) None (mkMetaDecl (mkSpan (mkPtok 12 "char[" 8 44 26) (mkPtok 40 "," 10 1 31)) (TyFixed (mkSpan (mkPtok 12 "char[" 8 44 26) (mkPtok 13 "]" 9 15 28)) (mkFixedString (mkSpan (mkPtok 12 "char[" 8 44 26) (mkPtok 13 "]" 9 15 28)) (mkPtok 12 "char[" 8 44 26) (mkPtok 30 "0123456789" 9 4 27) (mkPtok 13 "]" 9 15 28))) (mkPtok 42 "a1" 9 17 29) (Some (mkPtok 43 (string_of_bytes [96; 10; 96]%N) 9 20 30)) (mkPtok 40 "," 10 1 31)))); (mkFieldWithAttr (mkSpan (mkPtok 15 "string" 10 4 32) (mkPtok 40 "," 11 32 37)) [] (CheckSumField (mkSpan (mkPtok 15 "string" 10 4 32) (mkPtok 40 "," 11 32 37)) (mkChecksumFieldDecl (mkSpan (mkPtok 15 "string" 10 4 32) (mkPtok 40 "," 11 32 37)) (Some (TyDynamic (mkSpan (mkPtok 15 "string" 10 4 32) (mkPtok 15 "string" 10 4 32)) (mkDynamicString (mkSpan (mkPtok 15 "string" 10 4 32) (mkPtok 15 "string" 10 4 32)) (mkPtok 15 "string" 10 4 32)))) (mkPtok 42 "Z9_" 11 0 33) (mkCalculatedFrom (mkSpan (mkPtok 5 "@calculatedFrom(" 11 4 34) (mkPtok 6 ")" 11 30 36)) (mkPtok 5 "@calculatedFrom(" 11 4 34) (mkPtok 31 """`tick`""" 11 21 35) (mkPtok 6 ")" 11 30 36)) None (mkPtok 40 "," 11 32 37)))); (mkFieldWithAttr (mkSpan (mkPtok 14 "zchar[" 11 34 38) (mkPtok 40 "," 15 4 47)) [] (LengthField (mkSpan (mkPtok 14 "zchar[" 11 34 38) (mkPtok 40 "," 15 4 47)) (mkLengthFieldDecl (mkSpan (mkPtok 14 "zchar[" 11 34 38) (mkPtok 40 "," 15 4 47)) (Some (TyFixed (mkSpan (mkPtok 14 "zchar[" 11 34 38) (mkPtok 13 "]" 12 3 40)) (mkFixedString (mkSpan (mkPtok 14 "zchar[" 11 34 38) (mkPtok 13 "]" 12 3 40)) (mkPtok 14 "zchar[" 11 34 38) (mkPtok 30 "00" 12 0 39) (mkPtok 13 "]" 12 3 40)))) (mkPtok 42 "Logon" 12 5 41) (mkLengthOf (mkSpan (mkPtok 7 "@lengthOf(" 13 4 42) (mkPtok 6 ")" 14 0 45)) (mkPtok 7 "@lengthOf(" 13 4 42) (mkPtok 42 "u128" 13 14 43) (mkPtok 6 ")" 14 0 45)) (Some (mkPtok 43 (string_of_bytes [96; 116; 97; 98; 9; 104; 101; 114; 101; 96]%N) 14 3 46)) (mkPtok 40 "," 15 4 47)))); (mkFieldWithAttr (mkSpan (mkPtok 5 "@calculatedFrom(" 15 5 48) (mkPtok 40 "," 23 0 71)) [(FACalculatedFrom (mkSpan (mkPtok 5 "@calculatedFrom(" 15 5 48) (mkPtok 6 ")" 16 0 50)) (mkCalculatedFrom (mkSpan (mkPtok 5 "@calculatedFrom(" 15 5 48) (mkPtok 6 ")" 16 0 50)) (mkPtok 5 "@calculatedFrom(" 15 5 48) (mkPtok 31 (string_of_bytes [34; 97; 9; 98; 34]%N) 15 22 49) (mkPtok 6 ")" 16 0 50)))] (InerObjectField (mkSpan (mkPtok 42 "Z9_" 16 2 51) (mkPtok 40 "," 23 0 71)) None (InerObjectDecl (mkSpan (mkPtok 42 "Z9_" 16 2 51) (mkPtok 3 "}" 22 4 70)) (mkPtok 42 "Z9_" 16 2 51) (mkPtok 2 "{" 16 6 52) [(InerObjectField (mkSpan (mkPtok 36 "repeat" 16 8 53) (mkPtok 40 "," 21 4 69)) (Some (mkPtok 36 "repeat" 16 8 53)) (InerObjectDecl (mkSpan (mkPtok 42 "stringy" 16 15 54) (mkPtok 3 "}" 21 2 68)) (mkPtok 42 "stringy" 16 15 54) (mkPtok 2 "{" 17 4 55) [(MetaField (mkSpan (mkPtok 25 "int16" 17 6 56) (mkPtok 40 "," 17 21 58)) None (mkMetaDecl (mkSpan (mkPtok 25 "int16" 17 6 56) (mkPtok 40 "," 17 21 58)) (TyBasic (mkSpan (mkPtok 25 "int16" 17 6 56) (mkPtok 25 "int16" 17 6 56)) (mkBasicType (mkSpan (mkPtok 25 "int16" 17 6 56) (mkPtok 25 "int16" 17 6 56)) (mkPtok 25 "int16" 17 6 56))) (mkPtok 42 "string_" 17 13 57) None (mkPtok 40 "," 17 21 58))); (LengthField (mkSpan (mkPtok 15 "string" 18 4 59) (mkPtok 40 "," 21 0 67)) (mkLengthFieldDecl (mkSpan (mkPtok 15 "string" 18 4 59) (mkPtok 40 "," 21 0 67)) (Some (TyDynamic (mkSpan (mkPtok 15 "string" 18 4 59) (mkPtok 15 "string" 18 4 59)) (mkDynamicString (mkSpan (mkPtok 15 "string" 18 4 59) (mkPtok 15 "string" 18 4 59)) (mkPtok 15 "string" 18 4 59)))) (mkPtok 42 "tag" 19 0 61) (mkLengthOf (mkSpan (mkPtok 7 "@lengthOf(" 19 4 62) (mkPtok 6 ")" 20 2 65)) (mkPtok 7 "@lengthOf(" 19 4 62) (mkPtok 42 "a1" 20 0 64) (mkPtok 6 ")" 20 2 65)) None (mkPtok 40 "," 21 0 67)))] (mkPtok 3 "}" 21 2 68)) (mkPtok 40 "," 21 4 69))] (mkPtok 3 "}" 22 4 70)) (mkPtok 40 "," 23 0 71))); (mkFieldWithAttr (mkSpan (mkPtok 36 "repeat" 23 2 72) (mkPtok 40 "," 24 23 79)) [] (InerObjectField (mkSpan (mkPtok 36 "repeat" 23 2 72) (mkPtok 40 "," 24 23 79)) (Some (mkPtok 36 "repeat" 23 2 72)) (InerObjectDecl (mkSpan (mkPtok 42 "charz" 23 9 73) (mkPtok 3 "}" 24 21 78)) (mkPtok 42 "charz" 23 9 73) (mkPtok 2 "{" 24 4 74) [(ObjectField (mkSpan (mkPtok 42 "lengthOf" 24 5 75) (mkPtok 40 "," 24 19 77)) None (mkPtok 42 "lengthOf" 24 5 75) (Some (mkPtok 42 "f32a" 24 14 76)) None (mkPtok 40 "," 24 19 77))] (mkPtok 3 "}" 24 21 78)) (mkPtok 40 "," 24 23 79))); (mkFieldWithAttr (mkSpan (mkPtok 12 "char[" 24 24 80) (mkPtok 40 "," 24 47 85)) [] (MetaField (mkSpan (mkPtok 12 "char[" 24 24 80) (mkPtok 40 "," 24 47 85)) None (mkMetaDecl (mkSpan (mkPtok 12 "char[" 24 24 80) (mkPtok 40 "," 24 47 85)) (TyFixed (mkSpan (mkPtok 12 "char[" 24 24 80) (mkPtok 13 "]" 24 35 82)) (mkFixedString (mkSpan (mkPtok 12 "char[" 24 24 80) (mkPtok 13 "]" 24 35 82)) (mkPtok 12 "char[" 24 24 80) (mkPtok 30 "65535" 24 30 81) (mkPtok 13 "]" 24 35 82))) (mkPtok 42 "crc" 24 37 83) (Some (mkPtok 43 (string_of_bytes [96; 230; 182; 136; 230; 129; 175; 231; 177; 187; 229; 158; 139; 96]%N) 24 40 84)) (mkPtok 40 "," 24 47 85))))] (mkPtok 3 "}" 24 48 86))); (DPacket (mkPacketDef (mkSpan (mkPtok 35 "packet" 24 50 87) (mkPtok 3 "}" 33 2 105)) None (mkPtok 35 "packet" 24 50 87) (mkPtok 42 "len" 24 57 88) (mkPtok 2 "{" 25 0 89) [(mkFieldWithAttr (mkSpan (mkPtok 42 "rootA" 26 4 90) (mkPtok 40 "," 33 0 104)) [] (InerObjectField (mkSpan (mkPtok 42 "rootA" 26 4 90) (mkPtok 40 "," 33 0 104)) None (InerObjectDecl (mkSpan (mkPtok 42 "rootA" 26 4 90) (mkPtok 3 "}" 32 0 103)) (mkPtok 42 "rootA" 26 4 90) (mkPtok 2 "{" 27 0 92) [(MetaField (mkSpan (mkPtok 36 "repeat" 27 2 93) (mkPtok 40 "," 27 24 96)) (Some (mkPtok 36 "repeat" 27 2 93)) (mkMetaDecl (mkSpan (mkPtok 15 "string" 27 9 94) (mkPtok 40 "," 27 24 96)) (TyDynamic (mkSpan (mkPtok 15 "string" 27 9 94) (mkPtok 15 "string" 27 9 94)) (mkDynamicString (mkSpan (mkPtok 15 "string" 27 9 94) (mkPtok 15 "string" 27 9 94)) (mkPtok 15 "string" 27 9 94))) (mkPtok 42 "string_" 27 16 95) None (mkPtok 40 "," 27 24 96))); (MetaField (mkSpan (mkPtok 15 "string" 28 0 97) (mkPtok 40 "," 29 0 99)) None (mkMetaDecl (mkSpan (mkPtok 15 "string" 28 0 97) (mkPtok 40 "," 29 0 99)) (TyDynamic (mkSpan (mkPtok 15 "string" 28 0 97) (mkPtok 15 "string" 28 0 97)) (mkDynamicString (mkSpan (mkPtok 15 "string" 28 0 97) (mkPtok 15 "string" 28 0 97)) (mkPtok 15 "string" 28 0 97))) (mkPtok 42 "pack" 28 7 98) None (mkPtok 40 "," 29 0 99))); (MetaField (mkSpan (mkPtok 16 "char[]" 30 0 100) (mkPtok 40 "," 31 5 102)) None (mkMetaDecl (mkSpan (mkPtok 16 "char[]" 30 0 100) (mkPtok 40 "," 31 5 102)) (TyDynamic (mkSpan (mkPtok 16 "char[]" 30 0 100) (mkPtok 16 "char[]" 30 0 100)) (mkDynamicString (mkSpan (mkPtok 16 "char[]" 30 0 100) (mkPtok 16 "char[]" 30 0 100)) (mkPtok 16 "char[]" 30 0 100))) (mkPtok 42 "roots" 31 0 101) None (mkPtok 40 "," 31 5 102)))] (mkPtok 3 "}" 32 0 103)) (mkPtok 40 "," 33 0 104)))] (mkPtok 3 "}" 33 2 105)))])).
+Eval vm_compute in ("<<<M30>>>" ++ check (runes_of_ascii "packet
+u8x{ char[ 7 ]Logon//x
+, @lengthOf( Foo) trueish Header
+    , match
+repeatCount as o { 00
+: uint8x, [ 007 // " ++ [27880; 37322]%N ++ runes_of_ascii "
 ]
-repeatCount `it's`
-, u8
+    :calculatedFrom
+""abc"":
+_x , } , char[] MetaDataX `it's` , } root  packet _x {
+@lengthOf(As)
+@lengthOf( asx
+    ) zchar[ 42 //	t
+]
+    u128	@calculatedFrom( """ ++ [28040; 24687]%N ++ runes_of_ascii """ ),
+repeat string
+_x , asx{ zchar[ 1  ]
 crc
-, zchar
-o ,int64 asx
-, }root
-packet chars{
-    }
-")).
-Eval vm_compute in ("<<<M180>>>" ++ check (runes_of_ascii "MetaData T  {
-char[] metadata ,
+    ,}
+,
+    } packet trueish { match
+    i64_ as
+    tag
+{ 3:
+    roots  ,
+0123456789 :
+    options1
+    ,""it's""
+    :
+stringy , } , @tag(
     // `tick` ""quote"" 'q'
-    i8
-Header
-    //	t
+    10 ) @rightPad (// @lengthOf(
+' ' )  @rightPad	(
+    /// triple
+    '\x00' )
+repeat i64 // @lengthOf(
+packetx
+, repeat//x
+o  x `// not a comment` , }
+")).
+Eval vm_compute in ("<<<M40>>>" ++ check (runes_of_ascii "MetaData
+T {crc /// triple
+u8x `" ++ [233]%N ++ runes_of_ascii "` , } // `tick` ""quote"" 'q'")).
+Eval vm_compute in ("<<<M50>>>" ++ check (runes_of_ascii "MetaData leftPad
+    { uint64 tag	`{ , }`
+, i64
+    chars
+`
+`
+    , }packet MetaDataX
+    /// triple
+    { char[ 0 ]
+x `100% of %d` ,
+}
+")).
+Eval vm_compute in ("<<<M60>>>" ++ check (runes_of_ascii "packet
+chars {
+match
+    A as stringy
+    { ""CRC32""
+    // `tick` ""quote"" 'q'
+    : len
     ,
-u128 chars `a\` , char[
-    42
-] calculatedFrom
-, } // packet A { u8 x, }
-packet stringy {
-    @rightPad( // c
+    [	""x y""] : BodyLength	, // packet A { u8 x, }
+}	,}
+    options
+{ // @lengthOf(
+string_= '\x00'
+; /// triple
+} packet
+/// triple
+// " ++ [27880; 37322]%N ++ runes_of_ascii "
+crc { @rightPad ( '\x00'
+) match
+    Header  as rootA{
+[ 255	, 42
+    ,""1""
+, ""{,}"" ,
+// 50% %s
+// 50% %s
+10	, ""CRC32"" , 7 ]: leftPad ,}, uint32 crc,// packet A { u8 x, }
+u8x@lengthOf(MetaDataX
+/// triple
+/// triple
+) , i32 o
+    // `tick` ""quote"" 'q'
+    `crlf
+line` , } // packet A { u8 x, }")).
+Eval vm_compute in ("<<<M70>>>" ++ check (runes_of_ascii "packet
+    zchar{zchar[ // 50% %s
+4294967296
+] len `crlf
+line`, @tag(
+7 ) @tag( 4294967296 ) i8 msg_type @calculatedFrom(""1"" ) `crlf
+line`  ,
+    zchar[ 0] // " ++ [27880; 37322]%N ++ runes_of_ascii "
+body @calculatedFrom(
+""// no comment""
+)  , repeat f64 _x // trailing space 
+,char[3
+] x @calculatedFrom(""`tick`"" )
+    `say ""hi""` , @tag(
+65535  ) char MetaDataX// @lengthOf(
+@lengthOf( BodyLength ) ,// packet A { u8 x, }
+@lengthOf(Z9_ )match Pad as Z9_ { ""x y"":
+    chars , ""a	b"":
+u128 , """ ++ [128512]%N ++ runes_of_ascii """ : Header }
+    , zchar[	007]
+    float
+    `u8 x,`, }options
+{
+    stringy = zchar[7 ] ;}packet Header
+{	matchKey  tag	, @calculatedFrom(	""// no comment"") @calculatedFrom( """"	)	@rightPad  (' ') u128// trailing space 
+{repeat leftPad
+{ int64
+    rootA	@lengthOf(
+crc ) `" ++ [233]%N ++ runes_of_ascii "` , }  ,
+    } ,zchar[
+42
+    ] matchKey	,
+    // " ++ [27880; 37322]%N ++ runes_of_ascii "
+    @lengthOf(rootA ) float32
+chars @lengthOf( pack // `tick` ""quote"" 'q'
 )
+// " ++ [27880; 37322]%N ++ runes_of_ascii "
+// c
+``
+,}
+")).
+Eval vm_compute in ("<<<M80>>>" ++ check (runes_of_ascii "// trailing space 
+options{ x
+=	""it's"" }")).
+Eval vm_compute in ("<<<M90>>>" ++ check (runes_of_ascii "packet metadata { // trailing space 
+roots
+uint8x , @leftPad
+    ( )zchar[
+3
+] Header,
+    i64_ roots , @lengthOf( A)
+    // " ++ [128512]%N ++ runes_of_ascii " emoji
+    @lengthOf( // trailing space 
+pack
+) @lengthOf( calculatedFrom
+// a // b
+/// triple
+)
+    // trailing space 
+    u8 charz `crlf
+line` , }")).
+Eval vm_compute in ("<<<T90>>>" ++ terms [mkTok 35 "packet" 1 0 false; mkTok 42 "metadata" 1 7 false; mkTok 2 "{" 1 16 false; mkTok 44 "// trailing space " 1 18 true; mkTok 42 "roots" 2 0 false; mkTok 42 "uint8x" 3 0 false; mkTok 40 "," 3 7 false; mkTok 32 "@leftPad" 3 9 false; mkTok 8 "(" 4 4 false; mkTok 6 ")" 4 6 false; mkTok 14 "zchar[" 4 7 false; mkTok 30 "3" 5 0 false; mkTok 13 "]" 6 0 false; mkTok 42 "Header" 6 2 false; mkTok 40 "," 6 8 false; mkTok 42 "i64_" 7 4 false; mkTok 42 "roots" 7 9 false; mkTok 40 "," 7 15 false; mkTok 7 "@lengthOf(" 7 17 false; mkTok 42 "A" 7 28 false; mkTok 6 ")" 7 29 false; mkTok 44 (string_of_bytes [47; 47; 32; 240; 159; 152; 128; 32; 101; 109; 111; 106; 105]%N) 8 4 true; mkTok 7 "@lengthOf(" 9 4 false; mkTok 44 "// trailing space " 9 15 true; mkTok 42 "pack" 10 0 false; mkTok 6 ")" 11 0 false; mkTok 7 "@lengthOf(" 11 2 false; mkTok 42 "calculatedFrom" 11 13 false; mkTok 44 "// a // b" 12 0 true; mkTok 44 "/// triple" 13 0 true; mkTok 6 ")" 14 0 false; mkTok 44 "// trailing space " 15 4 true; mkTok 20 "u8" 16 4 false; mkTok 42 "charz" 16 7 false; mkTok 43 (string_of_bytes [96; 99; 114; 108; 102; 13; 10; 108; 105; 110; 101; 96]%N) 16 13 false; mkTok 40 "," 17 6 false; mkTok 3 "}" 17 8 false; mkTok 0 "<EOF>" 17 9 false] (mkPacket (mkPtok 35 "packet" 1 0 0) (Some (mkPtok 3 "}" 17 8 36)) [(DPacket (mkPacketDef (mkSpan (mkPtok 35 "packet" 1 0 0) (mkPtok 3 "}" 17 8 36)) None (mkPtok 35 "packet" 1 0 0) (mkPtok 42 "metadata" 1 7 1) (mkPtok 2 "{" 1 16 2) [(mkFieldWithAttr (mkSpan (mkPtok 42 "roots" 2 0 4) (mkPtok 40 "," 3 7 6)) [] (ObjectField (mkSpan (mkPtok 42 "roots" 2 0 4) (mkPtok 40 "," 3 7 6)) None (mkPtok 42 "roots" 2 0 4) (Some (mkPtok 42 "uint8x" 3 0 5)) None (mkPtok 40 "," 3 7 6))); (mkFieldWithAttr (mkSpan (mkPtok 32 "@leftPad" 3 9 7) (mkPtok 40 "," 6 8 14)) [(FAPadding (mkSpan (mkPtok 32 "@leftPad" 3 9 7) (mkPtok 6 ")" 4 6 9)) (mkPaddingAttr (mkSpan (mkPtok 32 "@leftPad" 3 9 7) (mkPtok 6 ")" 4 6 9)) (mkPtok 32 "@leftPad" 3 9 7) (mkPtok 8 "(" 4 4 8) None (mkPtok 6 ")" 4 6 9)))] (MetaField (mkSpan (mkPtok 14 "zchar[" 4 7 10) (mkPtok 40 "," 6 8 14)) None (mkMetaDecl (mkSpan (mkPtok 14 "zchar[" 4 7 10) (mkPtok 40 "," 6 8 14)) (TyFixed (mkSpan (mkPtok 14 "zchar[" 4 7 10) (mkPtok 13 "]" 6 0 12)) (mkFixedString (mkSpan (mkPtok 14 "zchar[" 4 7 10) (mkPtok 13 "]" 6 0 12)) (mkPtok 14 "zchar[" 4 7 10) (mkPtok 30 "3" 5 0 11) (mkPtok 13 "]" 6 0 12))) (mkPtok 42 "Header" 6 2 13) None (mkPtok 40 "," 6 8 14)))); (mkFieldWithAttr (mkSpan (mkPtok 42 "i64_" 7 4 15) (mkPtok 40 "," 7 15 17)) [] (ObjectField (mkSpan (mkPtok 42 "i64_" 7 4 15) (mkPtok 40 "," 7 15 17)) None (mkPtok 42 "i64_" 7 4 15) (Some (mkPtok 42 "roots" 7 9 16)) None (mkPtok 40 "," 7 15 17))); (mkFieldWithAttr (mkSpan (mkPtok 7 "@lengthOf(" 7 17 18) (mkPtok 40 "," 17 6 35)) [(FALengthOf (mkSpan (mkPtok 7 "@lengthOf(" 7 17 18) (mkPtok 6 ")" 7 29 20)) (mkLengthOf (mkSpan (mkPtok 7 "@lengthOf(" 7 17 18) (mkPtok 6 ")" 7 29 20)) (mkPtok 7 "@lengthOf(" 7 17 18) (mkPtok 42 "A" 7 28 19) (mkPtok 6 ")" 7 29 20))); (FALengthOf (mkSpan (mkPtok 7 "@lengthOf(" 9 4 22) (mkPtok 6 ")" 11 0 25)) (mkLengthOf (mkSpan (mkPtok 7 "@lengthOf(" 9 4 22) (mkPtok 6 ")" 11 0 25)) (mkPtok 7 "@lengthOf(" 9 4 22) (mkPtok 42 "pack" 10 0 24) (mkPtok 6 ")" 11 0 25))); (FALengthOf (mkSpan (mkPtok 7 "@lengthOf(" 11 2 26) (mkPtok 6 ")" 14 0 30)) (mkLengthOf (mkSpan (mkPtok 7 "@lengthOf(" 11 2 26) (mkPtok 6 ")" 14 0 30)) (mkPtok 7 "@lengthOf(" 11 2 26) (mkPtok 42 "calculatedFrom" 11 13 27) (mkPtok 6 ")" 14 0 30)))] (MetaField (mkSpan (mkPtok 20 "u8" 16 4 32) (mkPtok 40 "," 17 6 35)) None (mkMetaDecl (mkSpan (mkPtok 20 "u8" 16 4 32) (mkPtok 40 "," 17 6 35)) (TyBasic (mkSpan (mkPtok 20 "u8" 16 4 32) (mkPtok 20 "u8" 16 4 32)) (mkBasicType (mkSpan (mkPtok 20 "u8" 16 4 32) (mkPtok 20 "u8" 16 4 32)) (mkPtok 20 "u8" 16 4 32))) (mkPtok 42 "charz" 16 7 33) (Some (mkPtok 43 (string_of_bytes [96; 99; 114; 108; 102; 13; 10; 108; 105; 110; 101; 96]%N) 16 13 34)) (mkPtok 40 "," 17 6 35))))] (mkPtok 3 "}" 17 8 36)))])).
+Eval vm_compute in ("<<<M100>>>" ++ check (runes_of_ascii "
+root packet
+    Logon {
+zchar[ 65535 ] uint8x ,@leftPad (
+)repeat f32 Packet , @leftPad
+( ' ' // c
+) match i8i8 as body { 65535 : MetaDataX/// triple
+, //x
+007 : // c
+Packet },
+@calculatedFrom( ""packet"") uint8x , Foo @lengthOf( // `tick` ""quote"" 'q'
+asx ) ,i64 int ,@leftPad ( ' ' ) repeat
+rootA{ int32 zchar, match  stringy
+    as MetaDataX
+    {
+[ """ ++ [28040; 24687]%N ++ runes_of_ascii """
+,
+10 ,42 , ""a\""b"" ,
+// trailing space 
+// trailing space 
+42 ,
+    7 ]
+    : msg_type ,[42 ] :stringy ,""a\\""
+:	Header
+255 : calculatedFrom , [ 007
+    ] : MetaDataX , ""a\""b"": stringy
+    , } ,char[ 007 ]
+    int @lengthOf( o ) `100% of %d`
+,
+    } ,char[ 00 ]leftPad @lengthOf(
+zchar ) ,
+char[]
+zchar
+    @calculatedFrom( ""1"" )
+    ,
+i64_
+{ Packet
+@lengthOf( Header )`two words`  ,// a // b
+match int as As {
+    ""\" ++ [233]%N ++ runes_of_ascii """
+    : As
+,
+}  ,metadata`// not a comment`, repeat f64 float ,
     //	t
-    string trueish
-`two words`, } MetaData metadata{ zchar[//
-007]x_y_z
-, zchar[ 10 ] u	`// not a comment`
-    , string u8x, char[]repeatCount// " ++ [128512]%N ++ runes_of_ascii " emoji
-, zchar Pad ,u32 f32a
-    `doc`
-, } // `tick` ""quote"" 'q'")).
-Eval vm_compute in ("<<<M190>>>" ++ check (runes_of_ascii "packet T
+    }
+, } options { //
+u = ""packet"" BodyLength = ""packet"" ;
+} root
+packet u8x {  } // packet A { u8 x, }")).
+Eval vm_compute in ("<<<M110>>>" ++ check (runes_of_ascii "packet
+calculatedFrom { Header @lengthOf( T
+    )
+    `" ++ [233]%N ++ runes_of_ascii "`
+,}
+root
+packet T
+{
+    @tag( 4294967296) // a // b
+string
+    string_
+// packet A { u8 x, }
+// `tick` ""quote"" 'q'
+@calculatedFrom(
+// trailing space 
+/// triple
+""""), zchar[
+007 ]  i64_, // " ++ [27880; 37322]%N ++ runes_of_ascii "
+@tag( 4294967296) msg_type	@calculatedFrom( ""1""	) ,
+x
+{
+    // c
+    Packet, }, repeat u8 T
+// c
+/// triple
+`a\` ,f32a
+// trailing space 
+//	t
+@lengthOf( float
+    // packet A { u8 x, }
+    ) , @calculatedFrom( """ ++ [233]%N ++ runes_of_ascii "t" ++ [233]%N ++ runes_of_ascii """ )match crc
+as
+repeatCount{ ""a	b"": pack, } , @calculatedFrom(
+    ""it's""
+)f64
+uint8x @lengthOf(crc ) `two words` ,
+char[] tag ,}
+")).
+Eval vm_compute in ("<<<M120>>>" ++ check (runes_of_ascii "packet crc{
+    } packet pack {repeat _x Foo // `tick` ""quote"" 'q'
+,@lengthOf( string_
+    )
+    @rightPad ( ) @calculatedFrom( ""\n"")
+charz  { char[ 42 ]
+a1 , //x
+repeat T // `tick` ""quote"" 'q'
+{ repeat zchar[ 3
+    ] T , } , match  i64_  as	trueish { ""`tick`""
+:
+/// triple
+// packet A { u8 x, }
+trueish , [""" ++ [233]%N ++ runes_of_ascii "t" ++ [233]%N ++ runes_of_ascii """, 0123456789] : Foo
+,
+    """"
+    :
+    x_y_z [ ""\" ++ [233]%N ++ runes_of_ascii """ // trailing space 
+, 3
+, ""a	b"" , ""\" ++ [233]%N ++ runes_of_ascii """
+    ,
+""x y""
+    , ""1"" , ""a	b""
+, ""CRC32"" ] : asx [
+    255 ] : leftPad  ,
+42 :
+    u8x
+, }
+    , } ,
+    o ,}
+")).
+Eval vm_compute in ("<<<M130>>>" ++ check (runes_of_ascii "options
+//x
+/// triple
+{ a1
+=
+    ' ';
+stringy=
+'\x00'string_
+    = ' ' ; lengthOf
+    = 7
+;
+}packet Pad {
+    uint32 As`a\`  , }
+//	t
+/// triple
+packet a1 /// triple
+{ @calculatedFrom( ""`tick`"") i16 body `tab	here` ,	}	options { As
+    = true // a // b
+}")).
+Eval vm_compute in ("<<<M140>>>" ++ check (runes_of_ascii "
+")).
+Eval vm_compute in ("<<<M150>>>" ++ check (runes_of_ascii "packet u8x{ float32
+roots `u8 x,`
+,  repeat float32 crc
+    `" ++ [28040; 24687; 31867; 22411]%N ++ runes_of_ascii "`
+    ,u32
+pack
+// 50% %s
+// " ++ [27880; 37322]%N ++ runes_of_ascii "
+@lengthOf(f32a ) `100% of %d`,// " ++ [128512]%N ++ runes_of_ascii " emoji
+match u128
+as _x
+// trailing space 
+// packet A { u8 x, }
+{[ 65535 ]
+:MetaDataX ,//x
+}
+, }packet x_y_z {	@rightPad
+( '\x00' )i64
+    /// triple
+    roots, @calculatedFrom(
+// " ++ [27880; 37322]%N ++ runes_of_ascii "
+//
+""packet"" ) match o as
+    trueish	{	[ 1
+    ,
+0123456789
+] :  u8x	,
+    //	t
+    } , }
+")).
+Eval vm_compute in ("<<<M160>>>" ++ check (runes_of_ascii "packet falsey { repeat u8 Logon ,
+char[]
+f32a
+    , tag rootA,
+    //
+    @rightPad (' ' // `tick` ""quote"" 'q'
+)@tag( 007 ) match o	as _x{ [ 1 ,""a	b"" , ""1""	, 00  ,7 ,
+    // `tick` ""quote"" 'q'
+    """ ++ [233]%N ++ runes_of_ascii "t" ++ [233]%N ++ runes_of_ascii """ ,7 , 00
+    ]
+    :
+Foo
+,
+    ""\" ++ [233]%N ++ runes_of_ascii """ : matchKey ,
+} ,
+    @rightPad (
+'\x00' )string msg_type , repeat u8x
+    , repeat BodyLength  ,
+}")).
+Eval vm_compute in ("<<<T160>>>" ++ terms [mkTok 35 "packet" 1 0 false; mkTok 42 "falsey" 1 7 false; mkTok 2 "{" 1 14 false; mkTok 36 "repeat" 1 16 false; mkTok 20 "u8" 1 23 false; mkTok 42 "Logon" 1 26 false; mkTok 40 "," 1 32 false; mkTok 16 "char[]" 2 0 false; mkTok 42 "f32a" 3 0 false; mkTok 40 "," 4 4 false; mkTok 42 "tag" 4 6 false; mkTok 42 "rootA" 4 10 false; mkTok 40 "," 4 15 false; mkTok 44 "//" 5 4 true; mkTok 32 "@rightPad" 6 4 false; mkTok 8 "(" 6 14 false; mkTok 33 "' '" 6 15 false; mkTok 44 "// `tick` ""quote"" 'q'" 6 19 true; mkTok 6 ")" 7 0 false; mkTok 9 "@tag(" 7 1 false; mkTok 30 "007" 7 7 false; mkTok 6 ")" 7 11 false; mkTok 38 "match" 7 13 false; mkTok 42 "o" 7 19 false; mkTok 17 "as" 7 21 false; mkTok 42 "_x" 7 24 false; mkTok 2 "{" 7 26 false; mkTok 18 "[" 7 28 false; mkTok 30 "1" 7 30 false; mkTok 40 "," 7 32 false; mkTok 31 (string_of_bytes [34; 97; 9; 98; 34]%N) 7 33 false; mkTok 40 "," 7 39 false; mkTok 31 """1""" 7 41 false; mkTok 40 "," 7 45 false; mkTok 30 "00" 7 47 false; mkTok 40 "," 7 51 false; mkTok 30 "7" 7 52 false; mkTok 40 "," 7 54 false; mkTok 44 "// `tick` ""quote"" 'q'" 8 4 true; mkTok 31 (string_of_bytes [34; 195; 169; 116; 195; 169; 34]%N) 9 4 false; mkTok 40 "," 9 10 false; mkTok 30 "7" 9 11 false; mkTok 40 "," 9 13 false; mkTok 30 "00" 9 15 false; mkTok 13 "]" 10 4 false; mkTok 39 ":" 11 4 false; mkTok 42 "Foo" 12 0 false; mkTok 40 "," 13 0 false; mkTok 31 (string_of_bytes [34; 92; 195; 169; 34]%N) 14 4 false; mkTok 39 ":" 14 9 false; mkTok 42 "matchKey" 14 11 false; mkTok 40 "," 14 20 false; mkTok 3 "}" 15 0 false; mkTok 40 "," 15 2 false; mkTok 32 "@rightPad" 16 4 false; mkTok 8 "(" 16 14 false; mkTok 33 "'\x00'" 17 0 false; mkTok 6 ")" 17 7 false; mkTok 15 "string" 17 8 false; mkTok 42 "msg_type" 17 15 false; mkTok 40 "," 17 24 false; mkTok 36 "repeat" 17 26 false; mkTok 42 "u8x" 17 33 false; mkTok 40 "," 18 4 false; mkTok 36 "repeat" 18 6 false; mkTok 42 "BodyLength" 18 13 false; mkTok 40 "," 18 25 false; mkTok 3 "}" 19 0 false; mkTok 0 "<EOF>" 19 1 false] (mkPacket (mkPtok 35 "packet" 1 0 0) (Some (mkPtok 3 "}" 19 0 67)) [(DPacket (mkPacketDef (mkSpan (mkPtok 35 "packet" 1 0 0) (mkPtok 3 "}" 19 0 67)) None (mkPtok 35 "packet" 1 0 0) (mkPtok 42 "falsey" 1 7 1) (mkPtok 2 "{" 1 14 2) [(mkFieldWithAttr (mkSpan (mkPtok 36 "repeat" 1 16 3) (mkPtok 40 "," 1 32 6)) [] (MetaField (mkSpan (mkPtok 36 "repeat" 1 16 3) (mkPtok 40 "," 1 32 6)) (Some (mkPtok 36 "repeat" 1 16 3)) (mkMetaDecl (mkSpan (mkPtok 20 "u8" 1 23 4) (mkPtok 40 "," 1 32 6)) (TyBasic (mkSpan (mkPtok 20 "u8" 1 23 4) (mkPtok 20 "u8" 1 23 4)) (mkBasicType (mkSpan (mkPtok 20 "u8" 1 23 4) (mkPtok 20 "u8" 1 23 4)) (mkPtok 20 "u8" 1 23 4))) (mkPtok 42 "Logon" 1 26 5) None (mkPtok 40 "," 1 32 6)))); (mkFieldWithAttr (mkSpan (mkPtok 16 "char[]" 2 0 7) (mkPtok 40 "," 4 4 9)) [] (MetaField (mkSpan (mkPtok 16 "char[]" 2 0 7) (mkPtok 40 "," 4 4 9)) None (mkMetaDecl (mkSpan (mkPtok 16 "char[]" 2 0 7) (mkPtok 40 "," 4 4 9)) (TyDynamic (mkSpan (mkPtok 16 "char[]" 2 0 7) (mkPtok 16 "char[]" 2 0 7)) (mkDynamicString (mkSpan (mkPtok 16 "char[]" 2 0 7) (mkPtok 16 "char[]" 2 0 7)) (mkPtok 16 "char[]" 2 0 7))) (mkPtok 42 "f32a" 3 0 8) None (mkPtok 40 "," 4 4 9)))); (mkFieldWithAttr (mkSpan (mkPtok 42 "tag" 4 6 10) (mkPtok 40 "," 4 15 12)) [] (ObjectField (mkSpan (mkPtok 42 "tag" 4 6 10) (mkPtok 40 "," 4 15 12)) None (mkPtok 42 "tag" 4 6 10) (Some (mkPtok 42 "rootA" 4 10 11)) None (mkPtok 40 "," 4 15 12))); (mkFieldWithAttr (mkSpan (mkPtok 32 "@rightPad" 6 4 14) (mkPtok 40 "," 15 2 53)) [(FAPadding (mkSpan (mkPtok 32 "@rightPad" 6 4 14) (mkPtok 6 ")" 7 0 18)) (mkPaddingAttr (mkSpan (mkPtok 32 "@rightPad" 6 4 14) (mkPtok 6 ")" 7 0 18)) (mkPtok 32 "@rightPad" 6 4 14) (mkPtok 8 "(" 6 14 15) (Some (mkPtok 33 "' '" 6 15 16)) (mkPtok 6 ")" 7 0 18))); (FATag (mkSpan (mkPtok 9 "@tag(" 7 1 19) (mkPtok 6 ")" 7 11 21)) (mkTagAttr (mkSpan (mkPtok 9 "@tag(" 7 1 19) (mkPtok 6 ")" 7 11 21)) (mkPtok 9 "@tag(" 7 1 19) (mkPtok 30 "007" 7 7 20) (mkPtok 6 ")" 7 11 21)))] (MatchField (mkSpan (mkPtok 38 "match" 7 13 22) (mkPtok 40 "," 15 2 53)) (mkMatchFieldDecl (mkSpan (mkPtok 38 "match" 7 13 22) (mkPtok 3 "}" 15 0 52)) (mkPtok 38 "match" 7 13 22) (mkPtok 42 "o" 7 19 23) (mkPtok 17 "as" 7 21 24) (mkPtok 42 "_x" 7 24 25) (mkPtok 2 "{" 7 26 26) [(mkMatchPair (mkSpan (mkPtok 18 "[" 7 28 27) (mkPtok 40 "," 13 0 47)) (MKList (mkKeyList (mkSpan (mkPtok 18 "[" 7 28 27) (mkPtok 13 "]" 10 4 44)) (mkPtok 18 "[" 7 28 27) (mkPtok 30 "1" 7 30 28) [((mkPtok 40 "," 7 32 29), (mkPtok 31 (string_of_bytes [34; 97; 9; 98; 34]%N) 7 33 30)); ((mkPtok 40 "," 7 39 31), (mkPtok 31 """1""" 7 41 32)); ((mkPtok 40 "," 7 45 33), (mkPtok 30 "00" 7 47 34)); ((mkPtok 40 "," 7 51 35), (mkPtok 30 "7" 7 52 36)); ((mkPtok 40 "," 7 54 37), (mkPtok 31 (string_of_bytes [34; 195; 169; 116; 195; 169; 34]%N) 9 4 39)); ((mkPtok 40 "," 9 10 40), (mkPtok 30 "7" 9 11 41)); ((mkPtok 40 "," 9 13 42), (mkPtok 30 "00" 9 15 43))] (mkPtok 13 "]" 10 4 44))) (mkPtok 39 ":" 11 4 45) (mkPtok 42 "Foo" 12 0 46) (Some (mkPtok 40 "," 13 0 47))); (mkMatchPair (mkSpan (mkPtok 31 (string_of_bytes [34; 92; 195; 169; 34]%N) 14 4 48) (mkPtok 40 "," 14 20 51)) (MKString (mkPtok 31 (string_of_bytes [34; 92; 195; 169; 34]%N) 14 4 48)) (mkPtok 39 ":" 14 9 49) (mkPtok 42 "matchKey" 14 11 50) (Some (mkPtok 40 "," 14 20 51)))] (mkPtok 3 "}" 15 0 52)) (mkPtok 40 "," 15 2 53))); (mkFieldWithAttr (mkSpan (mkPtok 32 "@rightPad" 16 4 54) (mkPtok 40 "," 17 24 60)) [(FAPadding (mkSpan (mkPtok 32 "@rightPad" 16 4 54) (mkPtok 6 ")" 17 7 57)) (mkPaddingAttr (mkSpan (mkPtok 32 "@rightPad" 16 4 54) (mkPtok 6 ")" 17 7 57)) (mkPtok 32 "@rightPad" 16 4 54) (mkPtok 8 "(" 16 14 55) (Some (mkPtok 33 "'\x00'" 17 0 56)) (mkPtok 6 ")" 17 7 57)))] (MetaField (mkSpan (mkPtok 15 "string" 17 8 58) (mkPtok 40 "," 17 24 60)) None (mkMetaDecl (mkSpan (mkPtok 15 "string" 17 8 58) (mkPtok 40 "," 17 24 60)) (TyDynamic (mkSpan (mkPtok 15 "string" 17 8 58) (mkPtok 15 "string" 17 8 58)) (mkDynamicString (mkSpan (mkPtok 15 "string" 17 8 58) (mkPtok 15 "string" 17 8 58)) (mkPtok 15 "string" 17 8 58))) (mkPtok 42 "msg_type" 17 15 59) None (mkPtok 40 "," 17 24 60)))); (mkFieldWithAttr (mkSpan (mkPtok 36 "repeat" 17 26 61) (mkPtok 40 "," 18 4 63)) [] (ObjectField (mkSpan (mkPtok 36 "repeat" 17 26 61) (mkPtok 40 "," 18 4 63)) (Some (mkPtok 36 "repeat" 17 26 61)) (mkPtok 42 "u8x" 17 33 62) None None (mkPtok 40 "," 18 4 63))); (mkFieldWithAttr (mkSpan (mkPtok 36 "repeat" 18 6 64) (mkPtok 40 "," 18 25 66)) [] (ObjectField (mkSpan (mkPtok 36 "repeat" 18 6 64) (mkPtok 40 "," 18 25 66)) (Some (mkPtok 36 "repeat" 18 6 64)) (mkPtok 42 "BodyLength" 18 13 65) None None (mkPtok 40 "," 18 25 66)))] (mkPtok 3 "}" 19 0 67)))])).
+Eval vm_compute in ("<<<M170>>>" ++ check (runes_of_ascii "packet int
+{
+    // " ++ [128512]%N ++ runes_of_ascii " emoji
+    } options{
+Z9_ = ' ';
+    repeatCount = 0
+    Header = zchar[ 007
+    ] i64_
+/// triple
+// " ++ [128512]%N ++ runes_of_ascii " emoji
+= """ ++ [128512]%N ++ runes_of_ascii """ ;  }root packet leftPad{
+roots, }root packet Foo { repeat//x
+MetaDataX u8x
+    `crlf
+line`
+, @lengthOf(
+    Header ) zchar[ 65535 ] metadata `u8 x,` , @tag( 65535 ) stringy{ options1 @lengthOf( asx ) , } , char[0
+]
+    Packet `two words`
+,@lengthOf( u8x) int @lengthOf(
+Logon ) , } 	 ")).
+Eval vm_compute in ("<<<M180>>>" ++ check (runes_of_ascii "
+root packet i8i8
 {}
 ")).
-Eval vm_compute in ("<<<M200>>>" ++ check (runes_of_ascii "MetaData
-    Header { }MetaData Logon {// trailing space 
-int32 falsey ,// " ++ [27880; 37322]%N ++ runes_of_ascii "
-packetx
-_x ,
-char[] Logon`two words`
-,
-    matchKey packetx ,
-    u32 u // packet A { u8 x, }
-,	i64 float `it's`
-, }
-")).
-Eval vm_compute in ("<<<M210>>>" ++ check (runes_of_ascii "packet u128  { @calculatedFrom(
-""a	b"" ) repeat  uint8x u128
-`line1
-line2`  , }
-    packet string_ { @calculatedFrom(
-// `tick` ""quote"" 'q'
-// packet A { u8 x, }
-""" ++ [128512]%N ++ runes_of_ascii """ )
-uint8 Pad
-    @lengthOf(
-    o )
-`{ , }`, }")).
-Eval vm_compute in ("<<<M220>>>" ++ check (runes_of_ascii "packet f32a
-    { @calculatedFrom(""1"" )
-_x { string
-/// triple
-//	t
-metadata@calculatedFrom( ""`tick`""	) `// not a comment` ,  match // packet A { u8 x, }
-Foo as  len { 42//
-:Z9_ , //x
-}  , }
-,} packet /// triple
-options1{ @lengthOf(A )roots
-@lengthOf(// packet A { u8 x, }
-msg_type ) `line1
-line2` , int32/// triple
-a1 `it's` , @calculatedFrom( ""packet""
-    )repeat string T , @lengthOf( i64_ ) @calculatedFrom(
-""packet""
-) @tag( 007
-) int16 asx@calculatedFrom(
-""it's""
-    )//	t
-`doc` , repeat i32
-charz, metadata // packet A { u8 x, }
-`// not a comment` , }  packet
-Logon{ }
-options {
-}
-root
-packet tag  { @lengthOf(
-    Logon
-)
-charz { string stringy`// not a comment`	,
-uint64 int,char
-    i64_ `it's`
-// packet A { u8 x, }
-// a // b
-, } ,
-//	t
-//
-u8
-i64_ , zchar[ 1 ] float
-, } /// triple")).
-Eval vm_compute in ("<<<M230>>>" ++ check (runes_of_ascii "packet
-matchKey { match Header as chars
-{ [ """ ++ [233]%N ++ runes_of_ascii "t" ++ [233]%N ++ runes_of_ascii """ ,0 ]	: body
-,
-    [
-    42,10 ]
-    :msg_type
-,
-""" ++ [128512]%N ++ runes_of_ascii """
-: options1 ,7 :
-    roots ""\n"" :
-    // c
-    packetx,	} ,
-    zchar[
-0 ]
-A
-@lengthOf(  int )
-, char[] Header `
-` ,// trailing space 
-repeat
-    float { repeat
-o
-    , // `tick` ""quote"" 'q'
-repeat
-int32 x_y_z `
-` , }	,@tag( 0 ) u64 string_ @calculatedFrom(""`tick`"" ) // " ++ [27880; 37322]%N ++ runes_of_ascii "
-`two words` , calculatedFrom // " ++ [27880; 37322]%N ++ runes_of_ascii "
-{ matchKey
-//
-// packet A { u8 x, }
-, // packet A { u8 x, }
-rootA
-, } ,
-}
-    options // " ++ [128512]%N ++ runes_of_ascii " emoji
-{ chars =	"""" //
-;
-    As = true	; Foo =
-7	; lengthOf =  ""a\\"" }
-
-")).
-Eval vm_compute in ("<<<T230>>>" ++ terms [mkTok 35 "packet" 1 0 false; mkTok 42 "matchKey" 2 0 false; mkTok 2 "{" 2 9 false; mkTok 38 "match" 2 11 false; mkTok 42 "Header" 2 17 false; mkTok 17 "as" 2 24 false; mkTok 42 "chars" 2 27 false; mkTok 2 "{" 3 0 false; mkTok 18 "[" 3 2 false; mkTok 31 (string_of_bytes [34; 195; 169; 116; 195; 169; 34]%N) 3 4 false; mkTok 40 "," 3 10 false; mkTok 30 "0" 3 11 false; mkTok 13 "]" 3 13 false; mkTok 39 ":" 3 15 false; mkTok 42 "body" 3 17 false; mkTok 40 "," 4 0 false; mkTok 18 "[" 5 4 false; mkTok 30 "42" 6 4 false; mkTok 40 "," 6 6 false; mkTok 30 "10" 6 7 false; mkTok 13 "]" 6 10 false; mkTok 39 ":" 7 4 false; mkTok 42 "msg_type" 7 5 false; mkTok 40 "," 8 0 false; mkTok 31 (string_of_bytes [34; 240; 159; 152; 128; 34]%N) 9 0 false; mkTok 39 ":" 10 0 false; mkTok 42 "options1" 10 2 false; mkTok 40 "," 10 11 false; mkTok 30 "7" 10 12 false; mkTok 39 ":" 10 14 false; mkTok 42 "roots" 11 4 false; mkTok 31 """\n""" 11 10 false; mkTok 39 ":" 11 15 false; mkTok 44 "// c" 12 4 true; mkTok 42 "packetx" 13 4 false; mkTok 40 "," 13 11 false; mkTok 3 "}" 13 13 false; mkTok 40 "," 13 15 false; mkTok 14 "zchar[" 14 4 false; mkTok 30 "0" 15 0 false; mkTok 13 "]" 15 2 false; mkTok 42 "A" 16 0 false; mkTok 7 "@lengthOf(" 17 0 false; mkTok 42 "int" 17 12 false; mkTok 6 ")" 17 16 false; mkTok 40 "," 18 0 false; mkTok 16 "char[]" 18 2 false; mkTok 42 "Header" 18 9 false; mkTok 43 (string_of_bytes [96; 10; 96]%N) 18 16 false; mkTok 40 "," 19 2 false; mkTok 44 "// trailing space " 19 3 true; mkTok 36 "repeat" 20 0 false; mkTok 42 "float" 21 4 false; mkTok 2 "{" 21 10 false; mkTok 36 "repeat" 21 12 false; mkTok 42 "o" 22 0 false; mkTok 40 "," 23 4 false; mkTok 44 "// `tick` ""quote"" 'q'" 23 6 true; mkTok 36 "repeat" 24 0 false; mkTok 26 "int32" 25 0 false; mkTok 42 "x_y_z" 25 6 false; mkTok 43 (string_of_bytes [96; 10; 96]%N) 25 12 false; mkTok 40 "," 26 2 false; mkTok 3 "}" 26 4 false; mkTok 40 "," 26 6 false; mkTok 9 "@tag(" 26 7 false; mkTok 30 "0" 26 13 false; mkTok 6 ")" 26 15 false; mkTok 23 "u64" 26 17 false; mkTok 42 "string_" 26 21 false; mkTok 5 "@calculatedFrom(" 26 29 false; mkTok 31 """`tick`""" 26 45 false; mkTok 6 ")" 26 54 false; mkTok 44 (string_of_bytes [47; 47; 32; 230; 179; 168; 233; 135; 138]%N) 26 56 true; mkTok 43 "`two words`" 27 0 false; mkTok 40 "," 27 12 false; mkTok 42 "calculatedFrom" 27 14 false; mkTok 44 (string_of_bytes [47; 47; 32; 230; 179; 168; 233; 135; 138]%N) 27 29 true; mkTok 2 "{" 28 0 false; mkTok 42 "matchKey" 28 2 false; mkTok 44 "//" 29 0 true; mkTok 44 "// packet A { u8 x, }" 30 0 true; mkTok 40 "," 31 0 false; mkTok 44 "// packet A { u8 x, }" 31 2 true; mkTok 42 "rootA" 32 0 false; mkTok 40 "," 33 0 false; mkTok 3 "}" 33 2 false; mkTok 40 "," 33 4 false; mkTok 3 "}" 34 0 false; mkTok 1 "options" 35 4 false; mkTok 44 (string_of_bytes [47; 47; 32; 240; 159; 152; 128; 32; 101; 109; 111; 106; 105]%N) 35 12 true; mkTok 2 "{" 36 0 false; mkTok 42 "chars" 36 2 false; mkTok 4 "=" 36 8 false; mkTok 31 """""" 36 10 false; mkTok 44 "//" 36 13 true; mkTok 41 ";" 37 0 false; mkTok 42 "As" 38 4 false; mkTok 4 "=" 38 7 false; mkTok 10 "true" 38 9 false; mkTok 41 ";" 38 14 false; mkTok 42 "Foo" 38 16 false; mkTok 4 "=" 38 20 false; mkTok 30 "7" 39 0 false; mkTok 41 ";" 39 2 false; mkTok 42 "lengthOf" 39 4 false; mkTok 4 "=" 39 13 false; mkTok 31 """a\\""" 39 16 false; mkTok 3 "}" 39 22 false; mkTok 0 "<EOF>" 41 0 false] (mkPacket (mkPtok 35 "packet" 1 0 0) (Some (mkPtok 3 "}" 39 22 108)) [(DPacket (mkPacketDef (mkSpan (mkPtok 35 "packet" 1 0 0) (mkPtok 3 "}" 34 0 88)) None (mkPtok 35 "packet" 1 0 0) (mkPtok 42 "matchKey" 2 0 1) (mkPtok 2 "{" 2 9 2) [(mkFieldWithAttr (mkSpan (mkPtok 38 "match" 2 11 3) (mkPtok 40 "," 13 15 37)) [] (MatchField (mkSpan (mkPtok 38 "match" 2 11 3) (mkPtok 40 "," 13 15 37)) (mkMatchFieldDecl (mkSpan (mkPtok 38 "match" 2 11 3) (mkPtok 3 "}" 13 13 36)) (mkPtok 38 "match" 2 11 3) (mkPtok 42 "Header" 2 17 4) (mkPtok 17 "as" 2 24 5) (mkPtok 42 "chars" 2 27 6) (mkPtok 2 "{" 3 0 7) [(mkMatchPair (mkSpan (mkPtok 18 "[" 3 2 8) (mkPtok 40 "," 4 0 15)) (MKList (mkKeyList (mkSpan (mkPtok 18 "[" 3 2 8) (mkPtok 13 "]" 3 13 12)) (mkPtok 18 "[" 3 2 8) (mkPtok 31 (string_of_bytes [34; 195; 169; 116; 195; 169; 34]%N) 3 4 9) [((mkPtok 40 "," 3 10 10), (mkPtok 30 "0" 3 11 11))] (mkPtok 13 "]" 3 13 12))) (mkPtok 39 ":" 3 15 13) (mkPtok 42 "body" 3 17 14) (Some (mkPtok 40 "," 4 0 15))); (mkMatchPair (mkSpan (mkPtok 18 "[" 5 4 16) (mkPtok 40 "," 8 0 23)) (MKList (mkKeyList (mkSpan (mkPtok 18 "[" 5 4 16) (mkPtok 13 "]" 6 10 20)) (mkPtok 18 "[" 5 4 16) (mkPtok 30 "42" 6 4 17) [((mkPtok 40 "," 6 6 18), (mkPtok 30 "10" 6 7 19))] (mkPtok 13 "]" 6 10 20))) (mkPtok 39 ":" 7 4 21) (mkPtok 42 "msg_type" 7 5 22) (Some (mkPtok 40 "," 8 0 23))); (mkMatchPair (mkSpan (mkPtok 31 (string_of_bytes [34; 240; 159; 152; 128; 34]%N) 9 0 24) (mkPtok 40 "," 10 11 27)) (MKString (mkPtok 31 (string_of_bytes [34; 240; 159; 152; 128; 34]%N) 9 0 24)) (mkPtok 39 ":" 10 0 25) (mkPtok 42 "options1" 10 2 26) (Some (mkPtok 40 "," 10 11 27))); (mkMatchPair (mkSpan (mkPtok 30 "7" 10 12 28) (mkPtok 42 "roots" 11 4 30)) (MKDigits (mkPtok 30 "7" 10 12 28)) (mkPtok 39 ":" 10 14 29) (mkPtok 42 "roots" 11 4 30) None); (mkMatchPair (mkSpan (mkPtok 31 """\n""" 11 10 31) (mkPtok 40 "," 13 11 35)) (MKString (mkPtok 31 """\n""" 11 10 31)) (mkPtok 39 ":" 11 15 32) (mkPtok 42 "packetx" 13 4 34) (Some (mkPtok 40 "," 13 11 35)))] (mkPtok 3 "}" 13 13 36)) (mkPtok 40 "," 13 15 37))); (mkFieldWithAttr (mkSpan (mkPtok 14 "zchar[" 14 4 38) (mkPtok 40 "," 18 0 45)) [] (LengthField (mkSpan (mkPtok 14 "zchar[" 14 4 38) (mkPtok 40 "," 18 0 45)) (mkLengthFieldDecl (mkSpan (mkPtok 14 "zchar[" 14 4 38) (mkPtok 40 "," 18 0 45)) (Some (TyFixed (mkSpan (mkPtok 14 "zchar[" 14 4 38) (mkPtok 13 "]" 15 2 40)) (mkFixedString (mkSpan (mkPtok 14 "zchar[" 14 4 38) (mkPtok 13 "]" 15 2 40)) (mkPtok 14 "zchar[" 14 4 38) (mkPtok 30 "0" 15 0 39) (mkPtok 13 "]" 15 2 40)))) (mkPtok 42 "A" 16 0 41) (mkLengthOf (mkSpan (mkPtok 7 "@lengthOf(" 17 0 42) (mkPtok 6 ")" 17 16 44)) (mkPtok 7 "@lengthOf(" 17 0 42) (mkPtok 42 "int" 17 12 43) (mkPtok 6 ")" 17 16 44)) None (mkPtok 40 "," 18 0 45)))); (mkFieldWithAttr (mkSpan (mkPtok 16 "char[]" 18 2 46) (mkPtok 40 "," 19 2 49)) [] (MetaField (mkSpan (mkPtok 16 "char[]" 18 2 46) (mkPtok 40 "," 19 2 49)) None (mkMetaDecl (mkSpan (mkPtok 16 "char[]" 18 2 46) (mkPtok 40 "," 19 2 49)) (TyDynamic (mkSpan (mkPtok 16 "char[]" 18 2 46) (mkPtok 16 "char[]" 18 2 46)) (mkDynamicString (mkSpan (mkPtok 16 "char[]" 18 2 46) (mkPtok 16 "char[]" 18 2 46)) (mkPtok 16 "char[]" 18 2 46))) (mkPtok 42 "Header" 18 9 47) (Some (mkPtok 43 (string_of_bytes [96; 10; 96]%N) 18 16 48)) (mkPtok 40 "," 19 2 49)))); (mkFieldWithAttr (mkSpan (mkPtok 36 "repeat" 20 0 51) (mkPtok 40 "," 26 6 64)) [] (InerObjectField (mkSpan (mkPtok 36 "repeat" 20 0 51) (mkPtok 40 "," 26 6 64)) (Some (mkPtok 36 "repeat" 20 0 51)) (InerObjectDecl (mkSpan (mkPtok 42 "float" 21 4 52) (mkPtok 3 "}" 26 4 63)) (mkPtok 42 "float" 21 4 52) (mkPtok 2 "{" 21 10 53) [(ObjectField (mkSpan (mkPtok 36 "repeat" 21 12 54) (mkPtok 40 "," 23 4 56)) (Some (mkPtok 36 "repeat" 21 12 54)) (mkPtok 42 "o" 22 0 55) None None (mkPtok 40 "," 23 4 56)); (MetaField (mkSpan (mkPtok 36 "repeat" 24 0 58) (mkPtok 40 "," 26 2 62)) (Some (mkPtok 36 "repeat" 24 0 58)) (mkMetaDecl (mkSpan (mkPtok 26 "int32" 25 0 59) (mkPtok 40 "," 26 2 62)) (TyBasic (mkSpan (mkPtok 26 "int32" 25 0 59) (mkPtok 26 "int32" 25 0 59)) (mkBasicType (mkSpan (mkPtok 26 "int32" 25 0 59) (mkPtok 26 "int32" 25 0 59)) (mkPtok 26 "int32" 25 0 59))) (mkPtok 42 "x_y_z" 25 6 60) (Some (mkPtok 43 (string_of_bytes [96; 10; 96]%N) 25 12 61)) (mkPtok 40 "," 26 2 62)))] (mkPtok 3 "}" 26 4 63)) (mkPtok 40 "," 26 6 64))); (mkFieldWithAttr (mkSpan (mkPtok 9 "@tag(" 26 7 65) (mkPtok 40 "," 27 12 75)) [(FATag (mkSpan (mkPtok 9 "@tag(" 26 7 65) (mkPtok 6 ")" 26 15 67)) (mkTagAttr (mkSpan (mkPtok 9 "@tag(" 26 7 65) (mkPtok 6 ")" 26 15 67)) (mkPtok 9 "@tag(" 26 7 65) (mkPtok 30 "0" 26 13 66) (mkPtok 6 ")" 26 15 67)))] (CheckSumField (mkSpan (mkPtok 23 "u64" 26 17 68) (mkPtok 40 "," 27 12 75)) (mkChecksumFieldDecl (mkSpan (mkPtok 23 "u64" 26 17 68) (mkPtok 40 "," 27 12 75)) (Some (TyBasic (mkSpan (mkPtok 23 "u64" 26 17 68) (mkPtok 23 "u64" 26 17 68)) (mkBasicType (mkSpan (mkPtok 23 "u64" 26 17 68) (mkPtok 23 "u64" 26 17 68)) (mkPtok 23 "u64" 26 17 68)))) (mkPtok 42 "string_" 26 21 69) (mkCalculatedFrom (mkSpan (mkPtok 5 "@calculatedFrom(" 26 29 70) (mkPtok 6 ")" 26 54 72)) (mkPtok 5 "@calculatedFrom(" 26 29 70) (mkPtok 31 """`tick`""" 26 45 71) (mkPtok 6 ")" 26 54 72)) (Some (mkPtok 43 "`two words`" 27 0 74)) (mkPtok 40 "," 27 12 75)))); (mkFieldWithAttr (mkSpan (mkPtok 42 "calculatedFrom" 27 14 76) (mkPtok 40 "," 33 4 87)) [] (InerObjectField (mkSpan (mkPtok 42 "calculatedFrom" 27 14 76) (mkPtok 40 "," 33 4 87)) None (InerObjectDecl (mkSpan (mkPtok 42 "calculatedFrom" 27 14 76) (mkPtok 3 "}" 33 2 86)) (mkPtok 42 "calculatedFrom" 27 14 76) (mkPtok 2 "{" 28 0 78) [(ObjectField (mkSpan (mkPtok 42 "matchKey" 28 2 79) (mkPtok 40 "," 31 0 82)) None (mkPtok 42 "matchKey" 28 2 79) None None (mkPtok 40 "," 31 0 82)); (ObjectField (mkSpan (mkPtok 42 "rootA" 32 0 84) (mkPtok 40 "," 33 0 85)) None (mkPtok 42 "rootA" 32 0 84) None None (mkPtok 40 "," 33 0 85))] (mkPtok 3 "}" 33 2 86)) (mkPtok 40 "," 33 4 87)))] (mkPtok 3 "}" 34 0 88))); (DOption (mkOptionDef (mkSpan (mkPtok 1 "options" 35 4 89) (mkPtok 3 "}" 39 22 108)) (mkPtok 1 "options" 35 4 89) (mkPtok 2 "{" 36 0 91) [(mkOptionDecl (mkSpan (mkPtok 42 "chars" 36 2 92) (mkPtok 41 ";" 37 0 96)) (mkPtok 42 "chars" 36 2 92) (mkPtok 4 "=" 36 8 93) (VString (mkSpan (mkPtok 31 """""" 36 10 94) (mkPtok 31 """""" 36 10 94)) (mkPtok 31 """""" 36 10 94)) (Some (mkPtok 41 ";" 37 0 96))); (mkOptionDecl (mkSpan (mkPtok 42 "As" 38 4 97) (mkPtok 41 ";" 38 14 100)) (mkPtok 42 "As" 38 4 97) (mkPtok 4 "=" 38 7 98) (VTrue (mkSpan (mkPtok 10 "true" 38 9 99) (mkPtok 10 "true" 38 9 99)) (mkPtok 10 "true" 38 9 99)) (Some (mkPtok 41 ";" 38 14 100))); (mkOptionDecl (mkSpan (mkPtok 42 "Foo" 38 16 101) (mkPtok 41 ";" 39 2 104)) (mkPtok 42 "Foo" 38 16 101) (mkPtok 4 "=" 38 20 102) (VDigits (mkSpan (mkPtok 30 "7" 39 0 103) (mkPtok 30 "7" 39 0 103)) (mkPtok 30 "7" 39 0 103)) (Some (mkPtok 41 ";" 39 2 104))); (mkOptionDecl (mkSpan (mkPtok 42 "lengthOf" 39 4 105) (mkPtok 31 """a\\""" 39 16 107)) (mkPtok 42 "lengthOf" 39 4 105) (mkPtok 4 "=" 39 13 106) (VString (mkSpan (mkPtok 31 """a\\""" 39 16 107) (mkPtok 31 """a\\""" 39 16 107)) (mkPtok 31 """a\\""" 39 16 107)) None)] (mkPtok 3 "}" 39 22 108)))])).
-Eval vm_compute in ("<<<M240>>>" ++ check (runes_of_ascii "MetaData/// triple
-float {	f64
-    // trailing space 
-    u8x
-`
-` ,	}")).
-Eval vm_compute in ("<<<M250>>>" ++ check (runes_of_ascii "
-
-//x
-")).
-Eval vm_compute in ("<<<M260>>>" ++ check (runes_of_ascii "packet tag
-{@rightPad( )	zchar[ 00
+Eval vm_compute in ("<<<M190>>>" ++ check (runes_of_ascii "
+MetaData
     //x
-    ] //x
-MetaDataX `" ++ [233]%N ++ runes_of_ascii "` ,
-    float32 Header `say ""hi""`
-// " ++ [128512]%N ++ runes_of_ascii " emoji
-// `tick` ""quote"" 'q'
-, } MetaData
-T{int lengthOf  ,}")).
-Eval vm_compute in ("<<<M270>>>" ++ check (runes_of_ascii "options { Pad = char[]; u8x
-    // trailing space 
-    =
-    ""packet"";
-o = i64
-; stringy
-=""a\""b""
-packetx
-    // trailing space 
-    = 65535
-} options
-{ chars
-= '0'}")).
-Eval vm_compute in ("<<<M280>>>" ++ check (runes_of_ascii "  packet
-chars	{ }
-")).
-Eval vm_compute in ("<<<M290>>>" ++ check (runes_of_ascii "packet zchar { msg_type ,
-//
-// `tick` ""quote"" 'q'
-@tag( 65535 ) repeat float32 len,
-    @lengthOf(
+    float {u8 uint8x ,
+// @lengthOf(
+// packet A { u8 x, }
+} options {}	root packet T /// triple
+{ u , }
+    packet
+x_y_z // c
+{@lengthOf( T
+) asx lengthOf `
+`, repeat
+    f64
+// c
+// a // b
+metadata
+    ,char[
+    4294967296
+    ] u8x ,	repeat
+    uint8 zchar, // a // b
+@tag(
+    0123456789)  repeat i64
+_x,u16
+u
+    // `tick` ""quote"" 'q'
+    ,match roots as
+Header { 007 : zchar
+    // packet A { u8 x, }
+    ""it's""
+: rootA , [""it's""
+    ,""\n"", ""x y"" , 00 ,
+    42  ,
+""it's""
+    ]
+    : len , 0 :Z9_	, //x
+},match Logon as falsey {4294967296 : T
+    ""CRC32"" : u8x , [
+""" ++ [28040; 24687]%N ++ runes_of_ascii """
+    , ""1"" , ""it's"" , ""a\\"" , 3
+    ,
+4294967296 , """ ++ [128512]%N ++ runes_of_ascii """
 // " ++ [27880; 37322]%N ++ runes_of_ascii "
+// @lengthOf(
+, ""CRC32"" ]
+: _x ,
+[
+""// no comment"" ,// trailing space 
+0123456789 ,
+    10 , 65535 , """ ++ [128512]%N ++ runes_of_ascii """] : T , 42:
+    lengthOf ,0 :x_y_z
+    , } ,
+    match crc as u8x {[
+42]:repeatCount 0 : calculatedFrom , } , }
+
+")).
+Eval vm_compute in ("<<<M200>>>" ++ check (runes_of_ascii "options{
+lengthOf =
+// packet A { u8 x, }
+// c
+""a	b"";} root packet //	t
+body
+{ f32a Foo , //x
+}")).
+Eval vm_compute in ("<<<M210>>>" ++ check (runes_of_ascii "MetaData packetx{
+char[] x
 // `tick` ""quote"" 'q'
-crc )	lengthOf
-    //
-    {
-repeat float `say ""hi""` ,}	, u32 // a // b
-Packet
-@lengthOf( i8i8// a // b
-)  `
-`
-// packet A { u8 x, }
-// packet A { u8 x, }
-,
-i8i8 // a // b
-, u32 calculatedFrom  @lengthOf( BodyLength //x
-)`a\` , @lengthOf( Logon// " ++ [128512]%N ++ runes_of_ascii " emoji
-) match MetaDataX
-as	Foo  { [
-""\n"" ,
-255 ] :Packet , 3: o
+//
+, body Z9_ //	t
+, }
+// trailing space 
+")).
+Eval vm_compute in ("<<<M220>>>" ++ check (runes_of_ascii "packet
+    // " ++ [27880; 37322]%N ++ runes_of_ascii "
+    string_
+    // " ++ [128512]%N ++ runes_of_ascii " emoji
+    { f32 string_
+    @calculatedFrom(
+""" ++ [128512]%N ++ runes_of_ascii """),} packet int { }
+root packet
+    // trailing space 
+    Header	{repeat
+lengthOf {
+    repeat int
+{body Foo ,	}
+    // trailing space 
     ,
-[007] : T, }
-, match pack as A { """ ++ [28040; 24687]%N ++ runes_of_ascii """
-: _x 007	:
-//x
+match i8i8	as
+Pad { [ 10 ]
+    : options1
+, ""abc"" :u8x
+, """ ++ [128512]%N ++ runes_of_ascii """ // 50% %s
+: f32a// 50% %s
+00  :  metadata , },
+// a // b
 // " ++ [128512]%N ++ runes_of_ascii " emoji
-metadata,
-255 :
-As
+lengthOf BodyLength ,
+},
+    }
+")).
+Eval vm_compute in ("<<<M230>>>" ++ check (runes_of_ascii "options {
+    // a // b
+    a1// c
+=
+255
+;
+i8i8 =""" ++ [128512]%N ++ runes_of_ascii """}
+")).
+Eval vm_compute in ("<<<T230>>>" ++ terms [mkTok 1 "options" 1 0 false; mkTok 2 "{" 1 8 false; mkTok 44 "// a // b" 2 4 true; mkTok 42 "a1" 3 4 false; mkTok 44 "// c" 3 6 true; mkTok 4 "=" 4 0 false; mkTok 30 "255" 5 0 false; mkTok 41 ";" 6 0 false; mkTok 42 "i8i8" 7 0 false; mkTok 4 "=" 7 5 false; mkTok 31 (string_of_bytes [34; 240; 159; 152; 128; 34]%N) 7 6 false; mkTok 3 "}" 7 9 false; mkTok 0 "<EOF>" 8 0 false] (mkPacket (mkPtok 1 "options" 1 0 0) (Some (mkPtok 3 "}" 7 9 11)) [(DOption (mkOptionDef (mkSpan (mkPtok 1 "options" 1 0 0) (mkPtok 3 "}" 7 9 11)) (mkPtok 1 "options" 1 0 0) (mkPtok 2 "{" 1 8 1) [(mkOptionDecl (mkSpan (mkPtok 42 "a1" 3 4 3) (mkPtok 41 ";" 6 0 7)) (mkPtok 42 "a1" 3 4 3) (mkPtok 4 "=" 4 0 5) (VDigits (mkSpan (mkPtok 30 "255" 5 0 6) (mkPtok 30 "255" 5 0 6)) (mkPtok 30 "255" 5 0 6)) (Some (mkPtok 41 ";" 6 0 7))); (mkOptionDecl (mkSpan (mkPtok 42 "i8i8" 7 0 8) (mkPtok 31 (string_of_bytes [34; 240; 159; 152; 128; 34]%N) 7 6 10)) (mkPtok 42 "i8i8" 7 0 8) (mkPtok 4 "=" 7 5 9) (VString (mkSpan (mkPtok 31 (string_of_bytes [34; 240; 159; 152; 128; 34]%N) 7 6 10) (mkPtok 31 (string_of_bytes [34; 240; 159; 152; 128; 34]%N) 7 6 10)) (mkPtok 31 (string_of_bytes [34; 240; 159; 152; 128; 34]%N) 7 6 10)) None)] (mkPtok 3 "}" 7 9 11)))])).
+Eval vm_compute in ("<<<M240>>>" ++ check (runes_of_ascii "packet A { repeat crc uint8x // @lengthOf(
+,
+@calculatedFrom( ""it's""
+) uint64 Logon `a\`,
+    }")).
+Eval vm_compute in ("<<<M250>>>" ++ check (runes_of_ascii "// " ++ [128512]%N ++ runes_of_ascii " emoji
+packet float {
+    zchar[
+7 ]trueish ,
+    // a // b
+    }")).
+Eval vm_compute in ("<<<M260>>>" ++ check (runes_of_ascii "
+")).
+Eval vm_compute in ("<<<M270>>>" ++ check (runes_of_ascii "
+packet Header {
+As `" ++ [233]%N ++ runes_of_ascii "` , }
+")).
+Eval vm_compute in ("<<<M280>>>" ++ check (runes_of_ascii "// trailing space 
+root packet
+    matchKey {u128 // c
+, uint8 x
+@calculatedFrom( """ ++ [233]%N ++ runes_of_ascii "t" ++ [233]%N ++ runes_of_ascii """ // " ++ [27880; 37322]%N ++ runes_of_ascii "
+)
+,
+i64
+    f32a @calculatedFrom(
+    """ ++ [28040; 24687]%N ++ runes_of_ascii """
+)
+`crlf
+line`  ,}
+    MetaData
+    zchar // packet A { u8 x, }
+{ // a // b
+char[4294967296 ]
+// " ++ [27880; 37322]%N ++ runes_of_ascii "
+/// triple
+string_ , x
+i8i8
+    , char[ 7 ]// " ++ [27880; 37322]%N ++ runes_of_ascii "
+Z9_
+    `tab	here`, }
+    // trailing space 
+    root packet
+o{@leftPad
+    ('\x00'
+)
+//x
+// 50% %s
+@tag( 10 ) @tag(
+    10) string // " ++ [128512]%N ++ runes_of_ascii " emoji
+u`doc` ,
+    @leftPad( )char[65535
+// trailing space 
+// packet A { u8 x, }
+]
+    //	t
+    body ,
+/// triple
+// 50% %s
+repeat pack  {rootA ``,//	t
+repeat body // packet A { u8 x, }
+, string Packet// trailing space 
+, }
+    , @lengthOf( stringy )
+    // trailing space 
+    repeat _x { BodyLength// trailing space 
+{
+    repeatCount
+// c
+/// triple
+{zchar[65535 ] As
+,
+// @lengthOf(
+// c
+options1  ,
+float32
+    len, zchar[7
+// packet A { u8 x, }
+// c
+]
+rootA
+`u8 x,` // `tick` ""quote"" 'q'
+,
+}, i64  falsey @lengthOf(uint8x ) ,
+char[
+    00 ]
+crc
+,
+}  , } , tag
+@calculatedFrom(
+""// no comment""
+)	`100% of %d`, }
+packet
+Pad { f32
+    Logon`
+`, body
+    @lengthOf(
+u8x)
+    `" ++ [28040; 24687; 31867; 22411]%N ++ runes_of_ascii "` , @lengthOf( Z9_// " ++ [128512]%N ++ runes_of_ascii " emoji
+) packetx @calculatedFrom( """ ++ [28040; 24687]%N ++ runes_of_ascii """
+)  ,x
+{ zchar[
+    3 ]
+    body
+,Header
+@calculatedFrom(""a	b""), char[]	u128 `it's` // @lengthOf(
+, i8 metadata ,}
+    , match i64_ as string_ { [ 3 ,
+255 // c
+,
+    007
+    , ""packet""
+    ,65535
+// @lengthOf(
+// 50% %s
+,""// no comment"",
+""a	b"" ,// packet A { u8 x, }
+007] // trailing space 
+:options1 4294967296
+    // " ++ [27880; 37322]%N ++ runes_of_ascii "
+    : len,
+""CRC32""	:pack
+""" ++ [28040; 24687]%N ++ runes_of_ascii """
+    : options1
+    , [0 // `tick` ""quote"" 'q'
+]
+    // `tick` ""quote"" 'q'
+    : Header ,[ 00 ]
+    : As // trailing space 
+, }
+,@lengthOf(
+    // c
+    tag ) metadata @calculatedFrom(
+""CRC32"" )
+    ,//	t
+@tag( // packet A { u8 x, }
+3)repeat //x
+string pack , Pad ,@rightPad ( )  tag { leftPad @calculatedFrom(  """ ++ [233]%N ++ runes_of_ascii "t" ++ [233]%N ++ runes_of_ascii """	),
+string chars ,
+    char[
+4294967296 ]
+i64_
+`" ++ [233]%N ++ runes_of_ascii "` , repeat charz
+zchar,  }
+    ,} options { pack
+=""abc"" ;pack = i8// packet A { u8 x, }
+; }")).
+Eval vm_compute in ("<<<M290>>>" ++ check (runes_of_ascii "packet Header {
+repeat	i64 float ,} packet matchKey { @tag( 00) match u8x as pack
+    // " ++ [128512]%N ++ runes_of_ascii " emoji
+    { 1	:u ""a\\"": string_ , 0:
+body
+, }
     ,
-    7 :charz, 10 : len, } , f32 len
-, @leftPad ('\x00'  )float32 trueish , }
+@calculatedFrom( ""// no comment""	) @rightPad
+(
+'0' )@tag( 00 ) // a // b
+int16
+calculatedFrom
+@lengthOf( //x
+pack
+),repeat char[] x_y_z , } options //	t
+{ //	t
+float = // " ++ [128512]%N ++ runes_of_ascii " emoji
+char[] roots
+// " ++ [27880; 37322]%N ++ runes_of_ascii "
+// a // b
+='0' ; u = char Packet =
+    0123456789// @lengthOf(
+; u8x // " ++ [27880; 37322]%N ++ runes_of_ascii "
+= ""CRC32""
+    ;}
+    root packet
+    x { i16 T
+@lengthOf(
+f32a)
+`" ++ [28040; 24687; 31867; 22411]%N ++ runes_of_ascii "` , }
 ")).
 Eval vm_compute in ("<<<M300>>>" ++ check (runes_of_ascii "options {
 	StringPrefixLenType = u16;
@@ -942,121 +789,283 @@ packet Detail {
     u16 Code `" ++ [21407; 22240; 20195; 30721]%N ++ runes_of_ascii "`,
 }")).
 Eval vm_compute in ("<<<T300>>>" ++ terms [mkTok 1 "options" 1 0 false; mkTok 2 "{" 1 8 false; mkTok 42 "StringPrefixLenType" 2 1 false; mkTok 4 "=" 2 21 false; mkTok 21 "u16" 2 23 false; mkTok 41 ";" 2 26 false; mkTok 42 "ArrayPrefixLenType" 3 1 false; mkTok 4 "=" 3 20 false; mkTok 21 "u16" 3 22 false; mkTok 41 ";" 3 25 false; mkTok 3 "}" 4 0 false; mkTok 35 "packet" 6 0 false; mkTok 42 "SampleBinary" 6 7 false; mkTok 2 "{" 6 20 false; mkTok 21 "uint16" 7 4 false; mkTok 42 "MsgType" 7 11 false; mkTok 43 (string_of_bytes [96; 230; 182; 136; 230; 129; 175; 231; 177; 187; 229; 158; 139; 96]%N) 7 19 false; mkTok 40 "," 7 25 false; mkTok 21 "u16" 8 4 false; mkTok 42 "BodyLenght" 8 8 false; mkTok 7 "@lengthOf(" 8 19 false; mkTok 42 "Body" 8 29 false; mkTok 6 ")" 8 33 false; mkTok 43 (string_of_bytes [96; 230; 182; 136; 230; 129; 175; 228; 189; 147; 233; 149; 191; 229; 186; 166; 96]%N) 8 35 false; mkTok 40 "," 8 42 false; mkTok 38 "match" 9 4 false; mkTok 42 "MsgType" 9 10 false; mkTok 17 "as" 9 18 false; mkTok 42 "Body" 9 21 false; mkTok 2 "{" 9 26 false; mkTok 30 "1" 10 8 false; mkTok 39 ":" 10 10 false; mkTok 42 "Logon" 10 12 false; mkTok 40 "," 10 17 false; mkTok 30 "2" 11 8 false; mkTok 39 ":" 11 10 false; mkTok 42 "Logout" 11 12 false; mkTok 40 "," 11 18 false; mkTok 30 "3" 12 8 false; mkTok 39 ":" 12 10 false; mkTok 42 "Heartbeat" 12 12 false; mkTok 40 "," 12 21 false; mkTok 30 "4" 13 8 false; mkTok 39 ":" 13 10 false; mkTok 42 "RiskControlRequest" 13 12 false; mkTok 40 "," 13 30 false; mkTok 30 "5" 14 8 false; mkTok 39 ":" 14 10 false; mkTok 42 "RiskControlResponse" 14 12 false; mkTok 40 "," 14 31 false; mkTok 3 "}" 15 4 false; mkTok 40 "," 15 5 false; mkTok 5 "@calculatedFrom(" 16 8 false; mkTok 31 """CRC32""" 16 24 false; mkTok 6 ")" 16 31 false; mkTok 22 "u32" 17 4 false; mkTok 42 "Ckecksum" 17 8 false; mkTok 43 (string_of_bytes [96; 230; 160; 161; 233; 170; 140; 229; 146; 140; 96]%N) 17 17 false; mkTok 40 "," 17 22 false; mkTok 3 "}" 18 0 false; mkTok 35 "packet" 20 0 false; mkTok 42 "Logon" 20 7 false; mkTok 2 "{" 20 13 false; mkTok 32 "@leftPad" 21 5 false; mkTok 8 "(" 21 13 false; mkTok 33 "'0'" 21 14 false; mkTok 6 ")" 21 17 false; mkTok 12 "char[" 22 4 false; mkTok 30 "10" 22 9 false; mkTok 13 "]" 22 11 false; mkTok 42 "UserName" 22 13 false; mkTok 43 (string_of_bytes [96; 231; 148; 168; 230; 136; 183; 229; 144; 141; 96]%N) 22 22 false; mkTok 40 "," 22 27 false; mkTok 15 "string" 23 4 false; mkTok 42 "Password" 23 11 false; mkTok 43 (string_of_bytes [96; 229; 175; 134; 231; 160; 129; 96]%N) 23 20 false; mkTok 40 "," 23 24 false; mkTok 23 "uint64" 24 4 false; mkTok 42 "ClientId" 24 11 false; mkTok 43 (string_of_bytes [96; 229; 174; 162; 230; 136; 183; 231; 171; 175; 73; 68; 96]%N) 24 20 false; mkTok 40 "," 24 27 false; mkTok 21 "u16" 25 4 false; mkTok 42 "HeartbeatInterval" 25 8 false; mkTok 43 (string_of_bytes [96; 229; 191; 131; 232; 183; 179; 233; 151; 180; 233; 154; 148; 96]%N) 25 26 false; mkTok 40 "," 25 32 false; mkTok 3 "}" 26 0 false; mkTok 35 "packet" 28 0 false; mkTok 42 "Logout" 28 7 false; mkTok 2 "{" 28 14 false; mkTok 32 "@rightPad" 29 6 false; mkTok 8 "(" 29 15 false; mkTok 33 "'0'" 29 16 false; mkTok 6 ")" 29 19 false; mkTok 12 "char[" 30 4 false; mkTok 30 "10" 30 9 false; mkTok 13 "]" 30 11 false; mkTok 42 "UserName" 30 13 false; mkTok 43 (string_of_bytes [96; 231; 148; 168; 230; 136; 183; 229; 144; 141; 96]%N) 30 22 false; mkTok 40 "," 30 27 false; mkTok 23 "uint64" 31 4 false; mkTok 42 "ClientId" 31 11 false; mkTok 43 (string_of_bytes [96; 229; 174; 162; 230; 136; 183; 231; 171; 175; 73; 68; 96]%N) 31 20 false; mkTok 40 "," 31 27 false; mkTok 3 "}" 32 0 false; mkTok 35 "packet" 34 0 false; mkTok 42 "Heartbeat" 34 7 false; mkTok 2 "{" 34 17 false; mkTok 3 "}" 35 0 false; mkTok 35 "packet" 37 0 false; mkTok 42 "RiskControlRequest" 37 7 false; mkTok 2 "{" 37 26 false; mkTok 15 "string" 38 4 false; mkTok 42 "UniqueOrderId" 38 11 false; mkTok 43 (string_of_bytes [96; 229; 148; 175; 228; 184; 128; 232; 174; 162; 229; 141; 149; 229; 143; 183; 96]%N) 38 25 false; mkTok 40 "," 38 32 false; mkTok 12 "char[" 39 4 false; mkTok 30 "16" 39 9 false; mkTok 13 "]" 39 11 false; mkTok 42 "ClOrdID" 39 13 false; mkTok 43 (string_of_bytes [96; 229; 174; 162; 230; 136; 183; 232; 174; 162; 229; 141; 149; 229; 143; 183; 96]%N) 39 21 false; mkTok 40 "," 39 28 false; mkTok 12 "char[" 40 4 false; mkTok 30 "3" 40 9 false; mkTok 13 "]" 40 10 false; mkTok 42 "MarketID" 40 12 false; mkTok 43 (string_of_bytes [96; 229; 184; 130; 229; 156; 186; 105; 100; 96]%N) 40 21 false; mkTok 40 "," 40 27 false; mkTok 12 "char[" 41 4 false; mkTok 30 "12" 41 9 false; mkTok 13 "]" 41 11 false; mkTok 42 "SecurityID" 41 13 false; mkTok 43 (string_of_bytes [96; 232; 175; 129; 229; 136; 184; 228; 187; 163; 231; 160; 129; 96]%N) 41 24 false; mkTok 40 "," 41 30 false; mkTok 19 "char" 42 4 false; mkTok 42 "Side" 42 9 false; mkTok 43 (string_of_bytes [96; 228; 185; 176; 229; 141; 150; 230; 150; 185; 229; 144; 145; 96]%N) 42 14 false; mkTok 40 "," 42 20 false; mkTok 19 "char" 43 4 false; mkTok 42 "OrderType" 43 9 false; mkTok 43 (string_of_bytes [96; 232; 174; 162; 229; 141; 149; 231; 177; 187; 229; 158; 139; 96]%N) 43 19 false; mkTok 40 "," 43 25 false; mkTok 23 "u64" 44 4 false; mkTok 42 "Price" 44 8 false; mkTok 43 (string_of_bytes [96; 228; 187; 183; 230; 160; 188; 96]%N) 44 14 false; mkTok 40 "," 44 18 false; mkTok 22 "u32" 45 4 false; mkTok 42 "Qty" 45 8 false; mkTok 43 (string_of_bytes [96; 230; 149; 176; 233; 135; 143; 96]%N) 45 12 false; mkTok 40 "," 45 16 false; mkTok 36 "repeat" 46 4 false; mkTok 15 "string" 46 11 false; mkTok 42 "ExtraInfo" 46 18 false; mkTok 43 (string_of_bytes [96; 233; 153; 132; 229; 138; 160; 228; 191; 161; 230; 129; 175; 96]%N) 46 28 false; mkTok 40 "," 46 34 false; mkTok 36 "repeat" 47 4 false; mkTok 42 "SubOrder" 47 11 false; mkTok 2 "{" 47 20 false; mkTok 12 "char[" 48 6 false; mkTok 30 "16" 48 11 false; mkTok 13 "]" 48 13 false; mkTok 42 "ClOrdID" 48 15 false; mkTok 43 (string_of_bytes [96; 229; 173; 144; 232; 174; 162; 229; 141; 149; 229; 143; 183; 96]%N) 48 23 false; mkTok 40 "," 48 29 false; mkTok 23 "u64" 49 6 false; mkTok 42 "Price" 49 10 false; mkTok 43 (string_of_bytes [96; 229; 173; 144; 232; 174; 162; 229; 141; 149; 228; 187; 183; 230; 160; 188; 96]%N) 49 16 false; mkTok 40 "," 49 23 false; mkTok 22 "u32" 50 6 false; mkTok 42 "Qty" 50 10 false; mkTok 43 (string_of_bytes [96; 229; 173; 144; 232; 174; 162; 229; 141; 149; 230; 149; 176; 233; 135; 143; 96]%N) 50 14 false; mkTok 40 "," 50 21 false; mkTok 3 "}" 51 5 false; mkTok 40 "," 51 6 false; mkTok 3 "}" 52 0 false; mkTok 35 "packet" 54 0 false; mkTok 42 "RiskControlResponse" 54 7 false; mkTok 2 "{" 54 27 false; mkTok 15 "string" 55 4 false; mkTok 42 "UniqueOrderId" 55 11 false; mkTok 43 (string_of_bytes [96; 229; 148; 175; 228; 184; 128; 232; 174; 162; 229; 141; 149; 229; 143; 183; 96]%N) 55 25 false; mkTok 40 "," 55 32 false; mkTok 26 "i32" 56 4 false; mkTok 42 "Status" 56 8 false; mkTok 43 (string_of_bytes [96; 231; 138; 182; 230; 128; 129; 96]%N) 56 15 false; mkTok 40 "," 56 19 false; mkTok 15 "string" 57 4 false; mkTok 42 "Msg" 57 11 false; mkTok 43 (string_of_bytes [96; 231; 187; 147; 230; 158; 156; 228; 191; 161; 230; 129; 175; 96]%N) 57 15 false; mkTok 40 "," 57 21 false; mkTok 36 "repeat" 58 4 false; mkTok 42 "Detail" 58 11 false; mkTok 40 "," 58 17 false; mkTok 3 "}" 59 0 false; mkTok 35 "packet" 61 0 false; mkTok 42 "Detail" 61 7 false; mkTok 2 "{" 61 14 false; mkTok 15 "string" 62 4 false; mkTok 42 "RuleName" 62 11 false; mkTok 43 (string_of_bytes [96; 232; 167; 132; 229; 136; 153; 229; 144; 141; 231; 167; 176; 96]%N) 62 20 false; mkTok 40 "," 62 26 false; mkTok 21 "u16" 63 4 false; mkTok 42 "Code" 63 8 false; mkTok 43 (string_of_bytes [96; 229; 142; 159; 229; 155; 160; 228; 187; 163; 231; 160; 129; 96]%N) 63 13 false; mkTok 40 "," 63 19 false; mkTok 3 "}" 64 0 false; mkTok 0 "<EOF>" 64 1 false] (mkPacket (mkPtok 1 "options" 1 0 0) (Some (mkPtok 3 "}" 64 0 204)) [(DOption (mkOptionDef (mkSpan (mkPtok 1 "options" 1 0 0) (mkPtok 3 "}" 4 0 10)) (mkPtok 1 "options" 1 0 0) (mkPtok 2 "{" 1 8 1) [(mkOptionDecl (mkSpan (mkPtok 42 "StringPrefixLenType" 2 1 2) (mkPtok 41 ";" 2 26 5)) (mkPtok 42 "StringPrefixLenType" 2 1 2) (mkPtok 4 "=" 2 21 3) (VType (mkSpan (mkPtok 21 "u16" 2 23 4) (mkPtok 21 "u16" 2 23 4)) (TyBasic (mkSpan (mkPtok 21 "u16" 2 23 4) (mkPtok 21 "u16" 2 23 4)) (mkBasicType (mkSpan (mkPtok 21 "u16" 2 23 4) (mkPtok 21 "u16" 2 23 4)) (mkPtok 21 "u16" 2 23 4)))) (Some (mkPtok 41 ";" 2 26 5))); (mkOptionDecl (mkSpan (mkPtok 42 "ArrayPrefixLenType" 3 1 6) (mkPtok 41 ";" 3 25 9)) (mkPtok 42 "ArrayPrefixLenType" 3 1 6) (mkPtok 4 "=" 3 20 7) (VType (mkSpan (mkPtok 21 "u16" 3 22 8) (mkPtok 21 "u16" 3 22 8)) (TyBasic (mkSpan (mkPtok 21 "u16" 3 22 8) (mkPtok 21 "u16" 3 22 8)) (mkBasicType (mkSpan (mkPtok 21 "u16" 3 22 8) (mkPtok 21 "u16" 3 22 8)) (mkPtok 21 "u16" 3 22 8)))) (Some (mkPtok 41 ";" 3 25 9)))] (mkPtok 3 "}" 4 0 10))); (DPacket (mkPacketDef (mkSpan (mkPtok 35 "packet" 6 0 11) (mkPtok 3 "}" 18 0 59)) None (mkPtok 35 "packet" 6 0 11) (mkPtok 42 "SampleBinary" 6 7 12) (mkPtok 2 "{" 6 20 13) [(mkFieldWithAttr (mkSpan (mkPtok 21 "uint16" 7 4 14) (mkPtok 40 "," 7 25 17)) [] (MetaField (mkSpan (mkPtok 21 "uint16" 7 4 14) (mkPtok 40 "," 7 25 17)) None (mkMetaDecl (mkSpan (mkPtok 21 "uint16" 7 4 14) (mkPtok 40 "," 7 25 17)) (TyBasic (mkSpan (mkPtok 21 "uint16" 7 4 14) (mkPtok 21 "uint16" 7 4 14)) (mkBasicType (mkSpan (mkPtok 21 "uint16" 7 4 14) (mkPtok 21 "uint16" 7 4 14)) (mkPtok 21 "uint16" 7 4 14))) (mkPtok 42 "MsgType" 7 11 15) (Some (mkPtok 43 (string_of_bytes [96; 230; 182; 136; 230; 129; 175; 231; 177; 187; 229; 158; 139; 96]%N) 7 19 16)) (mkPtok 40 "," 7 25 17)))); (mkFieldWithAttr (mkSpan (mkPtok 21 "u16" 8 4 18) (mkPtok 40 "," 8 42 24)) [] (LengthField (mkSpan (mkPtok 21 "u16" 8 4 18) (mkPtok 40 "," 8 42 24)) (mkLengthFieldDecl (mkSpan (mkPtok 21 "u16" 8 4 18) (mkPtok 40 "," 8 42 24)) (Some (TyBasic (mkSpan (mkPtok 21 "u16" 8 4 18) (mkPtok 21 "u16" 8 4 18)) (mkBasicType (mkSpan (mkPtok 21 "u16" 8 4 18) (mkPtok 21 "u16" 8 4 18)) (mkPtok 21 "u16" 8 4 18)))) (mkPtok 42 "BodyLenght" 8 8 19) (mkLengthOf (mkSpan (mkPtok 7 "@lengthOf(" 8 19 20) (mkPtok 6 ")" 8 33 22)) (mkPtok 7 "@lengthOf(" 8 19 20) (mkPtok 42 "Body" 8 29 21) (mkPtok 6 ")" 8 33 22)) (Some (mkPtok 43 (string_of_bytes [96; 230; 182; 136; 230; 129; 175; 228; 189; 147; 233; 149; 191; 229; 186; 166; 96]%N) 8 35 23)) (mkPtok 40 "," 8 42 24)))); (mkFieldWithAttr (mkSpan (mkPtok 38 "match" 9 4 25) (mkPtok 40 "," 15 5 51)) [] (MatchField (mkSpan (mkPtok 38 "match" 9 4 25) (mkPtok 40 "," 15 5 51)) (mkMatchFieldDecl (mkSpan (mkPtok 38 "match" 9 4 25) (mkPtok 3 "}" 15 4 50)) (mkPtok 38 "match" 9 4 25) (mkPtok 42 "MsgType" 9 10 26) (mkPtok 17 "as" 9 18 27) (mkPtok 42 "Body" 9 21 28) (mkPtok 2 "{" 9 26 29) [(mkMatchPair (mkSpan (mkPtok 30 "1" 10 8 30) (mkPtok 40 "," 10 17 33)) (MKDigits (mkPtok 30 "1" 10 8 30)) (mkPtok 39 ":" 10 10 31) (mkPtok 42 "Logon" 10 12 32) (Some (mkPtok 40 "," 10 17 33))); (mkMatchPair (mkSpan (mkPtok 30 "2" 11 8 34) (mkPtok 40 "," 11 18 37)) (MKDigits (mkPtok 30 "2" 11 8 34)) (mkPtok 39 ":" 11 10 35) (mkPtok 42 "Logout" 11 12 36) (Some (mkPtok 40 "," 11 18 37))); (mkMatchPair (mkSpan (mkPtok 30 "3" 12 8 38) (mkPtok 40 "," 12 21 41)) (MKDigits (mkPtok 30 "3" 12 8 38)) (mkPtok 39 ":" 12 10 39) (mkPtok 42 "Heartbeat" 12 12 40) (Some (mkPtok 40 "," 12 21 41))); (mkMatchPair (mkSpan (mkPtok 30 "4" 13 8 42) (mkPtok 40 "," 13 30 45)) (MKDigits (mkPtok 30 "4" 13 8 42)) (mkPtok 39 ":" 13 10 43) (mkPtok 42 "RiskControlRequest" 13 12 44) (Some (mkPtok 40 "," 13 30 45))); (mkMatchPair (mkSpan (mkPtok 30 "5" 14 8 46) (mkPtok 40 "," 14 31 49)) (MKDigits (mkPtok 30 "5" 14 8 46)) (mkPtok 39 ":" 14 10 47) (mkPtok 42 "RiskControlResponse" 14 12 48) (Some (mkPtok 40 "," 14 31 49)))] (mkPtok 3 "}" 15 4 50)) (mkPtok 40 "," 15 5 51))); (mkFieldWithAttr (mkSpan (mkPtok 5 "@calculatedFrom(" 16 8 52) (mkPtok 40 "," 17 22 58)) [(FACalculatedFrom (mkSpan (mkPtok 5 "@calculatedFrom(" 16 8 52) (mkPtok 6 ")" 16 31 54)) (mkCalculatedFrom (mkSpan (mkPtok 5 "@calculatedFrom(" 16 8 52) (mkPtok 6 ")" 16 31 54)) (mkPtok 5 "@calculatedFrom(" 16 8 52) (mkPtok 31 """CRC32""" 16 24 53) (mkPtok 6 ")" 16 31 54)))] (MetaField (mkSpan (mkPtok 22 "u32" 17 4 55) (mkPtok 40 "," 17 22 58)) None (mkMetaDecl (mkSpan (mkPtok 22 "u32" 17 4 55) (mkPtok 40 "," 17 22 58)) (TyBasic (mkSpan (mkPtok 22 "u32" 17 4 55) (mkPtok 22 "u32" 17 4 55)) (mkBasicType (mkSpan (mkPtok 22 "u32" 17 4 55) (mkPtok 22 "u32" 17 4 55)) (mkPtok 22 "u32" 17 4 55))) (mkPtok 42 "Ckecksum" 17 8 56) (Some (mkPtok 43 (string_of_bytes [96; 230; 160; 161; 233; 170; 140; 229; 146; 140; 96]%N) 17 17 57)) (mkPtok 40 "," 17 22 58))))] (mkPtok 3 "}" 18 0 59))); (DPacket (mkPacketDef (mkSpan (mkPtok 35 "packet" 20 0 60) (mkPtok 3 "}" 26 0 85)) None (mkPtok 35 "packet" 20 0 60) (mkPtok 42 "Logon" 20 7 61) (mkPtok 2 "{" 20 13 62) [(mkFieldWithAttr (mkSpan (mkPtok 32 "@leftPad" 21 5 63) (mkPtok 40 "," 22 27 72)) [(FAPadding (mkSpan (mkPtok 32 "@leftPad" 21 5 63) (mkPtok 6 ")" 21 17 66)) (mkPaddingAttr (mkSpan (mkPtok 32 "@leftPad" 21 5 63) (mkPtok 6 ")" 21 17 66)) (mkPtok 32 "@leftPad" 21 5 63) (mkPtok 8 "(" 21 13 64) (Some (mkPtok 33 "'0'" 21 14 65)) (mkPtok 6 ")" 21 17 66)))] (MetaField (mkSpan (mkPtok 12 "char[" 22 4 67) (mkPtok 40 "," 22 27 72)) None (mkMetaDecl (mkSpan (mkPtok 12 "char[" 22 4 67) (mkPtok 40 "," 22 27 72)) (TyFixed (mkSpan (mkPtok 12 "char[" 22 4 67) (mkPtok 13 "]" 22 11 69)) (mkFixedString (mkSpan (mkPtok 12 "char[" 22 4 67) (mkPtok 13 "]" 22 11 69)) (mkPtok 12 "char[" 22 4 67) (mkPtok 30 "10" 22 9 68) (mkPtok 13 "]" 22 11 69))) (mkPtok 42 "UserName" 22 13 70) (Some (mkPtok 43 (string_of_bytes [96; 231; 148; 168; 230; 136; 183; 229; 144; 141; 96]%N) 22 22 71)) (mkPtok 40 "," 22 27 72)))); (mkFieldWithAttr (mkSpan (mkPtok 15 "string" 23 4 73) (mkPtok 40 "," 23 24 76)) [] (MetaField (mkSpan (mkPtok 15 "string" 23 4 73) (mkPtok 40 "," 23 24 76)) None (mkMetaDecl (mkSpan (mkPtok 15 "string" 23 4 73) (mkPtok 40 "," 23 24 76)) (TyDynamic (mkSpan (mkPtok 15 "string" 23 4 73) (mkPtok 15 "string" 23 4 73)) (mkDynamicString (mkSpan (mkPtok 15 "string" 23 4 73) (mkPtok 15 "string" 23 4 73)) (mkPtok 15 "string" 23 4 73))) (mkPtok 42 "Password" 23 11 74) (Some (mkPtok 43 (string_of_bytes [96; 229; 175; 134; 231; 160; 129; 96]%N) 23 20 75)) (mkPtok 40 "," 23 24 76)))); (mkFieldWithAttr (mkSpan (mkPtok 23 "uint64" 24 4 77) (mkPtok 40 "," 24 27 80)) [] (MetaField (mkSpan (mkPtok 23 "uint64" 24 4 77) (mkPtok 40 "," 24 27 80)) None (mkMetaDecl (mkSpan (mkPtok 23 "uint64" 24 4 77) (mkPtok 40 "," 24 27 80)) (TyBasic (mkSpan (mkPtok 23 "uint64" 24 4 77) (mkPtok 23 "uint64" 24 4 77)) (mkBasicType (mkSpan (mkPtok 23 "uint64" 24 4 77) (mkPtok 23 "uint64" 24 4 77)) (mkPtok 23 "uint64" 24 4 77))) (mkPtok 42 "ClientId" 24 11 78) (Some (mkPtok 43 (string_of_bytes [96; 229; 174; 162; 230; 136; 183; 231; 171; 175; 73; 68; 96]%N) 24 20 79)) (mkPtok 40 "," 24 27 80)))); (mkFieldWithAttr (mkSpan (mkPtok 21 "u16" 25 4 81) (mkPtok 40 "," 25 32 84)) [] (MetaField (mkSpan (mkPtok 21 "u16" 25 4 81) (mkPtok 40 "," 25 32 84)) None (mkMetaDecl (mkSpan (mkPtok 21 "u16" 25 4 81) (mkPtok 40 "," 25 32 84)) (TyBasic (mkSpan (mkPtok 21 "u16" 25 4 81) (mkPtok 21 "u16" 25 4 81)) (mkBasicType (mkSpan (mkPtok 21 "u16" 25 4 81) (mkPtok 21 "u16" 25 4 81)) (mkPtok 21 "u16" 25 4 81))) (mkPtok 42 "HeartbeatInterval" 25 8 82) (Some (mkPtok 43 (string_of_bytes [96; 229; 191; 131; 232; 183; 179; 233; 151; 180; 233; 154; 148; 96]%N) 25 26 83)) (mkPtok 40 "," 25 32 84))))] (mkPtok 3 "}" 26 0 85))); (DPacket (mkPacketDef (mkSpan (mkPtok 35 "packet" 28 0 86) (mkPtok 3 "}" 32 0 103)) None (mkPtok 35 "packet" 28 0 86) (mkPtok 42 "Logout" 28 7 87) (mkPtok 2 "{" 28 14 88) [(mkFieldWithAttr (mkSpan (mkPtok 32 "@rightPad" 29 6 89) (mkPtok 40 "," 30 27 98)) [(FAPadding (mkSpan (mkPtok 32 "@rightPad" 29 6 89) (mkPtok 6 ")" 29 19 92)) (mkPaddingAttr (mkSpan (mkPtok 32 "@rightPad" 29 6 89) (mkPtok 6 ")" 29 19 92)) (mkPtok 32 "@rightPad" 29 6 89) (mkPtok 8 "(" 29 15 90) (Some (mkPtok 33 "'0'" 29 16 91)) (mkPtok 6 ")" 29 19 92)))] (MetaField (mkSpan (mkPtok 12 "char[" 30 4 93) (mkPtok 40 "," 30 27 98)) None (mkMetaDecl (mkSpan (mkPtok 12 "char[" 30 4 93) (mkPtok 40 "," 30 27 98)) (TyFixed (mkSpan (mkPtok 12 "char[" 30 4 93) (mkPtok 13 "]" 30 11 95)) (mkFixedString (mkSpan (mkPtok 12 "char[" 30 4 93) (mkPtok 13 "]" 30 11 95)) (mkPtok 12 "char[" 30 4 93) (mkPtok 30 "10" 30 9 94) (mkPtok 13 "]" 30 11 95))) (mkPtok 42 "UserName" 30 13 96) (Some (mkPtok 43 (string_of_bytes [96; 231; 148; 168; 230; 136; 183; 229; 144; 141; 96]%N) 30 22 97)) (mkPtok 40 "," 30 27 98)))); (mkFieldWithAttr (mkSpan (mkPtok 23 "uint64" 31 4 99) (mkPtok 40 "," 31 27 102)) [] (MetaField (mkSpan (mkPtok 23 "uint64" 31 4 99) (mkPtok 40 "," 31 27 102)) None (mkMetaDecl (mkSpan (mkPtok 23 "uint64" 31 4 99) (mkPtok 40 "," 31 27 102)) (TyBasic (mkSpan (mkPtok 23 "uint64" 31 4 99) (mkPtok 23 "uint64" 31 4 99)) (mkBasicType (mkSpan (mkPtok 23 "uint64" 31 4 99) (mkPtok 23 "uint64" 31 4 99)) (mkPtok 23 "uint64" 31 4 99))) (mkPtok 42 "ClientId" 31 11 100) (Some (mkPtok 43 (string_of_bytes [96; 229; 174; 162; 230; 136; 183; 231; 171; 175; 73; 68; 96]%N) 31 20 101)) (mkPtok 40 "," 31 27 102))))] (mkPtok 3 "}" 32 0 103))); (DPacket (mkPacketDef (mkSpan (mkPtok 35 "packet" 34 0 104) (mkPtok 3 "}" 35 0 107)) None (mkPtok 35 "packet" 34 0 104) (mkPtok 42 "Heartbeat" 34 7 105) (mkPtok 2 "{" 34 17 106) [] (mkPtok 3 "}" 35 0 107))); (DPacket (mkPacketDef (mkSpan (mkPtok 35 "packet" 37 0 108) (mkPtok 3 "}" 52 0 173)) None (mkPtok 35 "packet" 37 0 108) (mkPtok 42 "RiskControlRequest" 37 7 109) (mkPtok 2 "{" 37 26 110) [(mkFieldWithAttr (mkSpan (mkPtok 15 "string" 38 4 111) (mkPtok 40 "," 38 32 114)) [] (MetaField (mkSpan (mkPtok 15 "string" 38 4 111) (mkPtok 40 "," 38 32 114)) None (mkMetaDecl (mkSpan (mkPtok 15 "string" 38 4 111) (mkPtok 40 "," 38 32 114)) (TyDynamic (mkSpan (mkPtok 15 "string" 38 4 111) (mkPtok 15 "string" 38 4 111)) (mkDynamicString (mkSpan (mkPtok 15 "string" 38 4 111) (mkPtok 15 "string" 38 4 111)) (mkPtok 15 "string" 38 4 111))) (mkPtok 42 "UniqueOrderId" 38 11 112) (Some (mkPtok 43 (string_of_bytes [96; 229; 148; 175; 228; 184; 128; 232; 174; 162; 229; 141; 149; 229; 143; 183; 96]%N) 38 25 113)) (mkPtok 40 "," 38 32 114)))); (mkFieldWithAttr (mkSpan (mkPtok 12 "char[" 39 4 115) (mkPtok 40 "," 39 28 120)) [] (MetaField (mkSpan (mkPtok 12 "char[" 39 4 115) (mkPtok 40 "," 39 28 120)) None (mkMetaDecl (mkSpan (mkPtok 12 "char[" 39 4 115) (mkPtok 40 "," 39 28 120)) (TyFixed (mkSpan (mkPtok 12 "char[" 39 4 115) (mkPtok 13 "]" 39 11 117)) (mkFixedString (mkSpan (mkPtok 12 "char[" 39 4 115) (mkPtok 13 "]" 39 11 117)) (mkPtok 12 "char[" 39 4 115) (mkPtok 30 "16" 39 9 116) (mkPtok 13 "]" 39 11 117))) (mkPtok 42 "ClOrdID" 39 13 118) (Some (mkPtok 43 (string_of_bytes [96; 229; 174; 162; 230; 136; 183; 232; 174; 162; 229; 141; 149; 229; 143; 183; 96]%N) 39 21 119)) (mkPtok 40 "," 39 28 120)))); (mkFieldWithAttr (mkSpan (mkPtok 12 "char[" 40 4 121) (mkPtok 40 "," 40 27 126)) [] (MetaField (mkSpan (mkPtok 12 "char[" 40 4 121) (mkPtok 40 "," 40 27 126)) None (mkMetaDecl (mkSpan (mkPtok 12 "char[" 40 4 121) (mkPtok 40 "," 40 27 126)) (TyFixed (mkSpan (mkPtok 12 "char[" 40 4 121) (mkPtok 13 "]" 40 10 123)) (mkFixedString (mkSpan (mkPtok 12 "char[" 40 4 121) (mkPtok 13 "]" 40 10 123)) (mkPtok 12 "char[" 40 4 121) (mkPtok 30 "3" 40 9 122) (mkPtok 13 "]" 40 10 123))) (mkPtok 42 "MarketID" 40 12 124) (Some (mkPtok 43 (string_of_bytes [96; 229; 184; 130; 229; 156; 186; 105; 100; 96]%N) 40 21 125)) (mkPtok 40 "," 40 27 126)))); (mkFieldWithAttr (mkSpan (mkPtok 12 "char[" 41 4 127) (mkPtok 40 "," 41 30 132)) [] (MetaField (mkSpan (mkPtok 12 "char[" 41 4 127) (mkPtok 40 "," 41 30 132)) None (mkMetaDecl (mkSpan (mkPtok 12 "char[" 41 4 127) (mkPtok 40 "," 41 30 132)) (TyFixed (mkSpan (mkPtok 12 "char[" 41 4 127) (mkPtok 13 "]" 41 11 129)) (mkFixedString (mkSpan (mkPtok 12 "char[" 41 4 127) (mkPtok 13 "]" 41 11 129)) (mkPtok 12 "char[" 41 4 127) (mkPtok 30 "12" 41 9 128) (mkPtok 13 "]" 41 11 129))) (mkPtok 42 "SecurityID" 41 13 130) (Some (mkPtok 43 (string_of_bytes [96; 232; 175; 129; 229; 136; 184; 228; 187; 163; 231; 160; 129; 96]%N) 41 24 131)) (mkPtok 40 "," 41 30 132)))); (mkFieldWithAttr (mkSpan (mkPtok 19 "char" 42 4 133) (mkPtok 40 "," 42 20 136)) [] (MetaField (mkSpan (mkPtok 19 "char" 42 4 133) (mkPtok 40 "," 42 20 136)) None (mkMetaDecl (mkSpan (mkPtok 19 "char" 42 4 133) (mkPtok 40 "," 42 20 136)) (TyBasic (mkSpan (mkPtok 19 "char" 42 4 133) (mkPtok 19 "char" 42 4 133)) (mkBasicType (mkSpan (mkPtok 19 "char" 42 4 133) (mkPtok 19 "char" 42 4 133)) (mkPtok 19 "char" 42 4 133))) (mkPtok 42 "Side" 42 9 134) (Some (mkPtok 43 (string_of_bytes [96; 228; 185; 176; 229; 141; 150; 230; 150; 185; 229; 144; 145; 96]%N) 42 14 135)) (mkPtok 40 "," 42 20 136)))); (mkFieldWithAttr (mkSpan (mkPtok 19 "char" 43 4 137) (mkPtok 40 "," 43 25 140)) [] (MetaField (mkSpan (mkPtok 19 "char" 43 4 137) (mkPtok 40 "," 43 25 140)) None (mkMetaDecl (mkSpan (mkPtok 19 "char" 43 4 137) (mkPtok 40 "," 43 25 140)) (TyBasic (mkSpan (mkPtok 19 "char" 43 4 137) (mkPtok 19 "char" 43 4 137)) (mkBasicType (mkSpan (mkPtok 19 "char" 43 4 137) (mkPtok 19 "char" 43 4 137)) (mkPtok 19 "char" 43 4 137))) (mkPtok 42 "OrderType" 43 9 138) (Some (mkPtok 43 (string_of_bytes [96; 232; 174; 162; 229; 141; 149; 231; 177; 187; 229; 158; 139; 96]%N) 43 19 139)) (mkPtok 40 "," 43 25 140)))); (mkFieldWithAttr (mkSpan (mkPtok 23 "u64" 44 4 141) (mkPtok 40 "," 44 18 144)) [] (MetaField (mkSpan (mkPtok 23 "u64" 44 4 141) (mkPtok 40 "," 44 18 144)) None (mkMetaDecl (mkSpan (mkPtok 23 "u64" 44 4 141) (mkPtok 40 "," 44 18 144)) (TyBasic (mkSpan (mkPtok 23 "u64" 44 4 141) (mkPtok 23 "u64" 44 4 141)) (mkBasicType (mkSpan (mkPtok 23 "u64" 44 4 141) (mkPtok 23 "u64" 44 4 141)) (mkPtok 23 "u64" 44 4 141))) (mkPtok 42 "Price" 44 8 142) (Some (mkPtok 43 (string_of_bytes [96; 228; 187; 183; 230; 160; 188; 96]%N) 44 14 143)) (mkPtok 40 "," 44 18 144)))); (mkFieldWithAttr (mkSpan (mkPtok 22 "u32" 45 4 145) (mkPtok 40 "," 45 16 148)) [] (MetaField (mkSpan (mkPtok 22 "u32" 45 4 145) (mkPtok 40 "," 45 16 148)) None (mkMetaDecl (mkSpan (mkPtok 22 "u32" 45 4 145) (mkPtok 40 "," 45 16 148)) (TyBasic (mkSpan (mkPtok 22 "u32" 45 4 145) (mkPtok 22 "u32" 45 4 145)) (mkBasicType (mkSpan (mkPtok 22 "u32" 45 4 145) (mkPtok 22 "u32" 45 4 145)) (mkPtok 22 "u32" 45 4 145))) (mkPtok 42 "Qty" 45 8 146) (Some (mkPtok 43 (string_of_bytes [96; 230; 149; 176; 233; 135; 143; 96]%N) 45 12 147)) (mkPtok 40 "," 45 16 148)))); (mkFieldWithAttr (mkSpan (mkPtok 36 "repeat" 46 4 149) (mkPtok 40 "," 46 34 153)) [] (MetaField (mkSpan (mkPtok 36 "repeat" 46 4 149) (mkPtok 40 "," 46 34 153)) (Some (mkPtok 36 "repeat" 46 4 149)) (mkMetaDecl (mkSpan (mkPtok 15 "string" 46 11 150) (mkPtok 40 "," 46 34 153)) (TyDynamic (mkSpan (mkPtok 15 "string" 46 11 150) (mkPtok 15 "string" 46 11 150)) (mkDynamicString (mkSpan (mkPtok 15 "string" 46 11 150) (mkPtok 15 "string" 46 11 150)) (mkPtok 15 "string" 46 11 150))) (mkPtok 42 "ExtraInfo" 46 18 151) (Some (mkPtok 43 (string_of_bytes [96; 233; 153; 132; 229; 138; 160; 228; 191; 161; 230; 129; 175; 96]%N) 46 28 152)) (mkPtok 40 "," 46 34 153)))); (mkFieldWithAttr (mkSpan (mkPtok 36 "repeat" 47 4 154) (mkPtok 40 "," 51 6 172)) [] (InerObjectField (mkSpan (mkPtok 36 "repeat" 47 4 154) (mkPtok 40 "," 51 6 172)) (Some (mkPtok 36 "repeat" 47 4 154)) (InerObjectDecl (mkSpan (mkPtok 42 "SubOrder" 47 11 155) (mkPtok 3 "}" 51 5 171)) (mkPtok 42 "SubOrder" 47 11 155) (mkPtok 2 "{" 47 20 156) [(MetaField (mkSpan (mkPtok 12 "char[" 48 6 157) (mkPtok 40 "," 48 29 162)) None (mkMetaDecl (mkSpan (mkPtok 12 "char[" 48 6 157) (mkPtok 40 "," 48 29 162)) (TyFixed (mkSpan (mkPtok 12 "char[" 48 6 157) (mkPtok 13 "]" 48 13 159)) (mkFixedString (mkSpan (mkPtok 12 "char[" 48 6 157) (mkPtok 13 "]" 48 13 159)) (mkPtok 12 "char[" 48 6 157) (mkPtok 30 "16" 48 11 158) (mkPtok 13 "]" 48 13 159))) (mkPtok 42 "ClOrdID" 48 15 160) (Some (mkPtok 43 (string_of_bytes [96; 229; 173; 144; 232; 174; 162; 229; 141; 149; 229; 143; 183; 96]%N) 48 23 161)) (mkPtok 40 "," 48 29 162))); (MetaField (mkSpan (mkPtok 23 "u64" 49 6 163) (mkPtok 40 "," 49 23 166)) None (mkMetaDecl (mkSpan (mkPtok 23 "u64" 49 6 163) (mkPtok 40 "," 49 23 166)) (TyBasic (mkSpan (mkPtok 23 "u64" 49 6 163) (mkPtok 23 "u64" 49 6 163)) (mkBasicType (mkSpan (mkPtok 23 "u64" 49 6 163) (mkPtok 23 "u64" 49 6 163)) (mkPtok 23 "u64" 49 6 163))) (mkPtok 42 "Price" 49 10 164) (Some (mkPtok 43 (string_of_bytes [96; 229; 173; 144; 232; 174; 162; 229; 141; 149; 228; 187; 183; 230; 160; 188; 96]%N) 49 16 165)) (mkPtok 40 "," 49 23 166))); (MetaField (mkSpan (mkPtok 22 "u32" 50 6 167) (mkPtok 40 "," 50 21 170)) None (mkMetaDecl (mkSpan (mkPtok 22 "u32" 50 6 167) (mkPtok 40 "," 50 21 170)) (TyBasic (mkSpan (mkPtok 22 "u32" 50 6 167) (mkPtok 22 "u32" 50 6 167)) (mkBasicType (mkSpan (mkPtok 22 "u32" 50 6 167) (mkPtok 22 "u32" 50 6 167)) (mkPtok 22 "u32" 50 6 167))) (mkPtok 42 "Qty" 50 10 168) (Some (mkPtok 43 (string_of_bytes [96; 229; 173; 144; 232; 174; 162; 229; 141; 149; 230; 149; 176; 233; 135; 143; 96]%N) 50 14 169)) (mkPtok 40 "," 50 21 170)))] (mkPtok 3 "}" 51 5 171)) (mkPtok 40 "," 51 6 172)))] (mkPtok 3 "}" 52 0 173))); (DPacket (mkPacketDef (mkSpan (mkPtok 35 "packet" 54 0 174) (mkPtok 3 "}" 59 0 192)) None (mkPtok 35 "packet" 54 0 174) (mkPtok 42 "RiskControlResponse" 54 7 175) (mkPtok 2 "{" 54 27 176) [(mkFieldWithAttr (mkSpan (mkPtok 15 "string" 55 4 177) (mkPtok 40 "," 55 32 180)) [] (MetaField (mkSpan (mkPtok 15 "string" 55 4 177) (mkPtok 40 "," 55 32 180)) None (mkMetaDecl (mkSpan (mkPtok 15 "string" 55 4 177) (mkPtok 40 "," 55 32 180)) (TyDynamic (mkSpan (mkPtok 15 "string" 55 4 177) (mkPtok 15 "string" 55 4 177)) (mkDynamicString (mkSpan (mkPtok 15 "string" 55 4 177) (mkPtok 15 "string" 55 4 177)) (mkPtok 15 "string" 55 4 177))) (mkPtok 42 "UniqueOrderId" 55 11 178) (Some (mkPtok 43 (string_of_bytes [96; 229; 148; 175; 228; 184; 128; 232; 174; 162; 229; 141; 149; 229; 143; 183; 96]%N) 55 25 179)) (mkPtok 40 "," 55 32 180)))); (mkFieldWithAttr (mkSpan (mkPtok 26 "i32" 56 4 181) (mkPtok 40 "," 56 19 184)) [] (MetaField (mkSpan (mkPtok 26 "i32" 56 4 181) (mkPtok 40 "," 56 19 184)) None (mkMetaDecl (mkSpan (mkPtok 26 "i32" 56 4 181) (mkPtok 40 "," 56 19 184)) (TyBasic (mkSpan (mkPtok 26 "i32" 56 4 181) (mkPtok 26 "i32" 56 4 181)) (mkBasicType (mkSpan (mkPtok 26 "i32" 56 4 181) (mkPtok 26 "i32" 56 4 181)) (mkPtok 26 "i32" 56 4 181))) (mkPtok 42 "Status" 56 8 182) (Some (mkPtok 43 (string_of_bytes [96; 231; 138; 182; 230; 128; 129; 96]%N) 56 15 183)) (mkPtok 40 "," 56 19 184)))); (mkFieldWithAttr (mkSpan (mkPtok 15 "string" 57 4 185) (mkPtok 40 "," 57 21 188)) [] (MetaField (mkSpan (mkPtok 15 "string" 57 4 185) (mkPtok 40 "," 57 21 188)) None (mkMetaDecl (mkSpan (mkPtok 15 "string" 57 4 185) (mkPtok 40 "," 57 21 188)) (TyDynamic (mkSpan (mkPtok 15 "string" 57 4 185) (mkPtok 15 "string" 57 4 185)) (mkDynamicString (mkSpan (mkPtok 15 "string" 57 4 185) (mkPtok 15 "string" 57 4 185)) (mkPtok 15 "string" 57 4 185))) (mkPtok 42 "Msg" 57 11 186) (Some (mkPtok 43 (string_of_bytes [96; 231; 187; 147; 230; 158; 156; 228; 191; 161; 230; 129; 175; 96]%N) 57 15 187)) (mkPtok 40 "," 57 21 188)))); (mkFieldWithAttr (mkSpan (mkPtok 36 "repeat" 58 4 189) (mkPtok 40 "," 58 17 191)) [] (ObjectField (mkSpan (mkPtok 36 "repeat" 58 4 189) (mkPtok 40 "," 58 17 191)) (Some (mkPtok 36 "repeat" 58 4 189)) (mkPtok 42 "Detail" 58 11 190) None None (mkPtok 40 "," 58 17 191)))] (mkPtok 3 "}" 59 0 192))); (DPacket (mkPacketDef (mkSpan (mkPtok 35 "packet" 61 0 193) (mkPtok 3 "}" 64 0 204)) None (mkPtok 35 "packet" 61 0 193) (mkPtok 42 "Detail" 61 7 194) (mkPtok 2 "{" 61 14 195) [(mkFieldWithAttr (mkSpan (mkPtok 15 "string" 62 4 196) (mkPtok 40 "," 62 26 199)) [] (MetaField (mkSpan (mkPtok 15 "string" 62 4 196) (mkPtok 40 "," 62 26 199)) None (mkMetaDecl (mkSpan (mkPtok 15 "string" 62 4 196) (mkPtok 40 "," 62 26 199)) (TyDynamic (mkSpan (mkPtok 15 "string" 62 4 196) (mkPtok 15 "string" 62 4 196)) (mkDynamicString (mkSpan (mkPtok 15 "string" 62 4 196) (mkPtok 15 "string" 62 4 196)) (mkPtok 15 "string" 62 4 196))) (mkPtok 42 "RuleName" 62 11 197) (Some (mkPtok 43 (string_of_bytes [96; 232; 167; 132; 229; 136; 153; 229; 144; 141; 231; 167; 176; 96]%N) 62 20 198)) (mkPtok 40 "," 62 26 199)))); (mkFieldWithAttr (mkSpan (mkPtok 21 "u16" 63 4 200) (mkPtok 40 "," 63 19 203)) [] (MetaField (mkSpan (mkPtok 21 "u16" 63 4 200) (mkPtok 40 "," 63 19 203)) None (mkMetaDecl (mkSpan (mkPtok 21 "u16" 63 4 200) (mkPtok 40 "," 63 19 203)) (TyBasic (mkSpan (mkPtok 21 "u16" 63 4 200) (mkPtok 21 "u16" 63 4 200)) (mkBasicType (mkSpan (mkPtok 21 "u16" 63 4 200) (mkPtok 21 "u16" 63 4 200)) (mkPtok 21 "u16" 63 4 200))) (mkPtok 42 "Code" 63 8 201) (Some (mkPtok 43 (string_of_bytes [96; 229; 142; 159; 229; 155; 160; 228; 187; 163; 231; 160; 129; 96]%N) 63 13 202)) (mkPtok 40 "," 63 19 203))))] (mkPtok 3 "}" 64 0 204)))])).
-Eval vm_compute in ("<<<M310>>>" ++ check (runes_of_ascii "packet packet
-asx
-{ Z9_ Header// " ++ [128512]%N ++ runes_of_ascii " emoji
-,} packet pack
-    { }
+Eval vm_compute in ("<<<M310>>>" ++ check (runes_of_ascii "MetaData MetaData
+crc	{ char[] Z9_`{ , }`,} options { tag =
+    false } packet
+// a // b
+// @lengthOf(
+Pad {Foo @calculatedFrom( // `tick` ""quote"" 'q'
+""a\\"" ) ,
+    trueish ,
+    char[ 00]
+    // " ++ [128512]%N ++ runes_of_ascii " emoji
+    packetx , }
 ")).
-Eval vm_compute in ("<<<M320>>>" ++ check (runes_of_ascii "packet
-asx
-{ { Z9_ Header// " ++ [128512]%N ++ runes_of_ascii " emoji
-,} packet pack
-    { }
+Eval vm_compute in ("<<<M320>>>" ++ check (runes_of_ascii "MetaData
+crc	{ { char[] Z9_`{ , }`,} options { tag =
+    false } packet
+// a // b
+// @lengthOf(
+Pad {Foo @calculatedFrom( // `tick` ""quote"" 'q'
+""a\\"" ) ,
+    trueish ,
+    char[ 00]
+    // " ++ [128512]%N ++ runes_of_ascii " emoji
+    packetx , }
 ")).
-Eval vm_compute in ("<<<M330>>>" ++ check (runes_of_ascii "packet
-asx
-{ Z9_ Header Header// " ++ [128512]%N ++ runes_of_ascii " emoji
-,} packet pack
-    { }
+Eval vm_compute in ("<<<M330>>>" ++ check (runes_of_ascii "MetaData
+crc	{ char[] Z9_ Z9_`{ , }`,} options { tag =
+    false } packet
+// a // b
+// @lengthOf(
+Pad {Foo @calculatedFrom( // `tick` ""quote"" 'q'
+""a\\"" ) ,
+    trueish ,
+    char[ 00]
+    // " ++ [128512]%N ++ runes_of_ascii " emoji
+    packetx , }
 ")).
-Eval vm_compute in ("<<<M340>>>" ++ check (runes_of_ascii "packet
-asx
-{ Z9_ Header// " ++ [128512]%N ++ runes_of_ascii " emoji
-,} } packet pack
-    { }
+Eval vm_compute in ("<<<M340>>>" ++ check (runes_of_ascii "MetaData
+crc	{ char[] Z9_`{ , }`, ,} options { tag =
+    false } packet
+// a // b
+// @lengthOf(
+Pad {Foo @calculatedFrom( // `tick` ""quote"" 'q'
+""a\\"" ) ,
+    trueish ,
+    char[ 00]
+    // " ++ [128512]%N ++ runes_of_ascii " emoji
+    packetx , }
 ")).
-Eval vm_compute in ("<<<M350>>>" ++ check (runes_of_ascii "packet
-asx
-{ Z9_ Header// " ++ [128512]%N ++ runes_of_ascii " emoji
-,} packet pack pack
-    { }
+Eval vm_compute in ("<<<M350>>>" ++ check (runes_of_ascii "MetaData
+crc	{ char[] Z9_`{ , }`,} options options { tag =
+    false } packet
+// a // b
+// @lengthOf(
+Pad {Foo @calculatedFrom( // `tick` ""quote"" 'q'
+""a\\"" ) ,
+    trueish ,
+    char[ 00]
+    // " ++ [128512]%N ++ runes_of_ascii " emoji
+    packetx , }
 ")).
-Eval vm_compute in ("<<<M360>>>" ++ check (runes_of_ascii "packet
-asx
-{ Z9_ Header// " ++ [128512]%N ++ runes_of_ascii " emoji
-,} packet pack
-    { } }
+Eval vm_compute in ("<<<M360>>>" ++ check (runes_of_ascii "MetaData
+crc	{ char[] Z9_`{ , }`,} options { tag tag =
+    false } packet
+// a // b
+// @lengthOf(
+Pad {Foo @calculatedFrom( // `tick` ""quote"" 'q'
+""a\\"" ) ,
+    trueish ,
+    char[ 00]
+    // " ++ [128512]%N ++ runes_of_ascii " emoji
+    packetx , }
 ")).
-Eval vm_compute in ("<<<M370>>>" ++ check (runes_of_ascii "/packet
-asx
-{ Z9_ Header// " ++ [128512]%N ++ runes_of_ascii " emoji
-,} packet pack
-    { }
+Eval vm_compute in ("<<<M370>>>" ++ check (runes_of_ascii "MetaData
+crc	{ char[] Z9_`{ , }`,} options { tag =
+    false false } packet
+// a // b
+// @lengthOf(
+Pad {Foo @calculatedFrom( // `tick` ""quote"" 'q'
+""a\\"" ) ,
+    trueish ,
+    char[ 00]
+    // " ++ [128512]%N ++ runes_of_ascii " emoji
+    packetx , }
 ")).
-Eval vm_compute in ("<<<M380>>>" ++ check (runes_of_ascii "packet
-asx
-{ Z9_ @xHeader// " ++ [128512]%N ++ runes_of_ascii " emoji
-,} packet pack
-    { }
+Eval vm_compute in ("<<<M380>>>" ++ check (runes_of_ascii "MetaData
+crc	{ char[] Z9_`{ , }`,} options { tag =
+    false } packet packet
+// a // b
+// @lengthOf(
+Pad {Foo @calculatedFrom( // `tick` ""quote"" 'q'
+""a\\"" ) ,
+    trueish ,
+    char[ 00]
+    // " ++ [128512]%N ++ runes_of_ascii " emoji
+    packetx , }
 ")).
-Eval vm_compute in ("<<<M390>>>" ++ check (runes_of_ascii "MetaData  { char[ // `tick` ""quote"" 'q'
-3] body, } packet o{
-u8
-charz ,
-    }")).
-Eval vm_compute in ("<<<M400>>>" ++ check (runes_of_ascii "MetaData o {  // `tick` ""quote"" 'q'
-3] body, } packet o{
-u8
-charz ,
-    }")).
-Eval vm_compute in ("<<<M410>>>" ++ check (runes_of_ascii "MetaData o { char[ // `tick` ""quote"" 'q'
-3 body, } packet o{
-u8
-charz ,
-    }")).
-Eval vm_compute in ("<<<M420>>>" ++ check (runes_of_ascii "MetaData o { char[ // `tick` ""quote"" 'q'
-3] body } packet o{
-u8
-charz ,
-    }")).
-Eval vm_compute in ("<<<M430>>>" ++ check (runes_of_ascii "MetaData o { char[ // `tick` ""quote"" 'q'
-3] body, }  o{
-u8
-charz ,
-    }")).
-Eval vm_compute in ("<<<M440>>>" ++ check (runes_of_ascii "MetaData o { char[ // `tick` ""quote"" 'q'
-3] body, } packet o
-u8
-charz ,
-    }")).
-Eval vm_compute in ("<<<M450>>>" ++ check (runes_of_ascii "MetaData o { char[ // `tick` ""quote"" 'q'
-3] body, } packet o{
-u8
- ,
-    }")).
-Eval vm_compute in ("<<<M460>>>" ++ check (runes_of_ascii "MetaData o { char[ // `tick` ""quote"" 'q'
-3] body, } packet o{
-u8
-charz ,
-    ")).
-Eval vm_compute in ("<<<M470>>>" ++ check (runes_of_ascii "MetaData o { char[ // `tick` ""quote"" 'q'
-3] body, } packet o{
-u8~
-charz ,
-    }")).
-Eval vm_compute in ("<<<M480>>>" ++ check (runes_of_ascii "MetaData o { char[ // `tick` ""quote"" 'q'
-3] body, } packet o{
-u8
-cha" ++ [127]%N ++ runes_of_ascii "rz ,
-    }")).
-Eval vm_compute in ("<<<M490>>>" ++ check (@nil rune)).
-Eval vm_compute in ("<<<T490>>>" ++ terms [mkTok 0 "<EOF>" 1 0 false] (mkPacket (mkPtok 0 "<EOF>" 1 0 0) None [])).
-Eval vm_compute in ("<<<M500>>>" ++ check (runes_of_ascii "options {")).
-Eval vm_compute in ("<<<M510>>>" ++ check (runes_of_ascii "options {calculatedFrom =")).
-Eval vm_compute in ("<<<M520>>>" ++ check (runes_of_ascii "op")).
-Eval vm_compute in ("<<<M530>>>" ++ check (runes_of_ascii "options {calculatedFrom@lengthOf =	int8 ;}
-
+Eval vm_compute in ("<<<M390>>>" ++ check (runes_of_ascii "MetaData
+crc	{ char[] Z9_`{ , }`,} options { tag =
+    false } packet
+// a // b
+// @lengthOf(
+Pad { {Foo @calculatedFrom( // `tick` ""quote"" 'q'
+""a\\"" ) ,
+    trueish ,
+    char[ 00]
+    // " ++ [128512]%N ++ runes_of_ascii " emoji
+    packetx , }
 ")).
-Eval vm_compute in ("<<<M540>>>" ++ check (runes_of_ascii "options {a" ++ [769]%N ++ runes_of_ascii "b =	int8 ;}
-
+Eval vm_compute in ("<<<M400>>>" ++ check (runes_of_ascii "MetaData
+crc	{ char[] Z9_`{ , }`,} options { tag =
+    false } packet
+// a // b
+// @lengthOf(
+Pad {Foo @calculatedFrom( @calculatedFrom( // `tick` ""quote"" 'q'
+""a\\"" ) ,
+    trueish ,
+    char[ 00]
+    // " ++ [128512]%N ++ runes_of_ascii " emoji
+    packetx , }
 ")).
-Eval vm_compute in ("<<<M550>>>" ++ check (runes_of_ascii "
-MetaData chars {Logon packetx,
-    float calculatedFrom
-,  u32 i64_ ,")).
-Eval vm_compute in ("<<<M560>>>" ++ check (runes_of_ascii "
+Eval vm_compute in ("<<<M410>>>" ++ check (runes_of_ascii "MetaData
+crc	{ char[] Z9_`{ , }`,} options { tag =
+    false } packet
+// a // b
+// @lengthOf(
+Pad {Foo @calculatedFrom( // `tick` ""quote"" 'q'
+""a\\"" ) ) ,
+    trueish ,
+    char[ 00]
+    // " ++ [128512]%N ++ runes_of_ascii " emoji
+    packetx , }
 ")).
+Eval vm_compute in ("<<<M420>>>" ++ check (runes_of_ascii "MetaData
+crc	{ char[] Z9_`{ , }`,} options { tag =
+    false } packet
+// a // b
+// @lengthOf(
+Pad {Foo @calculatedFrom( // `tick` ""quote"" 'q'
+""a\\"" ) ,
+    trueish trueish ,
+    char[ 00]
+    // " ++ [128512]%N ++ runes_of_ascii " emoji
+    packetx , }
+")).
+Eval vm_compute in ("<<<M430>>>" ++ check (runes_of_ascii "MetaData
+crc	{ char[] Z9_`{ , }`,} options { tag =
+    false } packet
+// a // b
+// @lengthOf(
+Pad {Foo @calculatedFrom( // `tick` ""quote"" 'q'
+""a\\"" ) ,
+    trueish ,
+    char[ char[ 00]
+    // " ++ [128512]%N ++ runes_of_ascii " emoji
+    packetx , }
+")).
+Eval vm_compute in ("<<<M440>>>" ++ check (runes_of_ascii "MetaData
+crc	{ char[] Z9_`{ , }`,} options { tag =
+    false } packet
+// a // b
+// @lengthOf(
+Pad {Foo @calculatedFrom( // `tick` ""quote"" 'q'
+""a\\"" ) ,
+    trueish ,
+    char[ 00] ]
+    // " ++ [128512]%N ++ runes_of_ascii " emoji
+    packetx , }
+")).
+Eval vm_compute in ("<<<M450>>>" ++ check (runes_of_ascii "MetaData
+crc	{ char[] Z9_`{ , }`,} options { tag =
+    false } packet
+// a // b
+// @lengthOf(
+Pad {Foo @calculatedFrom( // `tick` ""quote"" 'q'
+""a\\"" ) ,
+    trueish ,
+    char[ 00]
+    // " ++ [128512]%N ++ runes_of_ascii " emoji
+    packetx , , }
+")).
+Eval vm_compute in ("<<<M460>>>" ++ check (runes_of_ascii "MetaData
+crc	{ char[] Z9_`{ , }`,} options { tag =
+    false } packet
+// a // b
+// @lengthOf(
+Pad {Foo @calculatedFrom( // `tick` ""quote"" 'q'
+""a\\"" ) ,
+    trueish ,
+    char[ 00]
+    // " ++ [128512]%N ++ runes_of_ascii " emoji
+")).
+Eval vm_compute in ("<<<M470>>>" ++ check (runes_of_ascii "MetaData
+crc	{ char[] Z9_`{ , }`,} options { tag =
+    false } packet
+// a // b
+// @lengthOf(
+Pad {Foo @calculatedF~rom( // `tick` ""quote"" 'q'
+""a\\"" ) ,
+    trueish ,
+    char[ 00]
+    // " ++ [128512]%N ++ runes_of_ascii " emoji
+    packetx , }
+")).
+Eval vm_compute in ("<<<M480>>>" ++ check (runes_of_ascii "root packet _x	{ @rightPad (
+ ) string u8x @lengthOf(
+    _x
+) , repeat Pad  { // " ++ [128512]%N ++ runes_of_ascii " emoji
+As
+// `tick` ""quote"" 'q'
+//x
+{matchKey chars,
+} , }, }")).
+Eval vm_compute in ("<<<M490>>>" ++ check (runes_of_ascii "root packet _x	{ @rightPad (
+' ' )")).
+Eval vm_compute in ("<<<M500>>>" ++ check (runes_of_ascii "root packet _x	{ @rightPad (
+' ' ) string u8x @lengthOf(
+    _x
+) , repeat Pad  { // " ++ [128512]%N ++ runes_of_ascii " emoji
+As
+// `tick` ""quote"" 'q'
+//x
+{matchKey chars,
+} } , }, }")).
+Eval vm_compute in ("<<<M510>>>" ++ check (runes_of_ascii "root packet _x	{ @rightPad (
+' ' ) string u8x @lengthOf(
+    _x
+) , repeat Pad  { { // " ++ [128512]%N ++ runes_of_ascii " emoji
+As
+// `tick` ""quote"" 'q'
+//x
+{matchKey chars,
+} , }, }")).
+Eval vm_compute in ("<<<M520>>>" ++ check (runes_of_ascii "packet root _x	{ @rightPad (
+' ' ) string u8x @lengthOf(
+    _x
+) , repeat Pad  { // " ++ [128512]%N ++ runes_of_ascii " emoji
+As
+// `tick` ""quote"" 'q'
+//x
+{matchKey chars,
+} , }, }")).
+Eval vm_compute in ("<<<M530>>>" ++ check (runes_of_ascii "root packet _x	{ @rightPad (
+' ' ) string u8x @lengthOf(
+    _x
+) as repeat Pad  { // " ++ [128512]%N ++ runes_of_ascii " emoji
+As
+// `tick` ""quote"" 'q'
+//x
+{matchKey chars,
+} , }, }")).
+Eval vm_compute in ("<<<M540>>>" ++ check (runes_of_ascii "root packet _x	{ @rightPad (
+' ' ) string u8x @lengthOf(
+    _x
+) , repeat Pad  { // " ++ [128512]%N ++ runes_of_ascii " emoji
+As
+// `tick` ""quote"" 'q'
+//x
+{matchKey chars,
+} `100% of %d` }, }")).
+Eval vm_compute in ("<<<M550>>>" ++ check (runes_of_ascii "root packet _x	{ @rightPad (
+' ' ) string u8x @lengthOf(
+    _x
+) , repeat Pad  { // " ++ [128512]%N ++ runes_of_ascii " emoji
+As
+// `tick` ""quote"" 'q'
+//x
+{matchKey matchKey chars,
+} , }, }")).
+Eval vm_compute in ("<<<M560>>>" ++ check (runes_of_ascii "root packet _x	char[] @rightPad (
+' ' ) string u8x @lengthOf(
+    _x
+) , repeat Pad  { // " ++ [128512]%N ++ runes_of_ascii " emoji
+As
+// `tick` ""quote"" 'q'
+//x
+{matchKey chars,
+} , }, }")).
 Eval vm_compute in ("<<<M570>>>" ++ check (runes_of_ascii "//")).
-Eval vm_compute in ("<<<M580>>>" ++ check (runes_of_ascii "float64 @lengthOf( false : f32")).
-Eval vm_compute in ("<<<M590>>>" ++ check (runes_of_ascii "S")).
+Eval vm_compute in ("<<<M580>>>" ++ check (runes_of_ascii "' ' } match u64 f64 `say ""hi""` match 7 uint8 int8")).
+Eval vm_compute in ("<<<M590>>>" ++ check (runes_of_ascii "R10X>Hj3S7F$[YuBB]Gw=wcD""1ok[NFyj,pr$w")).
